@@ -16,1262 +16,1299 @@ Definition terms (ts : list tok) (t : pt) : string :=
   digest (show_toks (Some ts)) ++ " " ++ digest (show_pt (Some t)) ++ " " ++ digest (show_pt (parse ts)).
 Definition terms_full (ts : list tok) (t : pt) : string :=
   show_toks (Some ts) ++ nl ++ show_pt (Some t) ++ nl ++ show_pt (parse ts).
-Eval vm_compute in ("<<<M21>>>" ++ check (runes_of_ascii "options { x_y_z =  """ ++ [128512]%N ++ runes_of_ascii """
-/// triple
-// @lengthOf(
-options1 =
-""a\\""  ;
-    x_y_z  = 255 ; } //x
-packet
-    charz {
-    } // trailing space ")).
-Eval vm_compute in ("<<<M53>>>" ++ check (runes_of_ascii "packet BodyLength {}
-")).
-Eval vm_compute in ("<<<M85>>>" ++ check (runes_of_ascii "
-")).
-Eval vm_compute in ("<<<M117>>>" ++ check (@nil rune)).
-Eval vm_compute in ("<<<M149>>>" ++ check (runes_of_ascii "root packet crc {@calculatedFrom(
-""" ++ [128512]%N ++ runes_of_ascii """)
-BodyLength{x_y_z i8i8
-//
-//
-, int32 uint8x
-`two words` ,	rootA tag , zchar[
-7] matchKey
-    `" ++ [233]%N ++ runes_of_ascii "` ,} , T { x@calculatedFrom( ""a	b"" )
-`// not a comment` ,zchar[ // " ++ [128512]%N ++ runes_of_ascii " emoji
-42 ] /// triple
-A
-, match chars
-as
-    //x
-    len {""packet"" :crc 3//x
-:
-chars [
-0123456789 , ""packet"" ]
-    : pack	[""packet""
-,
-00// " ++ [27880; 37322]%N ++ runes_of_ascii "
-,
-    7 ,""" ++ [28040; 24687]%N ++ runes_of_ascii """, 3
-,  ""packet"",
-    42, 0123456789
-    ] :
-repeatCount	""{,}"" :
-chars
-    ,/// triple
-} ,
-} ,
-}")).
-Eval vm_compute in ("<<<M181>>>" ++ check (runes_of_ascii "root
-packet charz {// a // b
-@rightPad
-    //	t
-    (
-) @lengthOf(
-    Pad ) @rightPad ( ' '
-) MetaDataX @lengthOf( BodyLength
-) `" ++ [28040; 24687; 31867; 22411]%N ++ runes_of_ascii "`
-,
-    repeatCount /// triple
-A
-`
-`,	@tag(
-    4294967296) // trailing space 
-metadata u8x ,
-    @calculatedFrom( ""packet"" ) repeat Pad // @lengthOf(
-`say ""hi""`
-,  } root packet// trailing space 
-rootA {// " ++ [27880; 37322]%N ++ runes_of_ascii "
-rootA	{ string trueish ,
-}
-    ,
-} MetaData
-lengthOf {
-    } packet _x { repeat msg_type { char[ 65535 ]
-crc ,	lengthOf
-    {
-    Packet ,
-    // c
-    string_
-    @calculatedFrom(""a\""b""),
-f32 rootA//
-,
-}	,
-// " ++ [27880; 37322]%N ++ runes_of_ascii "
-// `tick` ""quote"" 'q'
-} ,i16 int  , @lengthOf( matchKey) //	t
-i8i8 int `two words` ,
-// packet A { u8 x, }
-// @lengthOf(
-repeat Logon{
-repeat
-    //	t
-    uint8	f32a ,
-    a1
-    //
-    { repeat char[1
-] Foo , }  , uint8x
-// @lengthOf(
-// packet A { u8 x, }
-{ char[ 4294967296 ]
-T `{ , }`
-, u32
-    repeatCount `" ++ [28040; 24687; 31867; 22411]%N ++ runes_of_ascii "`
-    // c
-    ,} , }
-    ,
-repeat MetaDataX
-, char[ 4294967296 ] i8i8//
-@lengthOf( _x ) ,}
-packet falsey {
-    tag
-{ char[ // " ++ [27880; 37322]%N ++ runes_of_ascii "
-00
-    // `tick` ""quote"" 'q'
-    ] int@lengthOf( u128
-    ) ,
-}
-,roots body ,u16 stringy
-// trailing space 
-// @lengthOf(
-@lengthOf( Pad ) `line1
-line2` ,
-stringy
-@lengthOf(  chars ) ,uint8 lengthOf
-`" ++ [233]%N ++ runes_of_ascii "` ,
-    // " ++ [128512]%N ++ runes_of_ascii " emoji
-    }")).
-Eval vm_compute in ("<<<T181>>>" ++ terms [mkTok 34 "root" 1 0 false; mkTok 35 "packet" 2 0 false; mkTok 42 "charz" 2 7 false; mkTok 2 "{" 2 13 false; mkTok 44 "// a // b" 2 14 true; mkTok 32 "@rightPad" 3 0 false; mkTok 44 (string_of_bytes [47; 47; 9; 116]%N) 4 4 true; mkTok 8 "(" 5 4 false; mkTok 6 ")" 6 0 false; mkTok 7 "@lengthOf(" 6 2 false; mkTok 42 "Pad" 7 4 false; mkTok 6 ")" 7 8 false; mkTok 32 "@rightPad" 7 10 false; mkTok 8 "(" 7 20 false; mkTok 33 "' '" 7 22 false; mkTok 6 ")" 8 0 false; mkTok 42 "MetaDataX" 8 2 false; mkTok 7 "@lengthOf(" 8 12 false; mkTok 42 "BodyLength" 8 23 false; mkTok 6 ")" 9 0 false; mkTok 43 (string_of_bytes [96; 230; 182; 136; 230; 129; 175; 231; 177; 187; 229; 158; 139; 96]%N) 9 2 false; mkTok 40 "," 10 0 false; mkTok 42 "repeatCount" 11 4 false; mkTok 44 "/// triple" 11 16 true; mkTok 42 "A" 12 0 false; mkTok 43 (string_of_bytes [96; 10; 96]%N) 13 0 false; mkTok 40 "," 14 1 false; mkTok 9 "@tag(" 14 3 false; mkTok 30 "4294967296" 15 4 false; mkTok 6 ")" 15 14 false; mkTok 44 "// trailing space " 15 16 true; mkTok 42 "metadata" 16 0 false; mkTok 42 "u8x" 16 9 false; mkTok 40 "," 16 13 false; mkTok 5 "@calculatedFrom(" 17 4 false; mkTok 31 """packet""" 17 21 false; mkTok 6 ")" 17 30 false; mkTok 36 "repeat" 17 32 false; mkTok 42 "Pad" 17 39 false; mkTok 44 "// @lengthOf(" 17 43 true; mkTok 43 "`say ""hi""`" 18 0 false; mkTok 40 "," 19 0 false; mkTok 3 "}" 19 3 false; mkTok 34 "root" 19 5 false; mkTok 35 "packet" 19 10 false; mkTok 44 "// trailing space " 19 16 true; mkTok 42 "rootA" 20 0 false; mkTok 2 "{" 20 6 false; mkTok 44 (string_of_bytes [47; 47; 32; 230; 179; 168; 233; 135; 138]%N) 20 7 true; mkTok 42 "rootA" 21 0 false; mkTok 2 "{" 21 6 false; mkTok 15 "string" 21 8 false; mkTok 42 "trueish" 21 15 false; mkTok 40 "," 21 23 false; mkTok 3 "}" 22 0 false; mkTok 40 "," 23 4 false; mkTok 3 "}" 24 0 false; mkTok 37 "MetaData" 24 2 false; mkTok 42 "lengthOf" 25 0 false; mkTok 2 "{" 25 9 false; mkTok 3 "}" 26 4 false; mkTok 35 "packet" 26 6 false; mkTok 42 "_x" 26 13 false; mkTok 2 "{" 26 16 false; mkTok 36 "repeat" 26 18 false; mkTok 42 "msg_type" 26 25 false; mkTok 2 "{" 26 34 false; mkTok 12 "char[" 26 36 false; mkTok 30 "65535" 26 42 false; mkTok 13 "]" 26 48 false; mkTok 42 "crc" 27 0 false; mkTok 40 "," 27 4 false; mkTok 42 "lengthOf" 27 6 false; mkTok 2 "{" 28 4 false; mkTok 42 "Packet" 29 4 false; mkTok 40 "," 29 11 false; mkTok 44 "// c" 30 4 true; mkTok 42 "string_" 31 4 false; mkTok 5 "@calculatedFrom(" 32 4 false; mkTok 31 """a\""b""" 32 20 false; mkTok 6 ")" 32 26 false; mkTok 40 "," 32 27 false; mkTok 28 "f32" 33 0 false; mkTok 42 "rootA" 33 4 false; mkTok 44 "//" 33 9 true; mkTok 40 "," 34 0 false; mkTok 3 "}" 35 0 false; mkTok 40 "," 35 2 false; mkTok 44 (string_of_bytes [47; 47; 32; 230; 179; 168; 233; 135; 138]%N) 36 0 true; mkTok 44 "// `tick` ""quote"" 'q'" 37 0 true; mkTok 3 "}" 38 0 false; mkTok 40 "," 38 2 false; mkTok 25 "i16" 38 3 false; mkTok 42 "int" 38 7 false; mkTok 40 "," 38 12 false; mkTok 7 "@lengthOf(" 38 14 false; mkTok 42 "matchKey" 38 25 false; mkTok 6 ")" 38 33 false; mkTok 44 (string_of_bytes [47; 47; 9; 116]%N) 38 35 true; mkTok 42 "i8i8" 39 0 false; mkTok 42 "int" 39 5 false; mkTok 43 "`two words`" 39 9 false; mkTok 40 "," 39 21 false; mkTok 44 "// packet A { u8 x, }" 40 0 true; mkTok 44 "// @lengthOf(" 41 0 true; mkTok 36 "repeat" 42 0 false; mkTok 42 "Logon" 42 7 false; mkTok 2 "{" 42 12 false; mkTok 36 "repeat" 43 0 false; mkTok 44 (string_of_bytes [47; 47; 9; 116]%N) 44 4 true; mkTok 20 "uint8" 45 4 false; mkTok 42 "f32a" 45 10 false; mkTok 40 "," 45 15 false; mkTok 42 "a1" 46 4 false; mkTok 44 "//" 47 4 true; mkTok 2 "{" 48 4 false; mkTok 36 "repeat" 48 6 false; mkTok 12 "char[" 48 13 false; mkTok 30 "1" 48 18 false; mkTok 13 "]" 49 0 false; mkTok 42 "Foo" 49 2 false; mkTok 40 "," 49 6 false; mkTok 3 "}" 49 8 false; mkTok 40 "," 49 11 false; mkTok 42 "uint8x" 49 13 false; mkTok 44 "// @lengthOf(" 50 0 true; mkTok 44 "// packet A { u8 x, }" 51 0 true; mkTok 2 "{" 52 0 false; mkTok 12 "char[" 52 2 false; mkTok 30 "4294967296" 52 8 false; mkTok 13 "]" 52 19 false; mkTok 42 "T" 53 0 false; mkTok 43 "`{ , }`" 53 2 false; mkTok 40 "," 54 0 false; mkTok 22 "u32" 54 2 false; mkTok 42 "repeatCount" 55 4 false; mkTok 43 (string_of_bytes [96; 230; 182; 136; 230; 129; 175; 231; 177; 187; 229; 158; 139; 96]%N) 55 16 false; mkTok 44 "// c" 56 4 true; mkTok 40 "," 57 4 false; mkTok 3 "}" 57 5 false; mkTok 40 "," 57 7 false; mkTok 3 "}" 57 9 false; mkTok 40 "," 58 4 false; mkTok 36 "repeat" 59 0 false; mkTok 42 "MetaDataX" 59 7 false; mkTok 40 "," 60 0 false; mkTok 12 "char[" 60 2 false; mkTok 30 "4294967296" 60 8 false; mkTok 13 "]" 60 19 false; mkTok 42 "i8i8" 60 21 false; mkTok 44 "//" 60 25 true; mkTok 7 "@lengthOf(" 61 0 false; mkTok 42 "_x" 61 11 false; mkTok 6 ")" 61 14 false; mkTok 40 "," 61 16 false; mkTok 3 "}" 61 17 false; mkTok 35 "packet" 62 0 false; mkTok 42 "falsey" 62 7 false; mkTok 2 "{" 62 14 false; mkTok 42 "tag" 63 4 false; mkTok 2 "{" 64 0 false; mkTok 12 "char[" 64 2 false; mkTok 44 (string_of_bytes [47; 47; 32; 230; 179; 168; 233; 135; 138]%N) 64 8 true; mkTok 30 "00" 65 0 false; mkTok 44 "// `tick` ""quote"" 'q'" 66 4 true; mkTok 13 "]" 67 4 false; mkTok 42 "int" 67 6 false; mkTok 7 "@lengthOf(" 67 9 false; mkTok 42 "u128" 67 20 false; mkTok 6 ")" 68 4 false; mkTok 40 "," 68 6 false; mkTok 3 "}" 69 0 false; mkTok 40 "," 70 0 false; mkTok 42 "roots" 70 1 false; mkTok 42 "body" 70 7 false; mkTok 40 "," 70 12 false; mkTok 21 "u16" 70 13 false; mkTok 42 "stringy" 70 17 false; mkTok 44 "// trailing space " 71 0 true; mkTok 44 "// @lengthOf(" 72 0 true; mkTok 7 "@lengthOf(" 73 0 false; mkTok 42 "Pad" 73 11 false; mkTok 6 ")" 73 15 false; mkTok 43 (string_of_bytes [96; 108; 105; 110; 101; 49; 10; 108; 105; 110; 101; 50; 96]%N) 73 17 false; mkTok 40 "," 74 7 false; mkTok 42 "stringy" 75 0 false; mkTok 7 "@lengthOf(" 76 0 false; mkTok 42 "chars" 76 12 false; mkTok 6 ")" 76 18 false; mkTok 40 "," 76 20 false; mkTok 20 "uint8" 76 21 false; mkTok 42 "lengthOf" 76 27 false; mkTok 43 (string_of_bytes [96; 195; 169; 96]%N) 77 0 false; mkTok 40 "," 77 4 false; mkTok 44 (string_of_bytes [47; 47; 32; 240; 159; 152; 128; 32; 101; 109; 111; 106; 105]%N) 78 4 true; mkTok 3 "}" 79 4 false; mkTok 0 "<EOF>" 79 5 false] (mkPacket (mkPtok 34 "root" 1 0 0) (Some (mkPtok 3 "}" 79 4 195)) [(DPacket (mkPacketDef (mkSpan (mkPtok 34 "root" 1 0 0) (mkPtok 3 "}" 19 3 42)) (Some (mkPtok 34 "root" 1 0 0)) (mkPtok 35 "packet" 2 0 1) (mkPtok 42 "charz" 2 7 2) (mkPtok 2 "{" 2 13 3) [(mkFieldWithAttr (mkSpan (mkPtok 32 "@rightPad" 3 0 5) (mkPtok 40 "," 10 0 21)) [(FAPadding (mkSpan (mkPtok 32 "@rightPad" 3 0 5) (mkPtok 6 ")" 6 0 8)) (mkPaddingAttr (mkSpan (mkPtok 32 "@rightPad" 3 0 5) (mkPtok 6 ")" 6 0 8)) (mkPtok 32 "@rightPad" 3 0 5) (mkPtok 8 "(" 5 4 7) None (mkPtok 6 ")" 6 0 8))); (FALengthOf (mkSpan (mkPtok 7 "@lengthOf(" 6 2 9) (mkPtok 6 ")" 7 8 11)) (mkLengthOf (mkSpan (mkPtok 7 "@lengthOf(" 6 2 9) (mkPtok 6 ")" 7 8 11)) (mkPtok 7 "@lengthOf(" 6 2 9) (mkPtok 42 "Pad" 7 4 10) (mkPtok 6 ")" 7 8 11))); (FAPadding (mkSpan (mkPtok 32 "@rightPad" 7 10 12) (mkPtok 6 ")" 8 0 15)) (mkPaddingAttr (mkSpan (mkPtok 32 "@rightPad" 7 10 12) (mkPtok 6 ")" 8 0 15)) (mkPtok 32 "@rightPad" 7 10 12) (mkPtok 8 "(" 7 20 13) (Some (mkPtok 33 "' '" 7 22 14)) (mkPtok 6 ")" 8 0 15)))] (LengthField (mkSpan (mkPtok 42 "MetaDataX" 8 2 16) (mkPtok 40 "," 10 0 21)) (mkLengthFieldDecl (mkSpan (mkPtok 42 "MetaDataX" 8 2 16) (mkPtok 40 "," 10 0 21)) None (mkPtok 42 "MetaDataX" 8 2 16) (mkLengthOf (mkSpan (mkPtok 7 "@lengthOf(" 8 12 17) (mkPtok 6 ")" 9 0 19)) (mkPtok 7 "@lengthOf(" 8 12 17) (mkPtok 42 "BodyLength" 8 23 18) (mkPtok 6 ")" 9 0 19)) (Some (mkPtok 43 (string_of_bytes [96; 230; 182; 136; 230; 129; 175; 231; 177; 187; 229; 158; 139; 96]%N) 9 2 20)) (mkPtok 40 "," 10 0 21)))); (mkFieldWithAttr (mkSpan (mkPtok 42 "repeatCount" 11 4 22) (mkPtok 40 "," 14 1 26)) [] (ObjectField (mkSpan (mkPtok 42 "repeatCount" 11 4 22) (mkPtok 40 "," 14 1 26)) None (mkPtok 42 "repeatCount" 11 4 22) (Some (mkPtok 42 "A" 12 0 24)) (Some (mkPtok 43 (string_of_bytes [96; 10; 96]%N) 13 0 25)) (mkPtok 40 "," 14 1 26))); (mkFieldWithAttr (mkSpan (mkPtok 9 "@tag(" 14 3 27) (mkPtok 40 "," 16 13 33)) [(FATag (mkSpan (mkPtok 9 "@tag(" 14 3 27) (mkPtok 6 ")" 15 14 29)) (mkTagAttr (mkSpan (mkPtok 9 "@tag(" 14 3 27) (mkPtok 6 ")" 15 14 29)) (mkPtok 9 "@tag(" 14 3 27) (mkPtok 30 "4294967296" 15 4 28) (mkPtok 6 ")" 15 14 29)))] (ObjectField (mkSpan (mkPtok 42 "metadata" 16 0 31) (mkPtok 40 "," 16 13 33)) None (mkPtok 42 "metadata" 16 0 31) (Some (mkPtok 42 "u8x" 16 9 32)) None (mkPtok 40 "," 16 13 33))); (mkFieldWithAttr (mkSpan (mkPtok 5 "@calculatedFrom(" 17 4 34) (mkPtok 40 "," 19 0 41)) [(FACalculatedFrom (mkSpan (mkPtok 5 "@calculatedFrom(" 17 4 34) (mkPtok 6 ")" 17 30 36)) (mkCalculatedFrom (mkSpan (mkPtok 5 "@calculatedFrom(" 17 4 34) (mkPtok 6 ")" 17 30 36)) (mkPtok 5 "@calculatedFrom(" 17 4 34) (mkPtok 31 """packet""" 17 21 35) (mkPtok 6 ")" 17 30 36)))] (ObjectField (mkSpan (mkPtok 36 "repeat" 17 32 37) (mkPtok 40 "," 19 0 41)) (Some (mkPtok 36 "repeat" 17 32 37)) (mkPtok 42 "Pad" 17 39 38) None (Some (mkPtok 43 "`say ""hi""`" 18 0 40)) (mkPtok 40 "," 19 0 41)))] (mkPtok 3 "}" 19 3 42))); (DPacket (mkPacketDef (mkSpan (mkPtok 34 "root" 19 5 43) (mkPtok 3 "}" 24 0 56)) (Some (mkPtok 34 "root" 19 5 43)) (mkPtok 35 "packet" 19 10 44) (mkPtok 42 "rootA" 20 0 46) (mkPtok 2 "{" 20 6 47) [(mkFieldWithAttr (mkSpan (mkPtok 42 "rootA" 21 0 49) (mkPtok 40 "," 23 4 55)) [] (InerObjectField (mkSpan (mkPtok 42 "rootA" 21 0 49) (mkPtok 40 "," 23 4 55)) None (InerObjectDecl (mkSpan (mkPtok 42 "rootA" 21 0 49) (mkPtok 3 "}" 22 0 54)) (mkPtok 42 "rootA" 21 0 49) (mkPtok 2 "{" 21 6 50) [(MetaField (mkSpan (mkPtok 15 "string" 21 8 51) (mkPtok 40 "," 21 23 53)) None (mkMetaDecl (mkSpan (mkPtok 15 "string" 21 8 51) (mkPtok 40 "," 21 23 53)) (TyDynamic (mkSpan (mkPtok 15 "string" 21 8 51) (mkPtok 15 "string" 21 8 51)) (mkDynamicString (mkSpan (mkPtok 15 "string" 21 8 51) (mkPtok 15 "string" 21 8 51)) (mkPtok 15 "string" 21 8 51))) (mkPtok 42 "trueish" 21 15 52) None (mkPtok 40 "," 21 23 53)))] (mkPtok 3 "}" 22 0 54)) (mkPtok 40 "," 23 4 55)))] (mkPtok 3 "}" 24 0 56))); (DMeta (mkMetaDef (mkSpan (mkPtok 37 "MetaData" 24 2 57) (mkPtok 3 "}" 26 4 60)) (mkPtok 37 "MetaData" 24 2 57) (mkPtok 42 "lengthOf" 25 0 58) (mkPtok 2 "{" 25 9 59) [] (mkPtok 3 "}" 26 4 60))); (DPacket (mkPacketDef (mkSpan (mkPtok 35 "packet" 26 6 61) (mkPtok 3 "}" 61 17 155)) None (mkPtok 35 "packet" 26 6 61) (mkPtok 42 "_x" 26 13 62) (mkPtok 2 "{" 26 16 63) [(mkFieldWithAttr (mkSpan (mkPtok 36 "repeat" 26 18 64) (mkPtok 40 "," 38 2 91)) [] (InerObjectField (mkSpan (mkPtok 36 "repeat" 26 18 64) (mkPtok 40 "," 38 2 91)) (Some (mkPtok 36 "repeat" 26 18 64)) (InerObjectDecl (mkSpan (mkPtok 42 "msg_type" 26 25 65) (mkPtok 3 "}" 38 0 90)) (mkPtok 42 "msg_type" 26 25 65) (mkPtok 2 "{" 26 34 66) [(MetaField (mkSpan (mkPtok 12 "char[" 26 36 67) (mkPtok 40 "," 27 4 71)) None (mkMetaDecl (mkSpan (mkPtok 12 "char[" 26 36 67) (mkPtok 40 "," 27 4 71)) (TyFixed (mkSpan (mkPtok 12 "char[" 26 36 67) (mkPtok 13 "]" 26 48 69)) (mkFixedString (mkSpan (mkPtok 12 "char[" 26 36 67) (mkPtok 13 "]" 26 48 69)) (mkPtok 12 "char[" 26 36 67) (mkPtok 30 "65535" 26 42 68) (mkPtok 13 "]" 26 48 69))) (mkPtok 42 "crc" 27 0 70) None (mkPtok 40 "," 27 4 71))); (InerObjectField (mkSpan (mkPtok 42 "lengthOf" 27 6 72) (mkPtok 40 "," 35 2 87)) None (InerObjectDecl (mkSpan (mkPtok 42 "lengthOf" 27 6 72) (mkPtok 3 "}" 35 0 86)) (mkPtok 42 "lengthOf" 27 6 72) (mkPtok 2 "{" 28 4 73) [(ObjectField (mkSpan (mkPtok 42 "Packet" 29 4 74) (mkPtok 40 "," 29 11 75)) None (mkPtok 42 "Packet" 29 4 74) None None (mkPtok 40 "," 29 11 75)); (CheckSumField (mkSpan (mkPtok 42 "string_" 31 4 77) (mkPtok 40 "," 32 27 81)) (mkChecksumFieldDecl (mkSpan (mkPtok 42 "string_" 31 4 77) (mkPtok 40 "," 32 27 81)) None (mkPtok 42 "string_" 31 4 77) (mkCalculatedFrom (mkSpan (mkPtok 5 "@calculatedFrom(" 32 4 78) (mkPtok 6 ")" 32 26 80)) (mkPtok 5 "@calculatedFrom(" 32 4 78) (mkPtok 31 """a\""b""" 32 20 79) (mkPtok 6 ")" 32 26 80)) None (mkPtok 40 "," 32 27 81))); (MetaField (mkSpan (mkPtok 28 "f32" 33 0 82) (mkPtok 40 "," 34 0 85)) None (mkMetaDecl (mkSpan (mkPtok 28 "f32" 33 0 82) (mkPtok 40 "," 34 0 85)) (TyBasic (mkSpan (mkPtok 28 "f32" 33 0 82) (mkPtok 28 "f32" 33 0 82)) (mkBasicType (mkSpan (mkPtok 28 "f32" 33 0 82) (mkPtok 28 "f32" 33 0 82)) (mkPtok 28 "f32" 33 0 82))) (mkPtok 42 "rootA" 33 4 83) None (mkPtok 40 "," 34 0 85)))] (mkPtok 3 "}" 35 0 86)) (mkPtok 40 "," 35 2 87))] (mkPtok 3 "}" 38 0 90)) (mkPtok 40 "," 38 2 91))); (mkFieldWithAttr (mkSpan (mkPtok 25 "i16" 38 3 92) (mkPtok 40 "," 38 12 94)) [] (MetaField (mkSpan (mkPtok 25 "i16" 38 3 92) (mkPtok 40 "," 38 12 94)) None (mkMetaDecl (mkSpan (mkPtok 25 "i16" 38 3 92) (mkPtok 40 "," 38 12 94)) (TyBasic (mkSpan (mkPtok 25 "i16" 38 3 92) (mkPtok 25 "i16" 38 3 92)) (mkBasicType (mkSpan (mkPtok 25 "i16" 38 3 92) (mkPtok 25 "i16" 38 3 92)) (mkPtok 25 "i16" 38 3 92))) (mkPtok 42 "int" 38 7 93) None (mkPtok 40 "," 38 12 94)))); (mkFieldWithAttr (mkSpan (mkPtok 7 "@lengthOf(" 38 14 95) (mkPtok 40 "," 39 21 102)) [(FALengthOf (mkSpan (mkPtok 7 "@lengthOf(" 38 14 95) (mkPtok 6 ")" 38 33 97)) (mkLengthOf (mkSpan (mkPtok 7 "@lengthOf(" 38 14 95) (mkPtok 6 ")" 38 33 97)) (mkPtok 7 "@lengthOf(" 38 14 95) (mkPtok 42 "matchKey" 38 25 96) (mkPtok 6 ")" 38 33 97)))] (ObjectField (mkSpan (mkPtok 42 "i8i8" 39 0 99) (mkPtok 40 "," 39 21 102)) None (mkPtok 42 "i8i8" 39 0 99) (Some (mkPtok 42 "int" 39 5 100)) (Some (mkPtok 43 "`two words`" 39 9 101)) (mkPtok 40 "," 39 21 102))); (mkFieldWithAttr (mkSpan (mkPtok 36 "repeat" 42 0 105) (mkPtok 40 "," 58 4 142)) [] (InerObjectField (mkSpan (mkPtok 36 "repeat" 42 0 105) (mkPtok 40 "," 58 4 142)) (Some (mkPtok 36 "repeat" 42 0 105)) (InerObjectDecl (mkSpan (mkPtok 42 "Logon" 42 7 106) (mkPtok 3 "}" 57 9 141)) (mkPtok 42 "Logon" 42 7 106) (mkPtok 2 "{" 42 12 107) [(MetaField (mkSpan (mkPtok 36 "repeat" 43 0 108) (mkPtok 40 "," 45 15 112)) (Some (mkPtok 36 "repeat" 43 0 108)) (mkMetaDecl (mkSpan (mkPtok 20 "uint8" 45 4 110) (mkPtok 40 "," 45 15 112)) (TyBasic (mkSpan (mkPtok 20 "uint8" 45 4 110) (mkPtok 20 "uint8" 45 4 110)) (mkBasicType (mkSpan (mkPtok 20 "uint8" 45 4 110) (mkPtok 20 "uint8" 45 4 110)) (mkPtok 20 "uint8" 45 4 110))) (mkPtok 42 "f32a" 45 10 111) None (mkPtok 40 "," 45 15 112))); (InerObjectField (mkSpan (mkPtok 42 "a1" 46 4 113) (mkPtok 40 "," 49 11 123)) None (InerObjectDecl (mkSpan (mkPtok 42 "a1" 46 4 113) (mkPtok 3 "}" 49 8 122)) (mkPtok 42 "a1" 46 4 113) (mkPtok 2 "{" 48 4 115) [(MetaField (mkSpan (mkPtok 36 "repeat" 48 6 116) (mkPtok 40 "," 49 6 121)) (Some (mkPtok 36 "repeat" 48 6 116)) (mkMetaDecl (mkSpan (mkPtok 12 "char[" 48 13 117) (mkPtok 40 "," 49 6 121)) (TyFixed (mkSpan (mkPtok 12 "char[" 48 13 117) (mkPtok 13 "]" 49 0 119)) (mkFixedString (mkSpan (mkPtok 12 "char[" 48 13 117) (mkPtok 13 "]" 49 0 119)) (mkPtok 12 "char[" 48 13 117) (mkPtok 30 "1" 48 18 118) (mkPtok 13 "]" 49 0 119))) (mkPtok 42 "Foo" 49 2 120) None (mkPtok 40 "," 49 6 121)))] (mkPtok 3 "}" 49 8 122)) (mkPtok 40 "," 49 11 123)); (InerObjectField (mkSpan (mkPtok 42 "uint8x" 49 13 124) (mkPtok 40 "," 57 7 140)) None (InerObjectDecl (mkSpan (mkPtok 42 "uint8x" 49 13 124) (mkPtok 3 "}" 57 5 139)) (mkPtok 42 "uint8x" 49 13 124) (mkPtok 2 "{" 52 0 127) [(MetaField (mkSpan (mkPtok 12 "char[" 52 2 128) (mkPtok 40 "," 54 0 133)) None (mkMetaDecl (mkSpan (mkPtok 12 "char[" 52 2 128) (mkPtok 40 "," 54 0 133)) (TyFixed (mkSpan (mkPtok 12 "char[" 52 2 128) (mkPtok 13 "]" 52 19 130)) (mkFixedString (mkSpan (mkPtok 12 "char[" 52 2 128) (mkPtok 13 "]" 52 19 130)) (mkPtok 12 "char[" 52 2 128) (mkPtok 30 "4294967296" 52 8 129) (mkPtok 13 "]" 52 19 130))) (mkPtok 42 "T" 53 0 131) (Some (mkPtok 43 "`{ , }`" 53 2 132)) (mkPtok 40 "," 54 0 133))); (MetaField (mkSpan (mkPtok 22 "u32" 54 2 134) (mkPtok 40 "," 57 4 138)) None (mkMetaDecl (mkSpan (mkPtok 22 "u32" 54 2 134) (mkPtok 40 "," 57 4 138)) (TyBasic (mkSpan (mkPtok 22 "u32" 54 2 134) (mkPtok 22 "u32" 54 2 134)) (mkBasicType (mkSpan (mkPtok 22 "u32" 54 2 134) (mkPtok 22 "u32" 54 2 134)) (mkPtok 22 "u32" 54 2 134))) (mkPtok 42 "repeatCount" 55 4 135) (Some (mkPtok 43 (string_of_bytes [96; 230; 182; 136; 230; 129; 175; 231; 177; 187; 229; 158; 139; 96]%N) 55 16 136)) (mkPtok 40 "," 57 4 138)))] (mkPtok 3 "}" 57 5 139)) (mkPtok 40 "," 57 7 140))] (mkPtok 3 "}" 57 9 141)) (mkPtok 40 "," 58 4 142))); (mkFieldWithAttr (mkSpan (mkPtok 36 "repeat" 59 0 143) (mkPtok 40 "," 60 0 145)) [] (ObjectField (mkSpan (mkPtok 36 "repeat" 59 0 143) (mkPtok 40 "," 60 0 145)) (Some (mkPtok 36 "repeat" 59 0 143)) (mkPtok 42 "MetaDataX" 59 7 144) None None (mkPtok 40 "," 60 0 145))); (mkFieldWithAttr (mkSpan (mkPtok 12 "char[" 60 2 146) (mkPtok 40 "," 61 16 154)) [] (LengthField (mkSpan (mkPtok 12 "char[" 60 2 146) (mkPtok 40 "," 61 16 154)) (mkLengthFieldDecl (mkSpan (mkPtok 12 "char[" 60 2 146) (mkPtok 40 "," 61 16 154)) (Some (TyFixed (mkSpan (mkPtok 12 "char[" 60 2 146) (mkPtok 13 "]" 60 19 148)) (mkFixedString (mkSpan (mkPtok 12 "char[" 60 2 146) (mkPtok 13 "]" 60 19 148)) (mkPtok 12 "char[" 60 2 146) (mkPtok 30 "4294967296" 60 8 147) (mkPtok 13 "]" 60 19 148)))) (mkPtok 42 "i8i8" 60 21 149) (mkLengthOf (mkSpan (mkPtok 7 "@lengthOf(" 61 0 151) (mkPtok 6 ")" 61 14 153)) (mkPtok 7 "@lengthOf(" 61 0 151) (mkPtok 42 "_x" 61 11 152) (mkPtok 6 ")" 61 14 153)) None (mkPtok 40 "," 61 16 154))))] (mkPtok 3 "}" 61 17 155))); (DPacket (mkPacketDef (mkSpan (mkPtok 35 "packet" 62 0 156) (mkPtok 3 "}" 79 4 195)) None (mkPtok 35 "packet" 62 0 156) (mkPtok 42 "falsey" 62 7 157) (mkPtok 2 "{" 62 14 158) [(mkFieldWithAttr (mkSpan (mkPtok 42 "tag" 63 4 159) (mkPtok 40 "," 70 0 172)) [] (InerObjectField (mkSpan (mkPtok 42 "tag" 63 4 159) (mkPtok 40 "," 70 0 172)) None (InerObjectDecl (mkSpan (mkPtok 42 "tag" 63 4 159) (mkPtok 3 "}" 69 0 171)) (mkPtok 42 "tag" 63 4 159) (mkPtok 2 "{" 64 0 160) [(LengthField (mkSpan (mkPtok 12 "char[" 64 2 161) (mkPtok 40 "," 68 6 170)) (mkLengthFieldDecl (mkSpan (mkPtok 12 "char[" 64 2 161) (mkPtok 40 "," 68 6 170)) (Some (TyFixed (mkSpan (mkPtok 12 "char[" 64 2 161) (mkPtok 13 "]" 67 4 165)) (mkFixedString (mkSpan (mkPtok 12 "char[" 64 2 161) (mkPtok 13 "]" 67 4 165)) (mkPtok 12 "char[" 64 2 161) (mkPtok 30 "00" 65 0 163) (mkPtok 13 "]" 67 4 165)))) (mkPtok 42 "int" 67 6 166) (mkLengthOf (mkSpan (mkPtok 7 "@lengthOf(" 67 9 167) (mkPtok 6 ")" 68 4 169)) (mkPtok 7 "@lengthOf(" 67 9 167) (mkPtok 42 "u128" 67 20 168) (mkPtok 6 ")" 68 4 169)) None (mkPtok 40 "," 68 6 170)))] (mkPtok 3 "}" 69 0 171)) (mkPtok 40 "," 70 0 172))); (mkFieldWithAttr (mkSpan (mkPtok 42 "roots" 70 1 173) (mkPtok 40 "," 70 12 175)) [] (ObjectField (mkSpan (mkPtok 42 "roots" 70 1 173) (mkPtok 40 "," 70 12 175)) None (mkPtok 42 "roots" 70 1 173) (Some (mkPtok 42 "body" 70 7 174)) None (mkPtok 40 "," 70 12 175))); (mkFieldWithAttr (mkSpan (mkPtok 21 "u16" 70 13 176) (mkPtok 40 "," 74 7 184)) [] (LengthField (mkSpan (mkPtok 21 "u16" 70 13 176) (mkPtok 40 "," 74 7 184)) (mkLengthFieldDecl (mkSpan (mkPtok 21 "u16" 70 13 176) (mkPtok 40 "," 74 7 184)) (Some (TyBasic (mkSpan (mkPtok 21 "u16" 70 13 176) (mkPtok 21 "u16" 70 13 176)) (mkBasicType (mkSpan (mkPtok 21 "u16" 70 13 176) (mkPtok 21 "u16" 70 13 176)) (mkPtok 21 "u16" 70 13 176)))) (mkPtok 42 "stringy" 70 17 177) (mkLengthOf (mkSpan (mkPtok 7 "@lengthOf(" 73 0 180) (mkPtok 6 ")" 73 15 182)) (mkPtok 7 "@lengthOf(" 73 0 180) (mkPtok 42 "Pad" 73 11 181) (mkPtok 6 ")" 73 15 182)) (Some (mkPtok 43 (string_of_bytes [96; 108; 105; 110; 101; 49; 10; 108; 105; 110; 101; 50; 96]%N) 73 17 183)) (mkPtok 40 "," 74 7 184)))); (mkFieldWithAttr (mkSpan (mkPtok 42 "stringy" 75 0 185) (mkPtok 40 "," 76 20 189)) [] (LengthField (mkSpan (mkPtok 42 "stringy" 75 0 185) (mkPtok 40 "," 76 20 189)) (mkLengthFieldDecl (mkSpan (mkPtok 42 "stringy" 75 0 185) (mkPtok 40 "," 76 20 189)) None (mkPtok 42 "stringy" 75 0 185) (mkLengthOf (mkSpan (mkPtok 7 "@lengthOf(" 76 0 186) (mkPtok 6 ")" 76 18 188)) (mkPtok 7 "@lengthOf(" 76 0 186) (mkPtok 42 "chars" 76 12 187) (mkPtok 6 ")" 76 18 188)) None (mkPtok 40 "," 76 20 189)))); (mkFieldWithAttr (mkSpan (mkPtok 20 "uint8" 76 21 190) (mkPtok 40 "," 77 4 193)) [] (MetaField (mkSpan (mkPtok 20 "uint8" 76 21 190) (mkPtok 40 "," 77 4 193)) None (mkMetaDecl (mkSpan (mkPtok 20 "uint8" 76 21 190) (mkPtok 40 "," 77 4 193)) (TyBasic (mkSpan (mkPtok 20 "uint8" 76 21 190) (mkPtok 20 "uint8" 76 21 190)) (mkBasicType (mkSpan (mkPtok 20 "uint8" 76 21 190) (mkPtok 20 "uint8" 76 21 190)) (mkPtok 20 "uint8" 76 21 190))) (mkPtok 42 "lengthOf" 76 27 191) (Some (mkPtok 43 (string_of_bytes [96; 195; 169; 96]%N) 77 0 192)) (mkPtok 40 "," 77 4 193))))] (mkPtok 3 "}" 79 4 195)))])).
-Eval vm_compute in ("<<<M213>>>" ++ check (runes_of_ascii "  root packet// " ++ [128512]%N ++ runes_of_ascii " emoji
-o
-    {
-    @calculatedFrom( ""a\""b"" //x
-) repeat crc ,	@tag( 10  )
-x_y_z, }
-")).
-Eval vm_compute in ("<<<M245>>>" ++ check (runes_of_ascii "MetaData As {  } packet float { // @lengthOf(
-options1  Pad `// not a comment` ,
-uint16 As `line1
-line2` ,float32 stringy@calculatedFrom(
-""`tick`""
-) `" ++ [233]%N ++ runes_of_ascii "` ,
-repeat Packet { zchar[ 3 ] T
-    @calculatedFrom(
-""x y""),  char[ 7 ]  asx @lengthOf( tag) ,
-    //
-    int64 charz `u8 x,`
-, } , uint32
-len , @tag(	0123456789
-) Foo packetx `// not a comment`,char[] trueish @lengthOf(
-rootA
-    ) , @leftPad (//
-'0'  ) repeat  x_y_z `{ , }` , i64 u128 ,
-    }
-    packet msg_type//x
-{
-char[]
-i8i8
-    `doc` //	t
-,string trueish @calculatedFrom(
-    """" ), char[ 7 ]/// triple
-string_// packet A { u8 x, }
-`say ""hi""`
-/// triple
-//
-,	}
-")).
-Eval vm_compute in ("<<<M277>>>" ++ check (runes_of_ascii "MetaData MetaDataX
-{
-    Foo BodyLength // packet A { u8 x, }
-, As T , }options { calculatedFrom = true  ;// " ++ [27880; 37322]%N ++ runes_of_ascii "
-Header
-= true}
-// trailing space 
-// c
-packet tag {	@leftPad (
-    '\x00') @lengthOf( Foo)// a // b
-@tag(
-    42)string body
-    ,
-@calculatedFrom(""abc"")
-char[ 00
-]	len,@calculatedFrom( """ ++ [128512]%N ++ runes_of_ascii """
-)	repeat tag ,match msg_type as // @lengthOf(
-Header {	65535
-//
-// @lengthOf(
-: roots , ""abc"" //
-: string_ , [ 007 , 0
-    // `tick` ""quote"" 'q'
-    ,	007 ]:
-// " ++ [128512]%N ++ runes_of_ascii " emoji
-// a // b
-zchar 255
-    //
-    : Packet [ ""packet"" , 0 ,
-    ""\" ++ [233]%N ++ runes_of_ascii """ , ""x y"" , 65535 , """ ++ [233]%N ++ runes_of_ascii "t" ++ [233]%N ++ runes_of_ascii """ , 0123456789
-,
-7]
-: //
-matchKey} ,repeat
-int64
-metadata`
-`
-,
-i64_
-`` //
-, char[42 ] MetaDataX
-// `tick` ""quote"" 'q'
-// c
-@calculatedFrom( ""CRC32"" ) , zchar[ 255 ]
-    //
-    roots	@lengthOf(
-    options1
-    ) `two words` , msg_type @calculatedFrom(
-    //x
-    ""\n""  ) ,
-    u len , } packet x {
-} packet falsey
-{  @calculatedFrom(
-""a	b""
-)
-    int64 falsey
-    `{ , }`,
-    repeat f64 crc// trailing space 
-,
-    @tag(	255) uint32 // a // b
-chars `" ++ [28040; 24687; 31867; 22411]%N ++ runes_of_ascii "` , @leftPad ( '\x00'	)@lengthOf( falsey )
-@calculatedFrom(	""a	b"" )  stringy { zchar[ // " ++ [27880; 37322]%N ++ runes_of_ascii "
-7	] Pad `line1
-line2` , string
-    pack,
-    // @lengthOf(
-    float64 string_ ,	},	repeat rootA{	match Logon as
-    /// triple
-    o // " ++ [27880; 37322]%N ++ runes_of_ascii "
-{ 007 //x
-:leftPad
-    , 0	: T , ""CRC32"" :
-T
-[ ""a	b"" ]: Logon , } ,
-    match // @lengthOf(
-x_y_z as
-_x
-{ 10
-:
-metadata , """ ++ [233]%N ++ runes_of_ascii "t" ++ [233]%N ++ runes_of_ascii """
-    : string_,  } ,} ,
-// c
-/// triple
-o{ options1
-    @calculatedFrom("""" ) ,	repeat i32
-body, } , @tag(1 /// triple
-) match packetx// " ++ [27880; 37322]%N ++ runes_of_ascii "
-as rootA
-{
-""" ++ [128512]%N ++ runes_of_ascii """:
-// `tick` ""quote"" 'q'
-//x
-zchar  ,
-    7 :
-    zchar  ,
-[ 0 , 42,
-""a\\"" , 0123456789	, ""it's""
-,3 //	t
-,
-""abc""	, 0123456789	]: lengthOf,
-// " ++ [27880; 37322]%N ++ runes_of_ascii "
-//x
-0
-// trailing space 
-// " ++ [27880; 37322]%N ++ runes_of_ascii "
-: _x, ""1"":
-    Header , }
-    , @rightPad
-    // c
-    ( ) repeat pack {
-match MetaDataX
-    as o { ""a\""b"" : Pad
-[ ""a\""b"" ]:A , 1
-: rootA  , }
-    , match	calculatedFrom as T/// triple
-{ 65535  : stringy , // " ++ [27880; 37322]%N ++ runes_of_ascii "
-65535 :  Packet ,
-    [
-007 , ""CRC32""
-    , 00 , 3 ,
-    65535
-,	""x y"" ,65535 ]: matchKey/// triple
-, 007
-: rootA
-,// @lengthOf(
-}, },char[] u128
-,// a // b
-}")).
-Eval vm_compute in ("<<<M309>>>" ++ check (runes_of_ascii "  MetaData x_y_z { string msg_type`" ++ [233]%N ++ runes_of_ascii "`, } packet chars{ repeat i32 metadata`say ""hi""` ,@leftPad ( ) @tag( 0123456789
-)repeat zchar[
-    // a // b
-    007]
-    //x
-    lengthOf , }
-")).
-Eval vm_compute in ("<<<M341>>>" ++ check (runes_of_ascii "// @lengthOf(
-root packet
-MetaDataX{
-    repeat
-i16
-packetx, @tag( 007 )
-x
-    @lengthOf(
-_x
-)
-,
-@calculatedFrom(  """ ++ [28040; 24687]%N ++ runes_of_ascii """ ) repeat
-Pad ,	@lengthOf(
-falsey) @tag( 00 ) @tag( 3
-    )string i8i8,}")).
-Eval vm_compute in ("<<<M373>>>" ++ check (runes_of_ascii "options { leftPad= int32 // packet A { u8 x, }
-}
-// packet A { u8 x, }
-")).
-Eval vm_compute in ("<<<M405>>>" ++ check (runes_of_ascii "/// triple
-MetaData zchar // " ++ [128512]%N ++ runes_of_ascii " emoji
-{ int32 pack
-// trailing space 
-//	t
-,
-    }
-")).
-Eval vm_compute in ("<<<T405>>>" ++ terms [mkTok 44 "/// triple" 1 0 true; mkTok 37 "MetaData" 2 0 false; mkTok 42 "zchar" 2 9 false; mkTok 44 (string_of_bytes [47; 47; 32; 240; 159; 152; 128; 32; 101; 109; 111; 106; 105]%N) 2 15 true; mkTok 2 "{" 3 0 false; mkTok 26 "int32" 3 2 false; mkTok 42 "pack" 3 8 false; mkTok 44 "// trailing space " 4 0 true; mkTok 44 (string_of_bytes [47; 47; 9; 116]%N) 5 0 true; mkTok 40 "," 6 0 false; mkTok 3 "}" 7 4 false; mkTok 0 "<EOF>" 8 0 false] (mkPacket (mkPtok 37 "MetaData" 2 0 1) (Some (mkPtok 3 "}" 7 4 10)) [(DMeta (mkMetaDef (mkSpan (mkPtok 37 "MetaData" 2 0 1) (mkPtok 3 "}" 7 4 10)) (mkPtok 37 "MetaData" 2 0 1) (mkPtok 42 "zchar" 2 9 2) (mkPtok 2 "{" 3 0 4) [(MIDecl (mkMetaDecl (mkSpan (mkPtok 26 "int32" 3 2 5) (mkPtok 40 "," 6 0 9)) (TyBasic (mkSpan (mkPtok 26 "int32" 3 2 5) (mkPtok 26 "int32" 3 2 5)) (mkBasicType (mkSpan (mkPtok 26 "int32" 3 2 5) (mkPtok 26 "int32" 3 2 5)) (mkPtok 26 "int32" 3 2 5))) (mkPtok 42 "pack" 3 8 6) None (mkPtok 40 "," 6 0 9)))] (mkPtok 3 "}" 7 4 10)))])).
-Eval vm_compute in ("<<<M437>>>" ++ check (runes_of_ascii "  root packet packetx { char[]  pack @lengthOf(
-    string_
-    // " ++ [128512]%N ++ runes_of_ascii " emoji
-    ) `doc`,
-    u32  float @lengthOf( a1) // `tick` ""quote"" 'q'
-`two words` , match  a1 as
-    // " ++ [27880; 37322]%N ++ runes_of_ascii "
-    o {7 : _x
-    ,
-} , repeat msg_type { o uint8x
-`crlf
-line` , }
-,char[] // `tick` ""quote"" 'q'
-u8x @lengthOf(msg_type
-)
-// " ++ [128512]%N ++ runes_of_ascii " emoji
-//
-,@calculatedFrom( ""CRC32"" )
-    i16 repeatCount
-@calculatedFrom(""a\""b""  ) , zchar[
-10 ]_x
-`line1
-line2` ,	zchar[
-10 ]
-    x `u8 x,` ,char[  0123456789
-]
-    uint8x , @calculatedFrom( ""x y"" ) int32
-//	t
-// c
-i8i8
-, }	options// " ++ [27880; 37322]%N ++ runes_of_ascii "
-{
-matchKey =""it's"" } packet
-    msg_type // packet A { u8 x, }
-{
-// trailing space 
-//
-match lengthOf as Logon { [ ""x y"" , ""a	b"", ""{,}"" ,  """ ++ [28040; 24687]%N ++ runes_of_ascii """,
-    ""{,}"" ,""{,}""
-    ]
-    // packet A { u8 x, }
-    : asx, [ """ ++ [233]%N ++ runes_of_ascii "t" ++ [233]%N ++ runes_of_ascii """
-] :
-trueish , 255
-    : Pad ,
-[""`tick`""
-, ""{,}"" ,// " ++ [128512]%N ++ runes_of_ascii " emoji
-4294967296
-, 4294967296, ""a\""b"" , ""\" ++ [233]%N ++ runes_of_ascii """
-, 0123456789 ] : u128 ,
-    ""it's"" // c
-: pack	, ""abc"":o,
-    }
-    , f32 zchar `it's`,@calculatedFrom( ""a	b"" )zchar[
-1
-]
-    msg_type // trailing space 
-@calculatedFrom( ""it's""
-) , @calculatedFrom( ""packet"" ) BodyLength{ i16 // trailing space 
-_x`{ , }`
-    //x
-    , i8
-    body `crlf
-line` ,  }
-    // packet A { u8 x, }
-    , repeat i64 uint8x
-    `say ""hi""`, // c
-} packet// a // b
-chars{ match x as options1 { 3 : //
-tag
-10
-    //x
-    :
-// a // b
-// a // b
-repeatCount[
-    65535 ] :
-len ,255 : tag  00 :
-    BodyLength }, @calculatedFrom( ""{,}"" ) MetaDataX,
-@tag(
-0
-// trailing space 
-//	t
-)repeat
-stringy	len , //	t
-@calculatedFrom( ""a	b"" )/// triple
-zchar[ 0123456789] lengthOf @lengthOf(
-A
-    )
-    `u8 x,` , @lengthOf(falsey
-    ) T
-    `// not a comment`
-,i8i8,Logon  { match
-crc as BodyLength { ""1"" : // trailing space 
-trueish ,
-    // " ++ [27880; 37322]%N ++ runes_of_ascii "
-    ""a\""b""
-    :
-matchKey , [ ""x y""] : tag
-    ,
-// trailing space 
-// " ++ [128512]%N ++ runes_of_ascii " emoji
-}
-, float @calculatedFrom(
-    """ ++ [233]%N ++ runes_of_ascii "t" ++ [233]%N ++ runes_of_ascii """ ) `line1
-line2` , msg_type@lengthOf(  i8i8)
-, calculatedFrom uint8x`tab	here`,
-// a // b
-//	t
-}
-    ,
-    }")).
-Eval vm_compute in ("<<<M469>>>" ++ check (runes_of_ascii "
-options { options1 =
-1// packet A { u8 x, }
-; } options
-{ A =00}MetaData
-repeatCount {
-char[]
-u8x	, char[] u128
-, body roots
-`" ++ [28040; 24687; 31867; 22411]%N ++ runes_of_ascii "`, msg_type As  ,
-} MetaData
-string_ {
-}
-")).
-Eval vm_compute in ("<<<M501>>>" ++ check (runes_of_ascii "packet Header { int@lengthOf( lengthOf
-    ) , }
-    packet	Z9_ { @lengthOf( Z9_ ) repeat
-i8 lengthOf, } options {
-    rootA =  ' ' u8x= 65535 As = int8 matchKey = '\x00'
-; msg_type  =
-' ';
-    }")).
-Eval vm_compute in ("<<<M533>>>" ++ check (runes_of_ascii "root
-packet u8x {// @lengthOf(
-i16
-    metadata @lengthOf(
-metadata
-) `u8 x,`
-    ,zchar[ 7 ] stringy@calculatedFrom( ""abc""  )
-    `" ++ [233]%N ++ runes_of_ascii "` // trailing space 
-, @rightPad
-( // a // b
-'0' )
-match Header as
-f32a { //	t
-""" ++ [28040; 24687]%N ++ runes_of_ascii """// c
-:calculatedFrom
-,[ 10
-]
-:o , ""// no comment"" :As ""\" ++ [233]%N ++ runes_of_ascii """
-: rootA ,},
-}")).
-Eval vm_compute in ("<<<M565>>>" ++ check (@nil rune)).
-Eval vm_compute in ("<<<M597>>>" ++ check (runes_of_ascii "packet trueish { match
-    falsey as
-    leftPad { // " ++ [128512]%N ++ runes_of_ascii " emoji
-""// no comment"":
-// " ++ [128512]%N ++ runes_of_ascii " emoji
-//
-leftPad } , repeatCount
-string_ `{ , }`
-,}")).
-Eval vm_compute in ("<<<M629>>>" ++ check (runes_of_ascii "
-packet _x{ metadata
-    @lengthOf( i64_ ) , match trueish as
-int {
-    ["""" ,  255
-    ] :
-//
-// packet A { u8 x, }
-T , 65535:zchar ,// c
-} , @calculatedFrom(
-    ""a\""b"")	match leftPad as// a // b
-len{ ""x y""
-: Z9_ ,[ 0 ,
-007 , ""x y"" ] :
-    falsey
-    //	t
-    , } , }
-    root packet
-As{
-string int , @tag(
-    255 )@lengthOf( roots )
-@calculatedFrom( """ ++ [128512]%N ++ runes_of_ascii """
-    // @lengthOf(
-    ) repeat crc
-{ repeat char trueish , // " ++ [128512]%N ++ runes_of_ascii " emoji
-}
-,
-    zchar[4294967296 ] options1@calculatedFrom( ""CRC32"" )
-,match packetx as
-lengthOf
-{ ""a\""b"" :
-options1 ,
-0123456789  : Foo, ""a\\"" : trueish
-,3  : string_,""\n"" : zchar
-, [	65535 ] : u128
-    } ,  @tag( 42) @leftPad
-    //x
-    (
-// `tick` ""quote"" 'q'
-// `tick` ""quote"" 'q'
-'\x00' ) i16
-crc , }packet lengthOf // trailing space 
-{ }")).
-Eval vm_compute in ("<<<T629>>>" ++ terms [mkTok 35 "packet" 2 0 false; mkTok 42 "_x" 2 7 false; mkTok 2 "{" 2 9 false; mkTok 42 "metadata" 2 11 false; mkTok 7 "@lengthOf(" 3 4 false; mkTok 42 "i64_" 3 15 false; mkTok 6 ")" 3 20 false; mkTok 40 "," 3 22 false; mkTok 38 "match" 3 24 false; mkTok 42 "trueish" 3 30 false; mkTok 17 "as" 3 38 false; mkTok 42 "int" 4 0 false; mkTok 2 "{" 4 4 false; mkTok 18 "[" 5 4 false; mkTok 31 """""" 5 5 false; mkTok 40 "," 5 8 false; mkTok 30 "255" 5 11 false; mkTok 13 "]" 6 4 false; mkTok 39 ":" 6 6 false; mkTok 44 "//" 7 0 true; mkTok 44 "// packet A { u8 x, }" 8 0 true; mkTok 42 "T" 9 0 false; mkTok 40 "," 9 2 false; mkTok 30 "65535" 9 4 false; mkTok 39 ":" 9 9 false; mkTok 42 "zchar" 9 10 false; mkTok 40 "," 9 16 false; mkTok 44 "// c" 9 17 true; mkTok 3 "}" 10 0 false; mkTok 40 "," 10 2 false; mkTok 5 "@calculatedFrom(" 10 4 false; mkTok 31 """a\""b""" 11 4 false; mkTok 6 ")" 11 10 false; mkTok 38 "match" 11 12 false; mkTok 42 "leftPad" 11 18 false; mkTok 17 "as" 11 26 false; mkTok 44 "// a // b" 11 28 true; mkTok 42 "len" 12 0 false; mkTok 2 "{" 12 3 false; mkTok 31 """x y""" 12 5 false; mkTok 39 ":" 13 0 false; mkTok 42 "Z9_" 13 2 false; mkTok 40 "," 13 6 false; mkTok 18 "[" 13 7 false; mkTok 30 "0" 13 9 false; mkTok 40 "," 13 11 false; mkTok 30 "007" 14 0 false; mkTok 40 "," 14 4 false; mkTok 31 """x y""" 14 6 false; mkTok 13 "]" 14 12 false; mkTok 39 ":" 14 14 false; mkTok 42 "falsey" 15 4 false; mkTok 44 (string_of_bytes [47; 47; 9; 116]%N) 16 4 true; mkTok 40 "," 17 4 false; mkTok 3 "}" 17 6 false; mkTok 40 "," 17 8 false; mkTok 3 "}" 17 10 false; mkTok 34 "root" 18 4 false; mkTok 35 "packet" 18 9 false; mkTok 42 "As" 19 0 false; mkTok 2 "{" 19 2 false; mkTok 15 "string" 20 0 false; mkTok 42 "int" 20 7 false; mkTok 40 "," 20 11 false; mkTok 9 "@tag(" 20 13 false; mkTok 30 "255" 21 4 false; mkTok 6 ")" 21 8 false; mkTok 7 "@lengthOf(" 21 9 false; mkTok 42 "roots" 21 20 false; mkTok 6 ")" 21 26 false; mkTok 5 "@calculatedFrom(" 22 0 false; mkTok 31 (string_of_bytes [34; 240; 159; 152; 128; 34]%N) 22 17 false; mkTok 44 "// @lengthOf(" 23 4 true; mkTok 6 ")" 24 4 false; mkTok 36 "repeat" 24 6 false; mkTok 42 "crc" 24 13 false; mkTok 2 "{" 25 0 false; mkTok 36 "repeat" 25 2 false; mkTok 19 "char" 25 9 false; mkTok 42 "trueish" 25 14 false; mkTok 40 "," 25 22 false; mkTok 44 (string_of_bytes [47; 47; 32; 240; 159; 152; 128; 32; 101; 109; 111; 106; 105]%N) 25 24 true; mkTok 3 "}" 26 0 false; mkTok 40 "," 27 0 false; mkTok 14 "zchar[" 28 4 false; mkTok 30 "4294967296" 28 10 false; mkTok 13 "]" 28 21 false; mkTok 42 "options1" 28 23 false; mkTok 5 "@calculatedFrom(" 28 31 false; mkTok 31 """CRC32""" 28 48 false; mkTok 6 ")" 28 56 false; mkTok 40 "," 29 0 false; mkTok 38 "match" 29 1 false; mkTok 42 "packetx" 29 7 false; mkTok 17 "as" 29 15 false; mkTok 42 "lengthOf" 30 0 false; mkTok 2 "{" 31 0 false; mkTok 31 """a\""b""" 31 2 false; mkTok 39 ":" 31 9 false; mkTok 42 "options1" 32 0 false; mkTok 40 "," 32 9 false; mkTok 30 "0123456789" 33 0 false; mkTok 39 ":" 33 12 false; mkTok 42 "Foo" 33 14 false; mkTok 40 "," 33 17 false; mkTok 31 """a\\""" 33 19 false; mkTok 39 ":" 33 25 false; mkTok 42 "trueish" 33 27 false; mkTok 40 "," 34 0 false; mkTok 30 "3" 34 1 false; mkTok 39 ":" 34 4 false; mkTok 42 "string_" 34 6 false; mkTok 40 "," 34 13 false; mkTok 31 """\n""" 34 14 false; mkTok 39 ":" 34 19 false; mkTok 42 "zchar" 34 21 false; mkTok 40 "," 35 0 false; mkTok 18 "[" 35 2 false; mkTok 30 "65535" 35 4 false; mkTok 13 "]" 35 10 false; mkTok 39 ":" 35 12 false; mkTok 42 "u128" 35 14 false; mkTok 3 "}" 36 4 false; mkTok 40 "," 36 6 false; mkTok 9 "@tag(" 36 9 false; mkTok 30 "42" 36 15 false; mkTok 6 ")" 36 17 false; mkTok 32 "@leftPad" 36 19 false; mkTok 44 "//x" 37 4 true; mkTok 8 "(" 38 4 false; mkTok 44 "// `tick` ""quote"" 'q'" 39 0 true; mkTok 44 "// `tick` ""quote"" 'q'" 40 0 true; mkTok 33 "'\x00'" 41 0 false; mkTok 6 ")" 41 7 false; mkTok 25 "i16" 41 9 false; mkTok 42 "crc" 42 0 false; mkTok 40 "," 42 4 false; mkTok 3 "}" 42 6 false; mkTok 35 "packet" 42 7 false; mkTok 42 "lengthOf" 42 14 false; mkTok 44 "// trailing space " 42 23 true; mkTok 2 "{" 43 0 false; mkTok 3 "}" 43 2 false; mkTok 0 "<EOF>" 43 3 false] (mkPacket (mkPtok 35 "packet" 2 0 0) (Some (mkPtok 3 "}" 43 2 142)) [(DPacket (mkPacketDef (mkSpan (mkPtok 35 "packet" 2 0 0) (mkPtok 3 "}" 17 10 56)) None (mkPtok 35 "packet" 2 0 0) (mkPtok 42 "_x" 2 7 1) (mkPtok 2 "{" 2 9 2) [(mkFieldWithAttr (mkSpan (mkPtok 42 "metadata" 2 11 3) (mkPtok 40 "," 3 22 7)) [] (LengthField (mkSpan (mkPtok 42 "metadata" 2 11 3) (mkPtok 40 "," 3 22 7)) (mkLengthFieldDecl (mkSpan (mkPtok 42 "metadata" 2 11 3) (mkPtok 40 "," 3 22 7)) None (mkPtok 42 "metadata" 2 11 3) (mkLengthOf (mkSpan (mkPtok 7 "@lengthOf(" 3 4 4) (mkPtok 6 ")" 3 20 6)) (mkPtok 7 "@lengthOf(" 3 4 4) (mkPtok 42 "i64_" 3 15 5) (mkPtok 6 ")" 3 20 6)) None (mkPtok 40 "," 3 22 7)))); (mkFieldWithAttr (mkSpan (mkPtok 38 "match" 3 24 8) (mkPtok 40 "," 10 2 29)) [] (MatchField (mkSpan (mkPtok 38 "match" 3 24 8) (mkPtok 40 "," 10 2 29)) (mkMatchFieldDecl (mkSpan (mkPtok 38 "match" 3 24 8) (mkPtok 3 "}" 10 0 28)) (mkPtok 38 "match" 3 24 8) (mkPtok 42 "trueish" 3 30 9) (mkPtok 17 "as" 3 38 10) (mkPtok 42 "int" 4 0 11) (mkPtok 2 "{" 4 4 12) [(mkMatchPair (mkSpan (mkPtok 18 "[" 5 4 13) (mkPtok 40 "," 9 2 22)) (MKList (mkKeyList (mkSpan (mkPtok 18 "[" 5 4 13) (mkPtok 13 "]" 6 4 17)) (mkPtok 18 "[" 5 4 13) (mkPtok 31 """""" 5 5 14) [((mkPtok 40 "," 5 8 15), (mkPtok 30 "255" 5 11 16))] (mkPtok 13 "]" 6 4 17))) (mkPtok 39 ":" 6 6 18) (mkPtok 42 "T" 9 0 21) (Some (mkPtok 40 "," 9 2 22))); (mkMatchPair (mkSpan (mkPtok 30 "65535" 9 4 23) (mkPtok 40 "," 9 16 26)) (MKDigits (mkPtok 30 "65535" 9 4 23)) (mkPtok 39 ":" 9 9 24) (mkPtok 42 "zchar" 9 10 25) (Some (mkPtok 40 "," 9 16 26)))] (mkPtok 3 "}" 10 0 28)) (mkPtok 40 "," 10 2 29))); (mkFieldWithAttr (mkSpan (mkPtok 5 "@calculatedFrom(" 10 4 30) (mkPtok 40 "," 17 8 55)) [(FACalculatedFrom (mkSpan (mkPtok 5 "@calculatedFrom(" 10 4 30) (mkPtok 6 ")" 11 10 32)) (mkCalculatedFrom (mkSpan (mkPtok 5 "@calculatedFrom(" 10 4 30) (mkPtok 6 ")" 11 10 32)) (mkPtok 5 "@calculatedFrom(" 10 4 30) (mkPtok 31 """a\""b""" 11 4 31) (mkPtok 6 ")" 11 10 32)))] (MatchField (mkSpan (mkPtok 38 "match" 11 12 33) (mkPtok 40 "," 17 8 55)) (mkMatchFieldDecl (mkSpan (mkPtok 38 "match" 11 12 33) (mkPtok 3 "}" 17 6 54)) (mkPtok 38 "match" 11 12 33) (mkPtok 42 "leftPad" 11 18 34) (mkPtok 17 "as" 11 26 35) (mkPtok 42 "len" 12 0 37) (mkPtok 2 "{" 12 3 38) [(mkMatchPair (mkSpan (mkPtok 31 """x y""" 12 5 39) (mkPtok 40 "," 13 6 42)) (MKString (mkPtok 31 """x y""" 12 5 39)) (mkPtok 39 ":" 13 0 40) (mkPtok 42 "Z9_" 13 2 41) (Some (mkPtok 40 "," 13 6 42))); (mkMatchPair (mkSpan (mkPtok 18 "[" 13 7 43) (mkPtok 40 "," 17 4 53)) (MKList (mkKeyList (mkSpan (mkPtok 18 "[" 13 7 43) (mkPtok 13 "]" 14 12 49)) (mkPtok 18 "[" 13 7 43) (mkPtok 30 "0" 13 9 44) [((mkPtok 40 "," 13 11 45), (mkPtok 30 "007" 14 0 46)); ((mkPtok 40 "," 14 4 47), (mkPtok 31 """x y""" 14 6 48))] (mkPtok 13 "]" 14 12 49))) (mkPtok 39 ":" 14 14 50) (mkPtok 42 "falsey" 15 4 51) (Some (mkPtok 40 "," 17 4 53)))] (mkPtok 3 "}" 17 6 54)) (mkPtok 40 "," 17 8 55)))] (mkPtok 3 "}" 17 10 56))); (DPacket (mkPacketDef (mkSpan (mkPtok 34 "root" 18 4 57) (mkPtok 3 "}" 42 6 137)) (Some (mkPtok 34 "root" 18 4 57)) (mkPtok 35 "packet" 18 9 58) (mkPtok 42 "As" 19 0 59) (mkPtok 2 "{" 19 2 60) [(mkFieldWithAttr (mkSpan (mkPtok 15 "string" 20 0 61) (mkPtok 40 "," 20 11 63)) [] (MetaField (mkSpan (mkPtok 15 "string" 20 0 61) (mkPtok 40 "," 20 11 63)) None (mkMetaDecl (mkSpan (mkPtok 15 "string" 20 0 61) (mkPtok 40 "," 20 11 63)) (TyDynamic (mkSpan (mkPtok 15 "string" 20 0 61) (mkPtok 15 "string" 20 0 61)) (mkDynamicString (mkSpan (mkPtok 15 "string" 20 0 61) (mkPtok 15 "string" 20 0 61)) (mkPtok 15 "string" 20 0 61))) (mkPtok 42 "int" 20 7 62) None (mkPtok 40 "," 20 11 63)))); (mkFieldWithAttr (mkSpan (mkPtok 9 "@tag(" 20 13 64) (mkPtok 40 "," 27 0 83)) [(FATag (mkSpan (mkPtok 9 "@tag(" 20 13 64) (mkPtok 6 ")" 21 8 66)) (mkTagAttr (mkSpan (mkPtok 9 "@tag(" 20 13 64) (mkPtok 6 ")" 21 8 66)) (mkPtok 9 "@tag(" 20 13 64) (mkPtok 30 "255" 21 4 65) (mkPtok 6 ")" 21 8 66))); (FALengthOf (mkSpan (mkPtok 7 "@lengthOf(" 21 9 67) (mkPtok 6 ")" 21 26 69)) (mkLengthOf (mkSpan (mkPtok 7 "@lengthOf(" 21 9 67) (mkPtok 6 ")" 21 26 69)) (mkPtok 7 "@lengthOf(" 21 9 67) (mkPtok 42 "roots" 21 20 68) (mkPtok 6 ")" 21 26 69))); (FACalculatedFrom (mkSpan (mkPtok 5 "@calculatedFrom(" 22 0 70) (mkPtok 6 ")" 24 4 73)) (mkCalculatedFrom (mkSpan (mkPtok 5 "@calculatedFrom(" 22 0 70) (mkPtok 6 ")" 24 4 73)) (mkPtok 5 "@calculatedFrom(" 22 0 70) (mkPtok 31 (string_of_bytes [34; 240; 159; 152; 128; 34]%N) 22 17 71) (mkPtok 6 ")" 24 4 73)))] (InerObjectField (mkSpan (mkPtok 36 "repeat" 24 6 74) (mkPtok 40 "," 27 0 83)) (Some (mkPtok 36 "repeat" 24 6 74)) (InerObjectDecl (mkSpan (mkPtok 42 "crc" 24 13 75) (mkPtok 3 "}" 26 0 82)) (mkPtok 42 "crc" 24 13 75) (mkPtok 2 "{" 25 0 76) [(MetaField (mkSpan (mkPtok 36 "repeat" 25 2 77) (mkPtok 40 "," 25 22 80)) (Some (mkPtok 36 "repeat" 25 2 77)) (mkMetaDecl (mkSpan (mkPtok 19 "char" 25 9 78) (mkPtok 40 "," 25 22 80)) (TyBasic (mkSpan (mkPtok 19 "char" 25 9 78) (mkPtok 19 "char" 25 9 78)) (mkBasicType (mkSpan (mkPtok 19 "char" 25 9 78) (mkPtok 19 "char" 25 9 78)) (mkPtok 19 "char" 25 9 78))) (mkPtok 42 "trueish" 25 14 79) None (mkPtok 40 "," 25 22 80)))] (mkPtok 3 "}" 26 0 82)) (mkPtok 40 "," 27 0 83))); (mkFieldWithAttr (mkSpan (mkPtok 14 "zchar[" 28 4 84) (mkPtok 40 "," 29 0 91)) [] (CheckSumField (mkSpan (mkPtok 14 "zchar[" 28 4 84) (mkPtok 40 "," 29 0 91)) (mkChecksumFieldDecl (mkSpan (mkPtok 14 "zchar[" 28 4 84) (mkPtok 40 "," 29 0 91)) (Some (TyFixed (mkSpan (mkPtok 14 "zchar[" 28 4 84) (mkPtok 13 "]" 28 21 86)) (mkFixedString (mkSpan (mkPtok 14 "zchar[" 28 4 84) (mkPtok 13 "]" 28 21 86)) (mkPtok 14 "zchar[" 28 4 84) (mkPtok 30 "4294967296" 28 10 85) (mkPtok 13 "]" 28 21 86)))) (mkPtok 42 "options1" 28 23 87) (mkCalculatedFrom (mkSpan (mkPtok 5 "@calculatedFrom(" 28 31 88) (mkPtok 6 ")" 28 56 90)) (mkPtok 5 "@calculatedFrom(" 28 31 88) (mkPtok 31 """CRC32""" 28 48 89) (mkPtok 6 ")" 28 56 90)) None (mkPtok 40 "," 29 0 91)))); (mkFieldWithAttr (mkSpan (mkPtok 38 "match" 29 1 92) (mkPtok 40 "," 36 6 123)) [] (MatchField (mkSpan (mkPtok 38 "match" 29 1 92) (mkPtok 40 "," 36 6 123)) (mkMatchFieldDecl (mkSpan (mkPtok 38 "match" 29 1 92) (mkPtok 3 "}" 36 4 122)) (mkPtok 38 "match" 29 1 92) (mkPtok 42 "packetx" 29 7 93) (mkPtok 17 "as" 29 15 94) (mkPtok 42 "lengthOf" 30 0 95) (mkPtok 2 "{" 31 0 96) [(mkMatchPair (mkSpan (mkPtok 31 """a\""b""" 31 2 97) (mkPtok 40 "," 32 9 100)) (MKString (mkPtok 31 """a\""b""" 31 2 97)) (mkPtok 39 ":" 31 9 98) (mkPtok 42 "options1" 32 0 99) (Some (mkPtok 40 "," 32 9 100))); (mkMatchPair (mkSpan (mkPtok 30 "0123456789" 33 0 101) (mkPtok 40 "," 33 17 104)) (MKDigits (mkPtok 30 "0123456789" 33 0 101)) (mkPtok 39 ":" 33 12 102) (mkPtok 42 "Foo" 33 14 103) (Some (mkPtok 40 "," 33 17 104))); (mkMatchPair (mkSpan (mkPtok 31 """a\\""" 33 19 105) (mkPtok 40 "," 34 0 108)) (MKString (mkPtok 31 """a\\""" 33 19 105)) (mkPtok 39 ":" 33 25 106) (mkPtok 42 "trueish" 33 27 107) (Some (mkPtok 40 "," 34 0 108))); (mkMatchPair (mkSpan (mkPtok 30 "3" 34 1 109) (mkPtok 40 "," 34 13 112)) (MKDigits (mkPtok 30 "3" 34 1 109)) (mkPtok 39 ":" 34 4 110) (mkPtok 42 "string_" 34 6 111) (Some (mkPtok 40 "," 34 13 112))); (mkMatchPair (mkSpan (mkPtok 31 """\n""" 34 14 113) (mkPtok 40 "," 35 0 116)) (MKString (mkPtok 31 """\n""" 34 14 113)) (mkPtok 39 ":" 34 19 114) (mkPtok 42 "zchar" 34 21 115) (Some (mkPtok 40 "," 35 0 116))); (mkMatchPair (mkSpan (mkPtok 18 "[" 35 2 117) (mkPtok 42 "u128" 35 14 121)) (MKList (mkKeyList (mkSpan (mkPtok 18 "[" 35 2 117) (mkPtok 13 "]" 35 10 119)) (mkPtok 18 "[" 35 2 117) (mkPtok 30 "65535" 35 4 118) [] (mkPtok 13 "]" 35 10 119))) (mkPtok 39 ":" 35 12 120) (mkPtok 42 "u128" 35 14 121) None)] (mkPtok 3 "}" 36 4 122)) (mkPtok 40 "," 36 6 123))); (mkFieldWithAttr (mkSpan (mkPtok 9 "@tag(" 36 9 124) (mkPtok 40 "," 42 4 136)) [(FATag (mkSpan (mkPtok 9 "@tag(" 36 9 124) (mkPtok 6 ")" 36 17 126)) (mkTagAttr (mkSpan (mkPtok 9 "@tag(" 36 9 124) (mkPtok 6 ")" 36 17 126)) (mkPtok 9 "@tag(" 36 9 124) (mkPtok 30 "42" 36 15 125) (mkPtok 6 ")" 36 17 126))); (FAPadding (mkSpan (mkPtok 32 "@leftPad" 36 19 127) (mkPtok 6 ")" 41 7 133)) (mkPaddingAttr (mkSpan (mkPtok 32 "@leftPad" 36 19 127) (mkPtok 6 ")" 41 7 133)) (mkPtok 32 "@leftPad" 36 19 127) (mkPtok 8 "(" 38 4 129) (Some (mkPtok 33 "'\x00'" 41 0 132)) (mkPtok 6 ")" 41 7 133)))] (MetaField (mkSpan (mkPtok 25 "i16" 41 9 134) (mkPtok 40 "," 42 4 136)) None (mkMetaDecl (mkSpan (mkPtok 25 "i16" 41 9 134) (mkPtok 40 "," 42 4 136)) (TyBasic (mkSpan (mkPtok 25 "i16" 41 9 134) (mkPtok 25 "i16" 41 9 134)) (mkBasicType (mkSpan (mkPtok 25 "i16" 41 9 134) (mkPtok 25 "i16" 41 9 134)) (mkPtok 25 "i16" 41 9 134))) (mkPtok 42 "crc" 42 0 135) None (mkPtok 40 "," 42 4 136))))] (mkPtok 3 "}" 42 6 137))); (DPacket (mkPacketDef (mkSpan (mkPtok 35 "packet" 42 7 138) (mkPtok 3 "}" 43 2 142)) None (mkPtok 35 "packet" 42 7 138) (mkPtok 42 "lengthOf" 42 14 139) (mkPtok 2 "{" 43 0 141) [] (mkPtok 3 "}" 43 2 142)))])).
-Eval vm_compute in ("<<<M661>>>" ++ check (runes_of_ascii "root packet BodyLength { int8 asx ``
-    , match stringy  as falsey
-    { 7
-:stringy } , Header `u8 x,` ,match string_  as falsey{ 007 :
-    BodyLength 65535:	roots [
-//
-//x
-10,
-00, ""a\""b""  , 0123456789 ,	3
-    , /// triple
-""" ++ [233]%N ++ runes_of_ascii "t" ++ [233]%N ++ runes_of_ascii """, ""x y"" , ""abc""
-] :
-crc , 0123456789
-    : f32a
-, 1
-    :
-    Logon,  [""CRC32"" // a // b
-,
-""a	b"" ,
-    65535 , ""1"" ,// trailing space 
-""1""	,
-65535 ] :
-zchar //	t
-,  } , i64_ , } //	t")).
-Eval vm_compute in ("<<<M693>>>" ++ check (runes_of_ascii "MetaData i8i8 { char[0123456789
-    ]
-    body `doc`, // c
-} packet uint8x{pack { char u `crlf
-line`
-, float , zchar[ 007] //	t
-A ,} , char[]
-    /// triple
-    calculatedFrom `
-` , char[
-    42 ] matchKey @calculatedFrom(
-//
-// " ++ [27880; 37322]%N ++ runes_of_ascii "
-""a\\"")`` , }  root  packet int { @rightPad (
-'0'// packet A { u8 x, }
-) Pad  { match zchar as asx {
-    [""a	b"" , 42 ] :Logon//
-} ,
-Packet
-    {
-    zchar[ 4294967296 ]
-    A ,}
-//	t
-//
-, match x as float {  ""x y""	: o
-    // a // b
-    ,
-    1	: calculatedFrom}, } ,}
-//
-")).
-Eval vm_compute in ("<<<M725>>>" ++ check (runes_of_ascii "MetaData BodyLength { falsey
-    // packet A { u8 x, }
-    Logon  `{ , }` ,u8 int`" ++ [28040; 24687; 31867; 22411]%N ++ runes_of_ascii "`, zchar[7 ]// packet A { u8 x, }
-len/// triple
-,  }  MetaData// @lengthOf(
-u
-    {
-Logon matchKey
-`{ , }`	,	char[42 ]
-// packet A { u8 x, }
-/// triple
-int
-`line1
-line2`,
-    char[ 7
-    ] x_y_z
-    `doc` , }")).
-Eval vm_compute in ("<<<M757>>>" ++ check (runes_of_ascii "packet  As
-{ char[] metadata
-`doc`
-, } root packet	int
-{ // packet A { u8 x, }
-zchar[ // @lengthOf(
-007 ] leftPad ,
-} // `tick` ""quote"" 'q'")).
-Eval vm_compute in ("<<<M789>>>" ++ check (runes_of_ascii "
-packet
-    Pad{// `tick` ""quote"" 'q'
-@tag( 42)
-body
-u8x , char[ 3 ]
-u128
-`it's`
-,
-char[ 4294967296 ]uint8x`two words`  ,@lengthOf(	f32a ) body {repeat string roots ,Pad @calculatedFrom( ""\" ++ [233]%N ++ runes_of_ascii """ // trailing space 
-)
-,
-// trailing space 
-// " ++ [27880; 37322]%N ++ runes_of_ascii "
-metadata  crc`tab	here`, lengthOf
-    {zchar[  0 ] x_y_z
-    // packet A { u8 x, }
-    @lengthOf( crc )
-    `u8 x,` ,char[] roots ,
-    //x
-    } ,
-    } ,	}
-    // c
-    options {rootA =""packet""
-    }")).
-Eval vm_compute in ("<<<M821>>>" ++ check (runes_of_ascii "MetaData x
-    /// triple
-    {
-int32 // " ++ [27880; 37322]%N ++ runes_of_ascii "
-a1`say ""hi""`	, }
-")).
-Eval vm_compute in ("<<<M853>>>" ++ check (runes_of_ascii "options {  }packet Packet
-    { repeat
-zchar[ 0123456789 ]
-    crc , repeat zchar[	4294967296
-]Z9_ ,// packet A { u8 x, }
-rootA ,repeat Packet
-    { lengthOf{
-u8x `{ , }` , zchar[ 0123456789 ] lengthOf
-`{ , }` , // " ++ [27880; 37322]%N ++ runes_of_ascii "
-Header { repeat
-// c
-//x
-f32 As `line1
-line2`	,
-    charz
-    @calculatedFrom( ""1""
-) , } , },},
-i8//	t
-float
-@lengthOf( T// packet A { u8 x, }
-) ,@lengthOf(
-    metadata )
-@calculatedFrom( ""packet""
-    // a // b
-    ) @lengthOf( repeatCount ) repeat
-f32 Foo	, } 	 ")).
-Eval vm_compute in ("<<<T853>>>" ++ terms [mkTok 1 "options" 1 0 false; mkTok 2 "{" 1 8 false; mkTok 3 "}" 1 11 false; mkTok 35 "packet" 1 12 false; mkTok 42 "Packet" 1 19 false; mkTok 2 "{" 2 4 false; mkTok 36 "repeat" 2 6 false; mkTok 14 "zchar[" 3 0 false; mkTok 30 "0123456789" 3 7 false; mkTok 13 "]" 3 18 false; mkTok 42 "crc" 4 4 false; mkTok 40 "," 4 8 false; mkTok 36 "repeat" 4 10 false; mkTok 14 "zchar[" 4 17 false; mkTok 30 "4294967296" 4 24 false; mkTok 13 "]" 5 0 false; mkTok 42 "Z9_" 5 1 false; mkTok 40 "," 5 5 false; mkTok 44 "// packet A { u8 x, }" 5 6 true; mkTok 42 "rootA" 6 0 false; mkTok 40 "," 6 6 false; mkTok 36 "repeat" 6 7 false; mkTok 42 "Packet" 6 14 false; mkTok 2 "{" 7 4 false; mkTok 42 "lengthOf" 7 6 false; mkTok 2 "{" 7 14 false; mkTok 42 "u8x" 8 0 false; mkTok 43 "`{ , }`" 8 4 false; mkTok 40 "," 8 12 false; mkTok 14 "zchar[" 8 14 false; mkTok 30 "0123456789" 8 21 false; mkTok 13 "]" 8 32 false; mkTok 42 "lengthOf" 8 34 false; mkTok 43 "`{ , }`" 9 0 false; mkTok 40 "," 9 8 false; mkTok 44 (string_of_bytes [47; 47; 32; 230; 179; 168; 233; 135; 138]%N) 9 10 true; mkTok 42 "Header" 10 0 false; mkTok 2 "{" 10 7 false; mkTok 36 "repeat" 10 9 false; mkTok 44 "// c" 11 0 true; mkTok 44 "//x" 12 0 true; mkTok 28 "f32" 13 0 false; mkTok 42 "As" 13 4 false; mkTok 43 (string_of_bytes [96; 108; 105; 110; 101; 49; 10; 108; 105; 110; 101; 50; 96]%N) 13 7 false; mkTok 40 "," 14 7 false; mkTok 42 "charz" 15 4 false; mkTok 5 "@calculatedFrom(" 16 4 false; mkTok 31 """1""" 16 21 false; mkTok 6 ")" 17 0 false; mkTok 40 "," 17 2 false; mkTok 3 "}" 17 4 false; mkTok 40 "," 17 6 false; mkTok 3 "}" 17 8 false; mkTok 40 "," 17 9 false; mkTok 3 "}" 17 10 false; mkTok 40 "," 17 11 false; mkTok 24 "i8" 18 0 false; mkTok 44 (string_of_bytes [47; 47; 9; 116]%N) 18 2 true; mkTok 42 "float" 19 0 false; mkTok 7 "@lengthOf(" 20 0 false; mkTok 42 "T" 20 11 false; mkTok 44 "// packet A { u8 x, }" 20 12 true; mkTok 6 ")" 21 0 false; mkTok 40 "," 21 2 false; mkTok 7 "@lengthOf(" 21 3 false; mkTok 42 "metadata" 22 4 false; mkTok 6 ")" 22 13 false; mkTok 5 "@calculatedFrom(" 23 0 false; mkTok 31 """packet""" 23 17 false; mkTok 44 "// a // b" 24 4 true; mkTok 6 ")" 25 4 false; mkTok 7 "@lengthOf(" 25 6 false; mkTok 42 "repeatCount" 25 17 false; mkTok 6 ")" 25 29 false; mkTok 36 "repeat" 25 31 false; mkTok 28 "f32" 26 0 false; mkTok 42 "Foo" 26 4 false; mkTok 40 "," 26 8 false; mkTok 3 "}" 26 10 false; mkTok 0 "<EOF>" 26 14 false] (mkPacket (mkPtok 1 "options" 1 0 0) (Some (mkPtok 3 "}" 26 10 78)) [(DOption (mkOptionDef (mkSpan (mkPtok 1 "options" 1 0 0) (mkPtok 3 "}" 1 11 2)) (mkPtok 1 "options" 1 0 0) (mkPtok 2 "{" 1 8 1) [] (mkPtok 3 "}" 1 11 2))); (DPacket (mkPacketDef (mkSpan (mkPtok 35 "packet" 1 12 3) (mkPtok 3 "}" 26 10 78)) None (mkPtok 35 "packet" 1 12 3) (mkPtok 42 "Packet" 1 19 4) (mkPtok 2 "{" 2 4 5) [(mkFieldWithAttr (mkSpan (mkPtok 36 "repeat" 2 6 6) (mkPtok 40 "," 4 8 11)) [] (MetaField (mkSpan (mkPtok 36 "repeat" 2 6 6) (mkPtok 40 "," 4 8 11)) (Some (mkPtok 36 "repeat" 2 6 6)) (mkMetaDecl (mkSpan (mkPtok 14 "zchar[" 3 0 7) (mkPtok 40 "," 4 8 11)) (TyFixed (mkSpan (mkPtok 14 "zchar[" 3 0 7) (mkPtok 13 "]" 3 18 9)) (mkFixedString (mkSpan (mkPtok 14 "zchar[" 3 0 7) (mkPtok 13 "]" 3 18 9)) (mkPtok 14 "zchar[" 3 0 7) (mkPtok 30 "0123456789" 3 7 8) (mkPtok 13 "]" 3 18 9))) (mkPtok 42 "crc" 4 4 10) None (mkPtok 40 "," 4 8 11)))); (mkFieldWithAttr (mkSpan (mkPtok 36 "repeat" 4 10 12) (mkPtok 40 "," 5 5 17)) [] (MetaField (mkSpan (mkPtok 36 "repeat" 4 10 12) (mkPtok 40 "," 5 5 17)) (Some (mkPtok 36 "repeat" 4 10 12)) (mkMetaDecl (mkSpan (mkPtok 14 "zchar[" 4 17 13) (mkPtok 40 "," 5 5 17)) (TyFixed (mkSpan (mkPtok 14 "zchar[" 4 17 13) (mkPtok 13 "]" 5 0 15)) (mkFixedString (mkSpan (mkPtok 14 "zchar[" 4 17 13) (mkPtok 13 "]" 5 0 15)) (mkPtok 14 "zchar[" 4 17 13) (mkPtok 30 "4294967296" 4 24 14) (mkPtok 13 "]" 5 0 15))) (mkPtok 42 "Z9_" 5 1 16) None (mkPtok 40 "," 5 5 17)))); (mkFieldWithAttr (mkSpan (mkPtok 42 "rootA" 6 0 19) (mkPtok 40 "," 6 6 20)) [] (ObjectField (mkSpan (mkPtok 42 "rootA" 6 0 19) (mkPtok 40 "," 6 6 20)) None (mkPtok 42 "rootA" 6 0 19) None None (mkPtok 40 "," 6 6 20))); (mkFieldWithAttr (mkSpan (mkPtok 36 "repeat" 6 7 21) (mkPtok 40 "," 17 11 55)) [] (InerObjectField (mkSpan (mkPtok 36 "repeat" 6 7 21) (mkPtok 40 "," 17 11 55)) (Some (mkPtok 36 "repeat" 6 7 21)) (InerObjectDecl (mkSpan (mkPtok 42 "Packet" 6 14 22) (mkPtok 3 "}" 17 10 54)) (mkPtok 42 "Packet" 6 14 22) (mkPtok 2 "{" 7 4 23) [(InerObjectField (mkSpan (mkPtok 42 "lengthOf" 7 6 24) (mkPtok 40 "," 17 9 53)) None (InerObjectDecl (mkSpan (mkPtok 42 "lengthOf" 7 6 24) (mkPtok 3 "}" 17 8 52)) (mkPtok 42 "lengthOf" 7 6 24) (mkPtok 2 "{" 7 14 25) [(ObjectField (mkSpan (mkPtok 42 "u8x" 8 0 26) (mkPtok 40 "," 8 12 28)) None (mkPtok 42 "u8x" 8 0 26) None (Some (mkPtok 43 "`{ , }`" 8 4 27)) (mkPtok 40 "," 8 12 28)); (MetaField (mkSpan (mkPtok 14 "zchar[" 8 14 29) (mkPtok 40 "," 9 8 34)) None (mkMetaDecl (mkSpan (mkPtok 14 "zchar[" 8 14 29) (mkPtok 40 "," 9 8 34)) (TyFixed (mkSpan (mkPtok 14 "zchar[" 8 14 29) (mkPtok 13 "]" 8 32 31)) (mkFixedString (mkSpan (mkPtok 14 "zchar[" 8 14 29) (mkPtok 13 "]" 8 32 31)) (mkPtok 14 "zchar[" 8 14 29) (mkPtok 30 "0123456789" 8 21 30) (mkPtok 13 "]" 8 32 31))) (mkPtok 42 "lengthOf" 8 34 32) (Some (mkPtok 43 "`{ , }`" 9 0 33)) (mkPtok 40 "," 9 8 34))); (InerObjectField (mkSpan (mkPtok 42 "Header" 10 0 36) (mkPtok 40 "," 17 6 51)) None (InerObjectDecl (mkSpan (mkPtok 42 "Header" 10 0 36) (mkPtok 3 "}" 17 4 50)) (mkPtok 42 "Header" 10 0 36) (mkPtok 2 "{" 10 7 37) [(MetaField (mkSpan (mkPtok 36 "repeat" 10 9 38) (mkPtok 40 "," 14 7 44)) (Some (mkPtok 36 "repeat" 10 9 38)) (mkMetaDecl (mkSpan (mkPtok 28 "f32" 13 0 41) (mkPtok 40 "," 14 7 44)) (TyBasic (mkSpan (mkPtok 28 "f32" 13 0 41) (mkPtok 28 "f32" 13 0 41)) (mkBasicType (mkSpan (mkPtok 28 "f32" 13 0 41) (mkPtok 28 "f32" 13 0 41)) (mkPtok 28 "f32" 13 0 41))) (mkPtok 42 "As" 13 4 42) (Some (mkPtok 43 (string_of_bytes [96; 108; 105; 110; 101; 49; 10; 108; 105; 110; 101; 50; 96]%N) 13 7 43)) (mkPtok 40 "," 14 7 44))); (CheckSumField (mkSpan (mkPtok 42 "charz" 15 4 45) (mkPtok 40 "," 17 2 49)) (mkChecksumFieldDecl (mkSpan (mkPtok 42 "charz" 15 4 45) (mkPtok 40 "," 17 2 49)) None (mkPtok 42 "charz" 15 4 45) (mkCalculatedFrom (mkSpan (mkPtok 5 "@calculatedFrom(" 16 4 46) (mkPtok 6 ")" 17 0 48)) (mkPtok 5 "@calculatedFrom(" 16 4 46) (mkPtok 31 """1""" 16 21 47) (mkPtok 6 ")" 17 0 48)) None (mkPtok 40 "," 17 2 49)))] (mkPtok 3 "}" 17 4 50)) (mkPtok 40 "," 17 6 51))] (mkPtok 3 "}" 17 8 52)) (mkPtok 40 "," 17 9 53))] (mkPtok 3 "}" 17 10 54)) (mkPtok 40 "," 17 11 55))); (mkFieldWithAttr (mkSpan (mkPtok 24 "i8" 18 0 56) (mkPtok 40 "," 21 2 63)) [] (LengthField (mkSpan (mkPtok 24 "i8" 18 0 56) (mkPtok 40 "," 21 2 63)) (mkLengthFieldDecl (mkSpan (mkPtok 24 "i8" 18 0 56) (mkPtok 40 "," 21 2 63)) (Some (TyBasic (mkSpan (mkPtok 24 "i8" 18 0 56) (mkPtok 24 "i8" 18 0 56)) (mkBasicType (mkSpan (mkPtok 24 "i8" 18 0 56) (mkPtok 24 "i8" 18 0 56)) (mkPtok 24 "i8" 18 0 56)))) (mkPtok 42 "float" 19 0 58) (mkLengthOf (mkSpan (mkPtok 7 "@lengthOf(" 20 0 59) (mkPtok 6 ")" 21 0 62)) (mkPtok 7 "@lengthOf(" 20 0 59) (mkPtok 42 "T" 20 11 60) (mkPtok 6 ")" 21 0 62)) None (mkPtok 40 "," 21 2 63)))); (mkFieldWithAttr (mkSpan (mkPtok 7 "@lengthOf(" 21 3 64) (mkPtok 40 "," 26 8 77)) [(FALengthOf (mkSpan (mkPtok 7 "@lengthOf(" 21 3 64) (mkPtok 6 ")" 22 13 66)) (mkLengthOf (mkSpan (mkPtok 7 "@lengthOf(" 21 3 64) (mkPtok 6 ")" 22 13 66)) (mkPtok 7 "@lengthOf(" 21 3 64) (mkPtok 42 "metadata" 22 4 65) (mkPtok 6 ")" 22 13 66))); (FACalculatedFrom (mkSpan (mkPtok 5 "@calculatedFrom(" 23 0 67) (mkPtok 6 ")" 25 4 70)) (mkCalculatedFrom (mkSpan (mkPtok 5 "@calculatedFrom(" 23 0 67) (mkPtok 6 ")" 25 4 70)) (mkPtok 5 "@calculatedFrom(" 23 0 67) (mkPtok 31 """packet""" 23 17 68) (mkPtok 6 ")" 25 4 70))); (FALengthOf (mkSpan (mkPtok 7 "@lengthOf(" 25 6 71) (mkPtok 6 ")" 25 29 73)) (mkLengthOf (mkSpan (mkPtok 7 "@lengthOf(" 25 6 71) (mkPtok 6 ")" 25 29 73)) (mkPtok 7 "@lengthOf(" 25 6 71) (mkPtok 42 "repeatCount" 25 17 72) (mkPtok 6 ")" 25 29 73)))] (MetaField (mkSpan (mkPtok 36 "repeat" 25 31 74) (mkPtok 40 "," 26 8 77)) (Some (mkPtok 36 "repeat" 25 31 74)) (mkMetaDecl (mkSpan (mkPtok 28 "f32" 26 0 75) (mkPtok 40 "," 26 8 77)) (TyBasic (mkSpan (mkPtok 28 "f32" 26 0 75) (mkPtok 28 "f32" 26 0 75)) (mkBasicType (mkSpan (mkPtok 28 "f32" 26 0 75) (mkPtok 28 "f32" 26 0 75)) (mkPtok 28 "f32" 26 0 75))) (mkPtok 42 "Foo" 26 4 76) None (mkPtok 40 "," 26 8 77))))] (mkPtok 3 "}" 26 10 78)))])).
-Eval vm_compute in ("<<<M885>>>" ++ check (runes_of_ascii "options {	msg_type = 007 ; //
-u8x =""`tick`""}// @lengthOf(
-packet body { match o as
-    /// triple
-    options1
-    {
-//
-//x
-""{,}"" :// trailing space 
-x_y_z 7
-:
-Foo,4294967296
-: len
-, ""// no comment""
-: i64_,	} , @lengthOf(
+Eval vm_compute in ("<<<M21>>>" ++ check (runes_of_ascii "MetaData MetaDataX { zchar[0  ] calculatedFrom
+    // trailing space 
+    , float32/// triple
 matchKey
-)repeat
-u32 x_y_z `say ""hi""` , } MetaData a1 {// a // b
-options1 options1	`doc` , }
-// " ++ [128512]%N ++ runes_of_ascii " emoji
-")).
-Eval vm_compute in ("<<<M917>>>" ++ check (runes_of_ascii "root packet Header
-{ match leftPad as Foo
-    {// c
-7 : o
-// @lengthOf(
+    , string_
 //x
-,
-0 : u8x 65535: leftPad  ,
-    00:
-asx  , ""it's"" : //
-o , },
-    }
-")).
-Eval vm_compute in ("<<<M949>>>" ++ check (runes_of_ascii "packet tag	{ BodyLength
-    // @lengthOf(
-    @lengthOf( options1
-    )
-,} options
-{trueish
-    = ""a\\""	matchKey
-= 0123456789 // trailing space 
-;
-    BodyLength = '\x00' charz = """ ++ [233]%N ++ runes_of_ascii "t" ++ [233]%N ++ runes_of_ascii """
-; }
-")).
-Eval vm_compute in ("<<<M981>>>" ++ check (runes_of_ascii "packet body { }")).
-Eval vm_compute in ("<<<M1013>>>" ++ check (runes_of_ascii "//
-packet
 // " ++ [128512]%N ++ runes_of_ascii " emoji
-//	t
-falsey{ x_y_z @calculatedFrom( ""CRC32"" ) `{ , }` , repeat int8
-i64_ , char[]f32a
-    ,@lengthOf(calculatedFrom ) repeat string f32a `{ , }` , match pack as u128 { [ 10
-//	t
-// trailing space 
-, 7 ] : calculatedFrom ,
-""" ++ [128512]%N ++ runes_of_ascii """ : options1
-    // c
-    , 1 : calculatedFrom , ""\" ++ [233]%N ++ runes_of_ascii """
-    :body
-    ,
-}, @leftPad(' ' ) o packetx ``
-,  @calculatedFrom( ""{,}""
-    ) char[ 7  ] u , repeat u	_x , Z9_
-    , @leftPad
-(  ' ' ) string asx ,} packet
-zchar { zchar[1 ] As `two words`
-, zchar[
-    7
-] charz @calculatedFrom(""" ++ [128512]%N ++ runes_of_ascii """ ) , // c
-@tag( 4294967296
-)  char[]
-uint8x @calculatedFrom(
-    ""`tick`""
-)//x
-, repeat char
-    metadata, zchar[ 65535 /// triple
-] metadata , stringy i64_ ,
-    @leftPad	('\x00' ) string_ @lengthOf( //
-options1 ) ,@tag(// packet A { u8 x, }
-65535)  float64 Foo @calculatedFrom(  ""abc""
-    ) `{ , }` , }options {
-// packet A { u8 x, }
-//	t
-}
-")).
-Eval vm_compute in ("<<<M1045>>>" ++ check (runes_of_ascii "packet A { tag T
-`u8 x,`
-//
-// `tick` ""quote"" 'q'
-, @calculatedFrom( ""a\\"" )match Header as charz
-    {
-    1 : Z9_ , 65535 :  falsey ,
-    // " ++ [128512]%N ++ runes_of_ascii " emoji
-    ""it's"" :
-trueish ,
-    ""x y"": stringy ,
-""x y"" :
-falsey ,  } ,
-float uint8x  , } options {trueish =
-    char[] ;}
-    MetaData
-i64_ { stringy
-roots
-`a\` ,	zchar[ 4294967296 ] repeatCount , }
-MetaData body {  u8x
-    int
-, a1 f32a , }
-")).
-Eval vm_compute in ("<<<M1077>>>" ++ check (runes_of_ascii "MetaData metadata
-    {
-    // c
-    i32
-x , }
-")).
-Eval vm_compute in ("<<<T1077>>>" ++ terms [mkTok 37 "MetaData" 1 0 false; mkTok 42 "metadata" 1 9 false; mkTok 2 "{" 2 4 false; mkTok 44 "// c" 3 4 true; mkTok 26 "i32" 4 4 false; mkTok 42 "x" 5 0 false; mkTok 40 "," 5 2 false; mkTok 3 "}" 5 4 false; mkTok 0 "<EOF>" 6 0 false] (mkPacket (mkPtok 37 "MetaData" 1 0 0) (Some (mkPtok 3 "}" 5 4 7)) [(DMeta (mkMetaDef (mkSpan (mkPtok 37 "MetaData" 1 0 0) (mkPtok 3 "}" 5 4 7)) (mkPtok 37 "MetaData" 1 0 0) (mkPtok 42 "metadata" 1 9 1) (mkPtok 2 "{" 2 4 2) [(MIDecl (mkMetaDecl (mkSpan (mkPtok 26 "i32" 4 4 4) (mkPtok 40 "," 5 2 6)) (TyBasic (mkSpan (mkPtok 26 "i32" 4 4 4) (mkPtok 26 "i32" 4 4 4)) (mkBasicType (mkSpan (mkPtok 26 "i32" 4 4 4) (mkPtok 26 "i32" 4 4 4)) (mkPtok 26 "i32" 4 4 4))) (mkPtok 42 "x" 5 0 5) None (mkPtok 40 "," 5 2 6)))] (mkPtok 3 "}" 5 4 7)))])).
-Eval vm_compute in ("<<<M1109>>>" ++ check (runes_of_ascii "
-options { Packet=' ' BodyLength=
-65535 zchar	=
-'0'// @lengthOf(
-; lengthOf //x
-=
-    false ;}options {
-o
-= true ;
-Foo
-    = ""a\\"";} MetaData chars{
-    zchar[
-00
-// " ++ [128512]%N ++ runes_of_ascii " emoji
-//
-] // packet A { u8 x, }
-A ,
-Packet calculatedFrom
-    , falsey
-options1, int32 x_y_z, char[]
-    zchar
-// " ++ [128512]%N ++ runes_of_ascii " emoji
-// " ++ [128512]%N ++ runes_of_ascii " emoji
-, }
-    MetaData // " ++ [27880; 37322]%N ++ runes_of_ascii "
-_x { stringy f32a
-`u8 x,`  ,
-} packet f32a
-//
-// " ++ [27880; 37322]%N ++ runes_of_ascii "
-{
-    @calculatedFrom(""a\\"" )// " ++ [128512]%N ++ runes_of_ascii " emoji
-match a1
-as x_y_z
-{
-    [ """ ++ [233]%N ++ runes_of_ascii "t" ++ [233]%N ++ runes_of_ascii """ , """" ,""" ++ [128512]%N ++ runes_of_ascii """ , ""`tick`"" ,
-""x y"" , //	t
-""abc""
-// `tick` ""quote"" 'q'
-// " ++ [27880; 37322]%N ++ runes_of_ascii "
-,
-    ""\" ++ [233]%N ++ runes_of_ascii """ ,""packet""]	: int
-,
-    }	,
-//
-// c
-repeat uint16	f32a `crlf
-line` , }")).
-Eval vm_compute in ("<<<M1141>>>" ++ check (runes_of_ascii "options {o= 007 Z9_ =
-"""" Logon // a // b
-= 4294967296 //	t
-; }
-packet stringy {}
-")).
-Eval vm_compute in ("<<<M1173>>>" ++ check (runes_of_ascii "  packet
-    falsey { float64	calculatedFrom`
-`, /// triple
-@tag(
-42 )
-repeatCount {
-match repeatCount as  A	{
-    0 : f32a
-    ,
-    } ,
-uint16 f32a @calculatedFrom(
-""a\\"" )  `// not a comment`  , crc {
-    char[ 3 ]
-Logon // `tick` ""quote"" 'q'
-@calculatedFrom(
-""packet"" ), repeat
-u128
-    {zchar[
-    42 ]lengthOf `crlf
-line` ,Pad roots `line1
-line2`
-,
-}
-// packet A { u8 x, }
-// trailing space 
-,
-// packet A { u8 x, }
-// `tick` ""quote"" 'q'
-}
-,}	,
-} packet uint8x	{repeat u8
-body , }packet
-asx	{
-zchar[ 255]
-// " ++ [128512]%N ++ runes_of_ascii " emoji
-// trailing space 
-asx ,}
-")).
-Eval vm_compute in ("<<<M1205>>>" ++ check (runes_of_ascii "//x
-options {
-    pack = ""{,}"" ; asx = 65535 ; u
-= zchar[ 007 ] ;
-    // trailing space 
-    i8i8
-=char[]
-As //x
-=' ' } // packet A { u8 x, }")).
-Eval vm_compute in ("<<<M1237>>>" ++ check (runes_of_ascii "
-root packet  u128	{	char[ 007 ]MetaDataX
-,}")).
-Eval vm_compute in ("<<<M1269>>>" ++ check (runes_of_ascii "packet  charz { // packet A { u8 x, }
-repeat len packetx  , }
-options{string_=false
-    ;crc=007
-; _x = ""a	b""
-// " ++ [128512]%N ++ runes_of_ascii " emoji
-// trailing space 
-;Z9_ = int16 }
-")).
-Eval vm_compute in ("<<<M1301>>>" ++ check (runes_of_ascii "
-")).
-Eval vm_compute in ("<<<T1301>>>" ++ terms [mkTok 0 "<EOF>" 2 0 false] (mkPacket (mkPtok 0 "<EOF>" 2 0 0) None [])).
-Eval vm_compute in ("<<<M1333>>>" ++ check (runes_of_ascii "// " ++ [128512]%N ++ runes_of_ascii " emoji
-packet u8x {	char[] Z9_ , @leftPad
-    (
-'0'
-)
-    //x
-    u64 int@lengthOf(
-//x
-//	t
-A ) `crlf
-line`	,	repeat
-u8x
-`" ++ [28040; 24687; 31867; 22411]%N ++ runes_of_ascii "`, int64 leftPad @lengthOf(
-T), i8i8 i64_  , // " ++ [128512]%N ++ runes_of_ascii " emoji
-repeat msg_type ,@rightPad
-    // a // b
-    (	'\x00'  ) @lengthOf( zchar )
-matchKey ,
-    // packet A { u8 x, }
-    } MetaData u { } MetaData x_y_z {int16
-rootA,char[]
-o `it's`
-// packet A { u8 x, }
-// @lengthOf(
-, }
-options {}
-")).
-Eval vm_compute in ("<<<M1365>>>" ++ check (runes_of_ascii "
-packet As { repeat string
-    Logon `two words` , @calculatedFrom( """" ) zchar[ 7 ]chars`crlf
-line` ,@rightPad (
-    '\x00' ) repeat len
-u , uint16 // " ++ [27880; 37322]%N ++ runes_of_ascii "
-options1
-    , } packet
-u
-    { @leftPad
-    ( ' ' ) repeat a1 packetx, u32 a1 @calculatedFrom( """ ++ [128512]%N ++ runes_of_ascii """
-    ) , }packet As { repeat float32 options1
-    `doc`, repeat float32
-// trailing space 
-// trailing space 
-x_y_z
-,@calculatedFrom( """ ++ [28040; 24687]%N ++ runes_of_ascii """
-)u16
-    int`a\` , }")).
-Eval vm_compute in ("<<<M1397>>>" ++ check (runes_of_ascii "packet string_
-    {A { // trailing space 
-zchar[1 ] // a // b
-len	,match leftPad	as metadata {
-    // " ++ [27880; 37322]%N ++ runes_of_ascii "
-    [
-    4294967296 ,
-    4294967296 , 00 , 1, ""{,}"" ,
-    007 /// triple
-, 7 ]
-: chars
-    /// triple
-    , 0
-: i64_
-    ,}, }
-    //	t
-    ,	uint8 charz`" ++ [233]%N ++ runes_of_ascii "`
-    // trailing space 
-    ,
-charz msg_type , @rightPad	(
-    ' '
-    )
-    @calculatedFrom( ""it's"" ) repeat a1
-`it's`
-, //x
-repeat Logon
-{ int o , metadata , zchar[
-    0] msg_type@calculatedFrom( """" ) , pack
-,} ,	@calculatedFrom(""it's"" )  char[
-    00 ] int `u8 x,`
-, i32
-charz
-`{ , }`,
-repeat f64 As `" ++ [28040; 24687; 31867; 22411]%N ++ runes_of_ascii "`
-/// triple
-// @lengthOf(
-,} MetaData //
-metadata
-{ string
-    falsey , }
-    packet o	{	float64 roots @lengthOf( body ) ,
-    //
-    }")).
-Eval vm_compute in ("<<<M1429>>>" ++ check (runes_of_ascii "options { } root
-    packet Packet { Packet
-i8i8
-// `tick` ""quote"" 'q'
-/// triple
-`
-`,}
-    options { asx  ='\x00'; //
-} MetaData Packet
-{ }
-")).
-Eval vm_compute in ("<<<M1461>>>" ++ check (runes_of_ascii "
-")).
-Eval vm_compute in ("<<<M1493>>>" ++ check (runes_of_ascii "options
-{	trueish = f64
-    ;
-i8i8  =
-int16 ;rootA = ""`tick`"" ;} 	 ")).
-Eval vm_compute in ("<<<M1525>>>" ++ check (runes_of_ascii "packet metadata
-    { repeat /// triple
-MetaDataX Z9_ ,
-repeat float{ o
-@lengthOf( u ) ,} , zchar[
-00]
-x_y_z ,@rightPad // packet A { u8 x, }
-(
-' ') char[] x ,
-    // @lengthOf(
-    @calculatedFrom(	""`tick`"" )
-uint8x { char[
-    255] float /// triple
-,}
-,
-repeat T
-    calculatedFrom , repeat
-int8 Header , /// triple
-@tag(
-4294967296) match crc as
-    Foo { ""CRC32"" : Packet
-,[  0
-    , ""a\""b"" ,1 ] : pack , 0
-:
-    As //x
-}// `tick` ""quote"" 'q'
-,repeat zchar msg_type ,
-    } options {i8i8
-=	65535 ;  }
-    MetaData  charz { leftPad float`
-`
-,float64 rootA`
-` ,} MetaData int  { char[
-3
-]Logon `doc`, int64
-    o `" ++ [233]%N ++ runes_of_ascii "`
-, zchar[
-    42 ]  Pad`// not a comment`
-, zchar[007 //
-] packetx `a\`
-    , packetx // a // b
-a1`
-` , }  packet // c
-lengthOf {/// triple
-match
-stringy as int {	007 : stringy
-    }
-    , uint32 chars
-`u8 x,` // " ++ [128512]%N ++ runes_of_ascii " emoji
-, @calculatedFrom(
-// a // b
-// " ++ [128512]%N ++ runes_of_ascii " emoji
-""it's""
-)@leftPad (  '0'
-    ) match roots as // c
-Header {[ ""\n"" , 7 ,
-    ""// no comment"" ]	:
-msg_type ,}
-    ,
-    }
-")).
-Eval vm_compute in ("<<<T1525>>>" ++ terms [mkTok 35 "packet" 1 0 false; mkTok 42 "metadata" 1 7 false; mkTok 2 "{" 2 4 false; mkTok 36 "repeat" 2 6 false; mkTok 44 "/// triple" 2 13 true; mkTok 42 "MetaDataX" 3 0 false; mkTok 42 "Z9_" 3 10 false; mkTok 40 "," 3 14 false; mkTok 36 "repeat" 4 0 false; mkTok 42 "float" 4 7 false; mkTok 2 "{" 4 12 false; mkTok 42 "o" 4 14 false; mkTok 7 "@lengthOf(" 5 0 false; mkTok 42 "u" 5 11 false; mkTok 6 ")" 5 13 false; mkTok 40 "," 5 15 false; mkTok 3 "}" 5 16 false; mkTok 40 "," 5 18 false; mkTok 14 "zchar[" 5 20 false; mkTok 30 "00" 6 0 false; mkTok 13 "]" 6 2 false; mkTok 42 "x_y_z" 7 0 false; mkTok 40 "," 7 6 false; mkTok 32 "@rightPad" 7 7 false; mkTok 44 "// packet A { u8 x, }" 7 17 true; mkTok 8 "(" 8 0 false; mkTok 33 "' '" 9 0 false; mkTok 6 ")" 9 3 false; mkTok 16 "char[]" 9 5 false; mkTok 42 "x" 9 12 false; mkTok 40 "," 9 14 false; mkTok 44 "// @lengthOf(" 10 4 true; mkTok 5 "@calculatedFrom(" 11 4 false; mkTok 31 """`tick`""" 11 21 false; mkTok 6 ")" 11 30 false; mkTok 42 "uint8x" 12 0 false; mkTok 2 "{" 12 7 false; mkTok 12 "char[" 12 9 false; mkTok 30 "255" 13 4 false; mkTok 13 "]" 13 7 false; mkTok 42 "float" 13 9 false; mkTok 44 "/// triple" 13 15 true; mkTok 40 "," 14 0 false; mkTok 3 "}" 14 1 false; mkTok 40 "," 15 0 false; mkTok 36 "repeat" 16 0 false; mkTok 42 "T" 16 7 false; mkTok 42 "calculatedFrom" 17 4 false; mkTok 40 "," 17 19 false; mkTok 36 "repeat" 17 21 false; mkTok 24 "int8" 18 0 false; mkTok 42 "Header" 18 5 false; mkTok 40 "," 18 12 false; mkTok 44 "/// triple" 18 14 true; mkTok 9 "@tag(" 19 0 false; mkTok 30 "4294967296" 20 0 false; mkTok 6 ")" 20 10 false; mkTok 38 "match" 20 12 false; mkTok 42 "crc" 20 18 false; mkTok 17 "as" 20 22 false; mkTok 42 "Foo" 21 4 false; mkTok 2 "{" 21 8 false; mkTok 31 """CRC32""" 21 10 false; mkTok 39 ":" 21 18 false; mkTok 42 "Packet" 21 20 false; mkTok 40 "," 22 0 false; mkTok 18 "[" 22 1 false; mkTok 30 "0" 22 4 false; mkTok 40 "," 23 4 false; mkTok 31 """a\""b""" 23 6 false; mkTok 40 "," 23 13 false; mkTok 30 "1" 23 14 false; mkTok 13 "]" 23 16 false; mkTok 39 ":" 23 18 false; mkTok 42 "pack" 23 20 false; mkTok 40 "," 23 25 false; mkTok 30 "0" 23 27 false; mkTok 39 ":" 24 0 false; mkTok 42 "As" 25 4 false; mkTok 44 "//x" 25 7 true; mkTok 3 "}" 26 0 false; mkTok 44 "// `tick` ""quote"" 'q'" 26 1 true; mkTok 40 "," 27 0 false; mkTok 36 "repeat" 27 1 false; mkTok 42 "zchar" 27 8 false; mkTok 42 "msg_type" 27 14 false; mkTok 40 "," 27 23 false; mkTok 3 "}" 28 4 false; mkTok 1 "options" 28 6 false; mkTok 2 "{" 28 14 false; mkTok 42 "i8i8" 28 15 false; mkTok 4 "=" 29 0 false; mkTok 30 "65535" 29 2 false; mkTok 41 ";" 29 8 false; mkTok 3 "}" 29 11 false; mkTok 37 "MetaData" 30 4 false; mkTok 42 "charz" 30 14 false; mkTok 2 "{" 30 20 false; mkTok 42 "leftPad" 30 22 false; mkTok 42 "float" 30 30 false; mkTok 43 (string_of_bytes [96; 10; 96]%N) 30 35 false; mkTok 40 "," 32 0 false; mkTok 29 "float64" 32 1 false; mkTok 42 "rootA" 32 9 false; mkTok 43 (string_of_bytes [96; 10; 96]%N) 32 14 false; mkTok 40 "," 33 2 false; mkTok 3 "}" 33 3 false; mkTok 37 "MetaData" 33 5 false; mkTok 42 "int" 33 14 false; mkTok 2 "{" 33 19 false; mkTok 12 "char[" 33 21 false; mkTok 30 "3" 34 0 false; mkTok 13 "]" 35 0 false; mkTok 42 "Logon" 35 1 false; mkTok 43 "`doc`" 35 7 false; mkTok 40 "," 35 12 false; mkTok 27 "int64" 35 14 false; mkTok 42 "o" 36 4 false; mkTok 43 (string_of_bytes [96; 195; 169; 96]%N) 36 6 false; mkTok 40 "," 37 0 false; mkTok 14 "zchar[" 37 2 false; mkTok 30 "42" 38 4 false; mkTok 13 "]" 38 7 false; mkTok 42 "Pad" 38 10 false; mkTok 43 "`// not a comment`" 38 13 false; mkTok 40 "," 39 0 false; mkTok 14 "zchar[" 39 2 false; mkTok 30 "007" 39 8 false; mkTok 44 "//" 39 12 true; mkTok 13 "]" 40 0 false; mkTok 42 "packetx" 40 2 false; mkTok 43 "`a\`" 40 10 false; mkTok 40 "," 41 4 false; mkTok 42 "packetx" 41 6 false; mkTok 44 "// a // b" 41 14 true; mkTok 42 "a1" 42 0 false; mkTok 43 (string_of_bytes [96; 10; 96]%N) 42 2 false; mkTok 40 "," 43 2 false; mkTok 3 "}" 43 4 false; mkTok 35 "packet" 43 7 false; mkTok 44 "// c" 43 14 true; mkTok 42 "lengthOf" 44 0 false; mkTok 2 "{" 44 9 false; mkTok 44 "/// triple" 44 10 true; mkTok 38 "match" 45 0 false; mkTok 42 "stringy" 46 0 false; mkTok 17 "as" 46 8 false; mkTok 42 "int" 46 11 false; mkTok 2 "{" 46 15 false; mkTok 30 "007" 46 17 false; mkTok 39 ":" 46 21 false; mkTok 42 "stringy" 46 23 false; mkTok 3 "}" 47 4 false; mkTok 40 "," 48 4 false; mkTok 22 "uint32" 48 6 false; mkTok 42 "chars" 48 13 false; mkTok 43 "`u8 x,`" 49 0 false; mkTok 44 (string_of_bytes [47; 47; 32; 240; 159; 152; 128; 32; 101; 109; 111; 106; 105]%N) 49 8 true; mkTok 40 "," 50 0 false; mkTok 5 "@calculatedFrom(" 50 2 false; mkTok 44 "// a // b" 51 0 true; mkTok 44 (string_of_bytes [47; 47; 32; 240; 159; 152; 128; 32; 101; 109; 111; 106; 105]%N) 52 0 true; mkTok 31 """it's""" 53 0 false; mkTok 6 ")" 54 0 false; mkTok 32 "@leftPad" 54 1 false; mkTok 8 "(" 54 10 false; mkTok 33 "'0'" 54 13 false; mkTok 6 ")" 55 4 false; mkTok 38 "match" 55 6 false; mkTok 42 "roots" 55 12 false; mkTok 17 "as" 55 18 false; mkTok 44 "// c" 55 21 true; mkTok 42 "Header" 56 0 false; mkTok 2 "{" 56 7 false; mkTok 18 "[" 56 8 false; mkTok 31 """\n""" 56 10 false; mkTok 40 "," 56 15 false; mkTok 30 "7" 56 17 false; mkTok 40 "," 56 19 false; mkTok 31 """// no comment""" 57 4 false; mkTok 13 "]" 57 20 false; mkTok 39 ":" 57 22 false; mkTok 42 "msg_type" 58 0 false; mkTok 40 "," 58 9 false; mkTok 3 "}" 58 10 false; mkTok 40 "," 59 4 false; mkTok 3 "}" 60 4 false; mkTok 0 "<EOF>" 61 0 false] (mkPacket (mkPtok 35 "packet" 1 0 0) (Some (mkPtok 3 "}" 60 4 186)) [(DPacket (mkPacketDef (mkSpan (mkPtok 35 "packet" 1 0 0) (mkPtok 3 "}" 28 4 87)) None (mkPtok 35 "packet" 1 0 0) (mkPtok 42 "metadata" 1 7 1) (mkPtok 2 "{" 2 4 2) [(mkFieldWithAttr (mkSpan (mkPtok 36 "repeat" 2 6 3) (mkPtok 40 "," 3 14 7)) [] (ObjectField (mkSpan (mkPtok 36 "repeat" 2 6 3) (mkPtok 40 "," 3 14 7)) (Some (mkPtok 36 "repeat" 2 6 3)) (mkPtok 42 "MetaDataX" 3 0 5) (Some (mkPtok 42 "Z9_" 3 10 6)) None (mkPtok 40 "," 3 14 7))); (mkFieldWithAttr (mkSpan (mkPtok 36 "repeat" 4 0 8) (mkPtok 40 "," 5 18 17)) [] (InerObjectField (mkSpan (mkPtok 36 "repeat" 4 0 8) (mkPtok 40 "," 5 18 17)) (Some (mkPtok 36 "repeat" 4 0 8)) (InerObjectDecl (mkSpan (mkPtok 42 "float" 4 7 9) (mkPtok 3 "}" 5 16 16)) (mkPtok 42 "float" 4 7 9) (mkPtok 2 "{" 4 12 10) [(LengthField (mkSpan (mkPtok 42 "o" 4 14 11) (mkPtok 40 "," 5 15 15)) (mkLengthFieldDecl (mkSpan (mkPtok 42 "o" 4 14 11) (mkPtok 40 "," 5 15 15)) None (mkPtok 42 "o" 4 14 11) (mkLengthOf (mkSpan (mkPtok 7 "@lengthOf(" 5 0 12) (mkPtok 6 ")" 5 13 14)) (mkPtok 7 "@lengthOf(" 5 0 12) (mkPtok 42 "u" 5 11 13) (mkPtok 6 ")" 5 13 14)) None (mkPtok 40 "," 5 15 15)))] (mkPtok 3 "}" 5 16 16)) (mkPtok 40 "," 5 18 17))); (mkFieldWithAttr (mkSpan (mkPtok 14 "zchar[" 5 20 18) (mkPtok 40 "," 7 6 22)) [] (MetaField (mkSpan (mkPtok 14 "zchar[" 5 20 18) (mkPtok 40 "," 7 6 22)) None (mkMetaDecl (mkSpan (mkPtok 14 "zchar[" 5 20 18) (mkPtok 40 "," 7 6 22)) (TyFixed (mkSpan (mkPtok 14 "zchar[" 5 20 18) (mkPtok 13 "]" 6 2 20)) (mkFixedString (mkSpan (mkPtok 14 "zchar[" 5 20 18) (mkPtok 13 "]" 6 2 20)) (mkPtok 14 "zchar[" 5 20 18) (mkPtok 30 "00" 6 0 19) (mkPtok 13 "]" 6 2 20))) (mkPtok 42 "x_y_z" 7 0 21) None (mkPtok 40 "," 7 6 22)))); (mkFieldWithAttr (mkSpan (mkPtok 32 "@rightPad" 7 7 23) (mkPtok 40 "," 9 14 30)) [(FAPadding (mkSpan (mkPtok 32 "@rightPad" 7 7 23) (mkPtok 6 ")" 9 3 27)) (mkPaddingAttr (mkSpan (mkPtok 32 "@rightPad" 7 7 23) (mkPtok 6 ")" 9 3 27)) (mkPtok 32 "@rightPad" 7 7 23) (mkPtok 8 "(" 8 0 25) (Some (mkPtok 33 "' '" 9 0 26)) (mkPtok 6 ")" 9 3 27)))] (MetaField (mkSpan (mkPtok 16 "char[]" 9 5 28) (mkPtok 40 "," 9 14 30)) None (mkMetaDecl (mkSpan (mkPtok 16 "char[]" 9 5 28) (mkPtok 40 "," 9 14 30)) (TyDynamic (mkSpan (mkPtok 16 "char[]" 9 5 28) (mkPtok 16 "char[]" 9 5 28)) (mkDynamicString (mkSpan (mkPtok 16 "char[]" 9 5 28) (mkPtok 16 "char[]" 9 5 28)) (mkPtok 16 "char[]" 9 5 28))) (mkPtok 42 "x" 9 12 29) None (mkPtok 40 "," 9 14 30)))); (mkFieldWithAttr (mkSpan (mkPtok 5 "@calculatedFrom(" 11 4 32) (mkPtok 40 "," 15 0 44)) [(FACalculatedFrom (mkSpan (mkPtok 5 "@calculatedFrom(" 11 4 32) (mkPtok 6 ")" 11 30 34)) (mkCalculatedFrom (mkSpan (mkPtok 5 "@calculatedFrom(" 11 4 32) (mkPtok 6 ")" 11 30 34)) (mkPtok 5 "@calculatedFrom(" 11 4 32) (mkPtok 31 """`tick`""" 11 21 33) (mkPtok 6 ")" 11 30 34)))] (InerObjectField (mkSpan (mkPtok 42 "uint8x" 12 0 35) (mkPtok 40 "," 15 0 44)) None (InerObjectDecl (mkSpan (mkPtok 42 "uint8x" 12 0 35) (mkPtok 3 "}" 14 1 43)) (mkPtok 42 "uint8x" 12 0 35) (mkPtok 2 "{" 12 7 36) [(MetaField (mkSpan (mkPtok 12 "char[" 12 9 37) (mkPtok 40 "," 14 0 42)) None (mkMetaDecl (mkSpan (mkPtok 12 "char[" 12 9 37) (mkPtok 40 "," 14 0 42)) (TyFixed (mkSpan (mkPtok 12 "char[" 12 9 37) (mkPtok 13 "]" 13 7 39)) (mkFixedString (mkSpan (mkPtok 12 "char[" 12 9 37) (mkPtok 13 "]" 13 7 39)) (mkPtok 12 "char[" 12 9 37) (mkPtok 30 "255" 13 4 38) (mkPtok 13 "]" 13 7 39))) (mkPtok 42 "float" 13 9 40) None (mkPtok 40 "," 14 0 42)))] (mkPtok 3 "}" 14 1 43)) (mkPtok 40 "," 15 0 44))); (mkFieldWithAttr (mkSpan (mkPtok 36 "repeat" 16 0 45) (mkPtok 40 "," 17 19 48)) [] (ObjectField (mkSpan (mkPtok 36 "repeat" 16 0 45) (mkPtok 40 "," 17 19 48)) (Some (mkPtok 36 "repeat" 16 0 45)) (mkPtok 42 "T" 16 7 46) (Some (mkPtok 42 "calculatedFrom" 17 4 47)) None (mkPtok 40 "," 17 19 48))); (mkFieldWithAttr (mkSpan (mkPtok 36 "repeat" 17 21 49) (mkPtok 40 "," 18 12 52)) [] (MetaField (mkSpan (mkPtok 36 "repeat" 17 21 49) (mkPtok 40 "," 18 12 52)) (Some (mkPtok 36 "repeat" 17 21 49)) (mkMetaDecl (mkSpan (mkPtok 24 "int8" 18 0 50) (mkPtok 40 "," 18 12 52)) (TyBasic (mkSpan (mkPtok 24 "int8" 18 0 50) (mkPtok 24 "int8" 18 0 50)) (mkBasicType (mkSpan (mkPtok 24 "int8" 18 0 50) (mkPtok 24 "int8" 18 0 50)) (mkPtok 24 "int8" 18 0 50))) (mkPtok 42 "Header" 18 5 51) None (mkPtok 40 "," 18 12 52)))); (mkFieldWithAttr (mkSpan (mkPtok 9 "@tag(" 19 0 54) (mkPtok 40 "," 27 0 82)) [(FATag (mkSpan (mkPtok 9 "@tag(" 19 0 54) (mkPtok 6 ")" 20 10 56)) (mkTagAttr (mkSpan (mkPtok 9 "@tag(" 19 0 54) (mkPtok 6 ")" 20 10 56)) (mkPtok 9 "@tag(" 19 0 54) (mkPtok 30 "4294967296" 20 0 55) (mkPtok 6 ")" 20 10 56)))] (MatchField (mkSpan (mkPtok 38 "match" 20 12 57) (mkPtok 40 "," 27 0 82)) (mkMatchFieldDecl (mkSpan (mkPtok 38 "match" 20 12 57) (mkPtok 3 "}" 26 0 80)) (mkPtok 38 "match" 20 12 57) (mkPtok 42 "crc" 20 18 58) (mkPtok 17 "as" 20 22 59) (mkPtok 42 "Foo" 21 4 60) (mkPtok 2 "{" 21 8 61) [(mkMatchPair (mkSpan (mkPtok 31 """CRC32""" 21 10 62) (mkPtok 40 "," 22 0 65)) (MKString (mkPtok 31 """CRC32""" 21 10 62)) (mkPtok 39 ":" 21 18 63) (mkPtok 42 "Packet" 21 20 64) (Some (mkPtok 40 "," 22 0 65))); (mkMatchPair (mkSpan (mkPtok 18 "[" 22 1 66) (mkPtok 40 "," 23 25 75)) (MKList (mkKeyList (mkSpan (mkPtok 18 "[" 22 1 66) (mkPtok 13 "]" 23 16 72)) (mkPtok 18 "[" 22 1 66) (mkPtok 30 "0" 22 4 67) [((mkPtok 40 "," 23 4 68), (mkPtok 31 """a\""b""" 23 6 69)); ((mkPtok 40 "," 23 13 70), (mkPtok 30 "1" 23 14 71))] (mkPtok 13 "]" 23 16 72))) (mkPtok 39 ":" 23 18 73) (mkPtok 42 "pack" 23 20 74) (Some (mkPtok 40 "," 23 25 75))); (mkMatchPair (mkSpan (mkPtok 30 "0" 23 27 76) (mkPtok 42 "As" 25 4 78)) (MKDigits (mkPtok 30 "0" 23 27 76)) (mkPtok 39 ":" 24 0 77) (mkPtok 42 "As" 25 4 78) None)] (mkPtok 3 "}" 26 0 80)) (mkPtok 40 "," 27 0 82))); (mkFieldWithAttr (mkSpan (mkPtok 36 "repeat" 27 1 83) (mkPtok 40 "," 27 23 86)) [] (ObjectField (mkSpan (mkPtok 36 "repeat" 27 1 83) (mkPtok 40 "," 27 23 86)) (Some (mkPtok 36 "repeat" 27 1 83)) (mkPtok 42 "zchar" 27 8 84) (Some (mkPtok 42 "msg_type" 27 14 85)) None (mkPtok 40 "," 27 23 86)))] (mkPtok 3 "}" 28 4 87))); (DOption (mkOptionDef (mkSpan (mkPtok 1 "options" 28 6 88) (mkPtok 3 "}" 29 11 94)) (mkPtok 1 "options" 28 6 88) (mkPtok 2 "{" 28 14 89) [(mkOptionDecl (mkSpan (mkPtok 42 "i8i8" 28 15 90) (mkPtok 41 ";" 29 8 93)) (mkPtok 42 "i8i8" 28 15 90) (mkPtok 4 "=" 29 0 91) (VDigits (mkSpan (mkPtok 30 "65535" 29 2 92) (mkPtok 30 "65535" 29 2 92)) (mkPtok 30 "65535" 29 2 92)) (Some (mkPtok 41 ";" 29 8 93)))] (mkPtok 3 "}" 29 11 94))); (DMeta (mkMetaDef (mkSpan (mkPtok 37 "MetaData" 30 4 95) (mkPtok 3 "}" 33 3 106)) (mkPtok 37 "MetaData" 30 4 95) (mkPtok 42 "charz" 30 14 96) (mkPtok 2 "{" 30 20 97) [(MIRef (mkRefMetaDecl (mkSpan (mkPtok 42 "leftPad" 30 22 98) (mkPtok 40 "," 32 0 101)) (mkPtok 42 "leftPad" 30 22 98) (mkPtok 42 "float" 30 30 99) (Some (mkPtok 43 (string_of_bytes [96; 10; 96]%N) 30 35 100)) (mkPtok 40 "," 32 0 101))); (MIDecl (mkMetaDecl (mkSpan (mkPtok 29 "float64" 32 1 102) (mkPtok 40 "," 33 2 105)) (TyBasic (mkSpan (mkPtok 29 "float64" 32 1 102) (mkPtok 29 "float64" 32 1 102)) (mkBasicType (mkSpan (mkPtok 29 "float64" 32 1 102) (mkPtok 29 "float64" 32 1 102)) (mkPtok 29 "float64" 32 1 102))) (mkPtok 42 "rootA" 32 9 103) (Some (mkPtok 43 (string_of_bytes [96; 10; 96]%N) 32 14 104)) (mkPtok 40 "," 33 2 105)))] (mkPtok 3 "}" 33 3 106))); (DMeta (mkMetaDef (mkSpan (mkPtok 37 "MetaData" 33 5 107) (mkPtok 3 "}" 43 4 138)) (mkPtok 37 "MetaData" 33 5 107) (mkPtok 42 "int" 33 14 108) (mkPtok 2 "{" 33 19 109) [(MIDecl (mkMetaDecl (mkSpan (mkPtok 12 "char[" 33 21 110) (mkPtok 40 "," 35 12 115)) (TyFixed (mkSpan (mkPtok 12 "char[" 33 21 110) (mkPtok 13 "]" 35 0 112)) (mkFixedString (mkSpan (mkPtok 12 "char[" 33 21 110) (mkPtok 13 "]" 35 0 112)) (mkPtok 12 "char[" 33 21 110) (mkPtok 30 "3" 34 0 111) (mkPtok 13 "]" 35 0 112))) (mkPtok 42 "Logon" 35 1 113) (Some (mkPtok 43 "`doc`" 35 7 114)) (mkPtok 40 "," 35 12 115))); (MIDecl (mkMetaDecl (mkSpan (mkPtok 27 "int64" 35 14 116) (mkPtok 40 "," 37 0 119)) (TyBasic (mkSpan (mkPtok 27 "int64" 35 14 116) (mkPtok 27 "int64" 35 14 116)) (mkBasicType (mkSpan (mkPtok 27 "int64" 35 14 116) (mkPtok 27 "int64" 35 14 116)) (mkPtok 27 "int64" 35 14 116))) (mkPtok 42 "o" 36 4 117) (Some (mkPtok 43 (string_of_bytes [96; 195; 169; 96]%N) 36 6 118)) (mkPtok 40 "," 37 0 119))); (MIDecl (mkMetaDecl (mkSpan (mkPtok 14 "zchar[" 37 2 120) (mkPtok 40 "," 39 0 125)) (TyFixed (mkSpan (mkPtok 14 "zchar[" 37 2 120) (mkPtok 13 "]" 38 7 122)) (mkFixedString (mkSpan (mkPtok 14 "zchar[" 37 2 120) (mkPtok 13 "]" 38 7 122)) (mkPtok 14 "zchar[" 37 2 120) (mkPtok 30 "42" 38 4 121) (mkPtok 13 "]" 38 7 122))) (mkPtok 42 "Pad" 38 10 123) (Some (mkPtok 43 "`// not a comment`" 38 13 124)) (mkPtok 40 "," 39 0 125))); (MIDecl (mkMetaDecl (mkSpan (mkPtok 14 "zchar[" 39 2 126) (mkPtok 40 "," 41 4 132)) (TyFixed (mkSpan (mkPtok 14 "zchar[" 39 2 126) (mkPtok 13 "]" 40 0 129)) (mkFixedString (mkSpan (mkPtok 14 "zchar[" 39 2 126) (mkPtok 13 "]" 40 0 129)) (mkPtok 14 "zchar[" 39 2 126) (mkPtok 30 "007" 39 8 127) (mkPtok 13 "]" 40 0 129))) (mkPtok 42 "packetx" 40 2 130) (Some (mkPtok 43 "`a\`" 40 10 131)) (mkPtok 40 "," 41 4 132))); (MIRef (mkRefMetaDecl (mkSpan (mkPtok 42 "packetx" 41 6 133) (mkPtok 40 "," 43 2 137)) (mkPtok 42 "packetx" 41 6 133) (mkPtok 42 "a1" 42 0 135) (Some (mkPtok 43 (string_of_bytes [96; 10; 96]%N) 42 2 136)) (mkPtok 40 "," 43 2 137)))] (mkPtok 3 "}" 43 4 138))); (DPacket (mkPacketDef (mkSpan (mkPtok 35 "packet" 43 7 139) (mkPtok 3 "}" 60 4 186)) None (mkPtok 35 "packet" 43 7 139) (mkPtok 42 "lengthOf" 44 0 141) (mkPtok 2 "{" 44 9 142) [(mkFieldWithAttr (mkSpan (mkPtok 38 "match" 45 0 144) (mkPtok 40 "," 48 4 153)) [] (MatchField (mkSpan (mkPtok 38 "match" 45 0 144) (mkPtok 40 "," 48 4 153)) (mkMatchFieldDecl (mkSpan (mkPtok 38 "match" 45 0 144) (mkPtok 3 "}" 47 4 152)) (mkPtok 38 "match" 45 0 144) (mkPtok 42 "stringy" 46 0 145) (mkPtok 17 "as" 46 8 146) (mkPtok 42 "int" 46 11 147) (mkPtok 2 "{" 46 15 148) [(mkMatchPair (mkSpan (mkPtok 30 "007" 46 17 149) (mkPtok 42 "stringy" 46 23 151)) (MKDigits (mkPtok 30 "007" 46 17 149)) (mkPtok 39 ":" 46 21 150) (mkPtok 42 "stringy" 46 23 151) None)] (mkPtok 3 "}" 47 4 152)) (mkPtok 40 "," 48 4 153))); (mkFieldWithAttr (mkSpan (mkPtok 22 "uint32" 48 6 154) (mkPtok 40 "," 50 0 158)) [] (MetaField (mkSpan (mkPtok 22 "uint32" 48 6 154) (mkPtok 40 "," 50 0 158)) None (mkMetaDecl (mkSpan (mkPtok 22 "uint32" 48 6 154) (mkPtok 40 "," 50 0 158)) (TyBasic (mkSpan (mkPtok 22 "uint32" 48 6 154) (mkPtok 22 "uint32" 48 6 154)) (mkBasicType (mkSpan (mkPtok 22 "uint32" 48 6 154) (mkPtok 22 "uint32" 48 6 154)) (mkPtok 22 "uint32" 48 6 154))) (mkPtok 42 "chars" 48 13 155) (Some (mkPtok 43 "`u8 x,`" 49 0 156)) (mkPtok 40 "," 50 0 158)))); (mkFieldWithAttr (mkSpan (mkPtok 5 "@calculatedFrom(" 50 2 159) (mkPtok 40 "," 59 4 185)) [(FACalculatedFrom (mkSpan (mkPtok 5 "@calculatedFrom(" 50 2 159) (mkPtok 6 ")" 54 0 163)) (mkCalculatedFrom (mkSpan (mkPtok 5 "@calculatedFrom(" 50 2 159) (mkPtok 6 ")" 54 0 163)) (mkPtok 5 "@calculatedFrom(" 50 2 159) (mkPtok 31 """it's""" 53 0 162) (mkPtok 6 ")" 54 0 163))); (FAPadding (mkSpan (mkPtok 32 "@leftPad" 54 1 164) (mkPtok 6 ")" 55 4 167)) (mkPaddingAttr (mkSpan (mkPtok 32 "@leftPad" 54 1 164) (mkPtok 6 ")" 55 4 167)) (mkPtok 32 "@leftPad" 54 1 164) (mkPtok 8 "(" 54 10 165) (Some (mkPtok 33 "'0'" 54 13 166)) (mkPtok 6 ")" 55 4 167)))] (MatchField (mkSpan (mkPtok 38 "match" 55 6 168) (mkPtok 40 "," 59 4 185)) (mkMatchFieldDecl (mkSpan (mkPtok 38 "match" 55 6 168) (mkPtok 3 "}" 58 10 184)) (mkPtok 38 "match" 55 6 168) (mkPtok 42 "roots" 55 12 169) (mkPtok 17 "as" 55 18 170) (mkPtok 42 "Header" 56 0 172) (mkPtok 2 "{" 56 7 173) [(mkMatchPair (mkSpan (mkPtok 18 "[" 56 8 174) (mkPtok 40 "," 58 9 183)) (MKList (mkKeyList (mkSpan (mkPtok 18 "[" 56 8 174) (mkPtok 13 "]" 57 20 180)) (mkPtok 18 "[" 56 8 174) (mkPtok 31 """\n""" 56 10 175) [((mkPtok 40 "," 56 15 176), (mkPtok 30 "7" 56 17 177)); ((mkPtok 40 "," 56 19 178), (mkPtok 31 """// no comment""" 57 4 179))] (mkPtok 13 "]" 57 20 180))) (mkPtok 39 ":" 57 22 181) (mkPtok 42 "msg_type" 58 0 182) (Some (mkPtok 40 "," 58 9 183)))] (mkPtok 3 "}" 58 10 184)) (mkPtok 40 "," 59 4 185)))] (mkPtok 3 "}" 60 4 186)))])).
-Eval vm_compute in ("<<<M1557>>>" ++ check (runes_of_ascii "packet
-u { repeat options1 , }
-")).
-Eval vm_compute in ("<<<M1589>>>" ++ check (runes_of_ascii "packet Foo { @rightPad ( '\x00' )
-int16 x
-,} // c")).
-Eval vm_compute in ("<<<M1621>>>" ++ check (runes_of_ascii "
-")).
-Eval vm_compute in ("<<<M1653>>>" ++ check (runes_of_ascii "options{
+calculatedFrom,	int lengthOf,
     } 	 ")).
-Eval vm_compute in ("<<<M1685>>>" ++ check (runes_of_ascii "options{ stringy = u32 ; T = i64 MetaDataX = """ ++ [28040; 24687]%N ++ runes_of_ascii """ } /// triple")).
-Eval vm_compute in ("<<<M1717>>>" ++ check (runes_of_ascii "root packet
-    body{
-    repeat// " ++ [128512]%N ++ runes_of_ascii " emoji
-u128 Pad , @lengthOf(
-f32a )
-@tag( 10 ) repeat	u8 Header
-, //
-T // " ++ [27880; 37322]%N ++ runes_of_ascii "
-@lengthOf( Foo
-)	,	zchar[  0123456789]
-    crc
-// c
-//
-@calculatedFrom(
-""it's"" ) ,char[ 4294967296	] lengthOf // a // b
-@calculatedFrom(""a\\""
-)`line1
-line2` ,// " ++ [128512]%N ++ runes_of_ascii " emoji
-uint8 stringy `// not a comment`,	char[ 0123456789 ] float // packet A { u8 x, }
-, @lengthOf(	crc
-)
-repeat f32 a1 ,@calculatedFrom( ""\n""	)  @calculatedFrom( ""it's""
-    //	t
-    ) // packet A { u8 x, }
-@rightPad
-( ) int8 MetaDataX @lengthOf(
-    stringy) `` , u128 @lengthOf( u8x) , } options {
-    a1
-= false
-chars =	""CRC32""
-    ;string_ = f64
-pack =0123456789
+Eval vm_compute in ("<<<M53>>>" ++ check (runes_of_ascii "root
+packet
+len { int16//	t
+falsey @lengthOf( _x
+)	, } // " ++ [128512]%N ++ runes_of_ascii " emoji")).
+Eval vm_compute in ("<<<M85>>>" ++ check (runes_of_ascii "options{  }
+options
+    { o =
+//x
+//	t
+false packetx=
+    // @lengthOf(
+    """ ++ [233]%N ++ runes_of_ascii "t" ++ [233]%N ++ runes_of_ascii """	asx = 0123456789 Foo = int8 a1
+    = uint8
     ;
+    } //	t")).
+Eval vm_compute in ("<<<M117>>>" ++ check (runes_of_ascii "MetaData tag{
+} MetaData tag
+    { options1 metadata// " ++ [128512]%N ++ runes_of_ascii " emoji
+,
+}
+    root packet Header { @lengthOf( body
+) len
+msg_type
+    , repeat	string
+    //x
+    int
+`{ , }`, u8
+    rootA @lengthOf(
+Z9_ )  `" ++ [233]%N ++ runes_of_ascii "` , }
+")).
+Eval vm_compute in ("<<<M149>>>" ++ check (runes_of_ascii "
+root
+packet
+crc {u32 metadata
+, As  falsey//x
+`crlf
+line` , repeatCount { repeat x_y_z //	t
+{
+repeat zchar
+    crc `u8 x,`
+/// triple
+// @lengthOf(
+,
+    // trailing space 
+    } ,	char[] MetaDataX @lengthOf( Foo )
+    `" ++ [28040; 24687; 31867; 22411]%N ++ runes_of_ascii "`
+    , } , } root packet len
+    { }
+packet//x
+roots  { @tag(
+    007 )rootA
+{
+    u32
+Z9_ `doc` ,  } , repeat rootA, @tag( 1
+) @lengthOf(
+//	t
+// 50% %s
+rootA	)  u64 packetx // trailing space 
+,
+repeat f64
+    u8x ,f32 string_ `two words` , char[ 4294967296// @lengthOf(
+]  charz @calculatedFrom(
+""CRC32""	), char[]options1 , char[ 42 //
+] // a // b
+Logon @calculatedFrom(
+// c
+// @lengthOf(
+""" ++ [233]%N ++ runes_of_ascii "t" ++ [233]%N ++ runes_of_ascii """)
+    `tab	here`,@rightPad
+    ( // @lengthOf(
+' '  )match matchKey as packetx	{ 007 // trailing space 
+: len , }	,
 }
 ")).
-Eval vm_compute in ("<<<M1749>>>" ++ check (runes_of_ascii "options {tag
-    //x
-    = ""a	b""
-; f32a
-    =
-' '
-_x
-= // c
-char[4294967296 ]	;} /// triple
-options  { }")).
-Eval vm_compute in ("<<<T1749>>>" ++ terms [mkTok 1 "options" 1 0 false; mkTok 2 "{" 1 8 false; mkTok 42 "tag" 1 9 false; mkTok 44 "//x" 2 4 true; mkTok 4 "=" 3 4 false; mkTok 31 (string_of_bytes [34; 97; 9; 98; 34]%N) 3 6 false; mkTok 41 ";" 4 0 false; mkTok 42 "f32a" 4 2 false; mkTok 4 "=" 5 4 false; mkTok 33 "' '" 6 0 false; mkTok 42 "_x" 7 0 false; mkTok 4 "=" 8 0 false; mkTok 44 "// c" 8 2 true; mkTok 12 "char[" 9 0 false; mkTok 30 "4294967296" 9 5 false; mkTok 13 "]" 9 16 false; mkTok 41 ";" 9 18 false; mkTok 3 "}" 9 19 false; mkTok 44 "/// triple" 9 21 true; mkTok 1 "options" 10 0 false; mkTok 2 "{" 10 9 false; mkTok 3 "}" 10 11 false; mkTok 0 "<EOF>" 10 12 false] (mkPacket (mkPtok 1 "options" 1 0 0) (Some (mkPtok 3 "}" 10 11 21)) [(DOption (mkOptionDef (mkSpan (mkPtok 1 "options" 1 0 0) (mkPtok 3 "}" 9 19 17)) (mkPtok 1 "options" 1 0 0) (mkPtok 2 "{" 1 8 1) [(mkOptionDecl (mkSpan (mkPtok 42 "tag" 1 9 2) (mkPtok 41 ";" 4 0 6)) (mkPtok 42 "tag" 1 9 2) (mkPtok 4 "=" 3 4 4) (VString (mkSpan (mkPtok 31 (string_of_bytes [34; 97; 9; 98; 34]%N) 3 6 5) (mkPtok 31 (string_of_bytes [34; 97; 9; 98; 34]%N) 3 6 5)) (mkPtok 31 (string_of_bytes [34; 97; 9; 98; 34]%N) 3 6 5)) (Some (mkPtok 41 ";" 4 0 6))); (mkOptionDecl (mkSpan (mkPtok 42 "f32a" 4 2 7) (mkPtok 33 "' '" 6 0 9)) (mkPtok 42 "f32a" 4 2 7) (mkPtok 4 "=" 5 4 8) (VPaddingChar (mkSpan (mkPtok 33 "' '" 6 0 9) (mkPtok 33 "' '" 6 0 9)) (mkPtok 33 "' '" 6 0 9)) None); (mkOptionDecl (mkSpan (mkPtok 42 "_x" 7 0 10) (mkPtok 41 ";" 9 18 16)) (mkPtok 42 "_x" 7 0 10) (mkPtok 4 "=" 8 0 11) (VType (mkSpan (mkPtok 12 "char[" 9 0 13) (mkPtok 13 "]" 9 16 15)) (TyFixed (mkSpan (mkPtok 12 "char[" 9 0 13) (mkPtok 13 "]" 9 16 15)) (mkFixedString (mkSpan (mkPtok 12 "char[" 9 0 13) (mkPtok 13 "]" 9 16 15)) (mkPtok 12 "char[" 9 0 13) (mkPtok 30 "4294967296" 9 5 14) (mkPtok 13 "]" 9 16 15)))) (Some (mkPtok 41 ";" 9 18 16)))] (mkPtok 3 "}" 9 19 17))); (DOption (mkOptionDef (mkSpan (mkPtok 1 "options" 10 0 19) (mkPtok 3 "}" 10 11 21)) (mkPtok 1 "options" 10 0 19) (mkPtok 2 "{" 10 9 20) [] (mkPtok 3 "}" 10 11 21)))])).
-Eval vm_compute in ("<<<M1781>>>" ++ check (runes_of_ascii "// `tick` ""quote"" 'q'
-packet i64_{ }
+Eval vm_compute in ("<<<M181>>>" ++ check (runes_of_ascii "
+packet// 50% %s
+rootA// 50% %s
+{ //
+}")).
+Eval vm_compute in ("<<<T181>>>" ++ terms [mkTok 35 "packet" 2 0 false; mkTok 44 "// 50% %s" 2 6 true; mkTok 42 "rootA" 3 0 false; mkTok 44 "// 50% %s" 3 5 true; mkTok 2 "{" 4 0 false; mkTok 44 "//" 4 2 true; mkTok 3 "}" 5 0 false; mkTok 0 "<EOF>" 5 1 false] (mkPacket (mkPtok 35 "packet" 2 0 0) (Some (mkPtok 3 "}" 5 0 6)) [(DPacket (mkPacketDef (mkSpan (mkPtok 35 "packet" 2 0 0) (mkPtok 3 "}" 5 0 6)) None (mkPtok 35 "packet" 2 0 0) (mkPtok 42 "rootA" 3 0 2) (mkPtok 2 "{" 4 0 4) [] (mkPtok 3 "}" 5 0 6)))])).
+Eval vm_compute in ("<<<M213>>>" ++ check (runes_of_ascii "  MetaData
+    int { }
+options{	u8x = 10 }
+")).
+Eval vm_compute in ("<<<M245>>>" ++ check (runes_of_ascii "packet
+    body { @tag( 42
+    ) char[ 4294967296
+] chars @calculatedFrom( ""{,}"")
+`doc` // " ++ [27880; 37322]%N ++ runes_of_ascii "
+,
+repeat string lengthOf , @tag(
+    3 /// triple
+) string float @lengthOf( o
+),
+    u32 pack `100% of %d`, stringy
+@lengthOf( repeatCount
+    ) `say ""hi""`  , float32 crc `two words` , } packet zchar { @tag(
+    0
+    )
+    @tag(  1 // a // b
+)
+@lengthOf(
+    // `tick` ""quote"" 'q'
+    Z9_) u32 Logon	@calculatedFrom(  ""x y""
+)	, @tag( //	t
+1 )  string
+    packetx@lengthOf( u8x
+//	t
+// `tick` ""quote"" 'q'
+)	, zchar[10 ] uint8x
+    /// triple
+    `// not a comment`
+, repeat // a // b
+stringy{ i16
+    Z9_`// not a comment` ,repeat zchar[
+    4294967296 ] u
+,zchar @calculatedFrom(  ""{,}"" ) `a\` , }
+,
+rootA  u128 , } packet asx {
+repeat i64_ ,@lengthOf( msg_type )repeat Z9_ rootA
+    , }")).
+Eval vm_compute in ("<<<M277>>>" ++ check (runes_of_ascii "
+packet stringy
+    { // c
+u8 Header// 50% %s
+@calculatedFrom(
+""it's""), calculatedFrom f32a, zchar[
+    /// triple
+    7
+] chars
+@lengthOf( x ),repeat
+As //x
+{ u8x crc
+`
+` ,	} , @tag(7) //x
+i16 rootA `it's`	, @calculatedFrom( """ ++ [128512]%N ++ runes_of_ascii """ ) i8 i8i8 `line1
+line2` ,
+repeat  char charz `say ""hi""` , } options
+    { }")).
+Eval vm_compute in ("<<<M309>>>" ++ check (runes_of_ascii "MetaData
+    string_ // packet A { u8 x, }
+{
+u128 chars `u8 x,`
+,
+u8x // packet A { u8 x, }
+leftPad
+, } packet float {
+    //	t
+    trueish {
+float { u16 stringy , }
+    ,crc @calculatedFrom( ""// no comment""),// packet A { u8 x, }
+zchar[
+00 ] x_y_z @lengthOf( trueish )
+    `crlf
+line` ,}
+, o{u8x
+    { As @calculatedFrom(""a	b""
+//x
+// trailing space 
+)
+    , zchar[ 3]MetaDataX , } , char[ 255]  _x
+,}
+    // " ++ [128512]%N ++ runes_of_ascii " emoji
+    , }
+packet repeatCount { } 	 ")).
+Eval vm_compute in ("<<<M341>>>" ++ check (runes_of_ascii "root// a // b
+packet // " ++ [128512]%N ++ runes_of_ascii " emoji
+metadata
+{repeat float32 roots
+    , repeat
+    string //x
+asx ,
+    string
+// " ++ [27880; 37322]%N ++ runes_of_ascii "
+//	t
+roots @lengthOf(
+As ) , char[
+    // `tick` ""quote"" 'q'
+    10 ] crc @lengthOf( roots ) `{ , }`, i64 Logon  @calculatedFrom( ""{,}""
+)  , i16 // trailing space 
+options1
+@calculatedFrom( ""CRC32""	),
+@calculatedFrom( ""abc""
+    )@calculatedFrom(
+""" ++ [233]%N ++ runes_of_ascii "t" ++ [233]%N ++ runes_of_ascii """)
+    zchar[ 65535 ] matchKey
+, @rightPad
+/// triple
+// trailing space 
+('0' )	repeat matchKey`u8 x,` , repeat  len ,
+} options{ pack = ' '
+; u8x  =char[7];
+    i64_= true; calculatedFrom = true
+// packet A { u8 x, }
+// " ++ [128512]%N ++ runes_of_ascii " emoji
+; } root
+// packet A { u8 x, }
+// `tick` ""quote"" 'q'
+packet rootA{
+    @calculatedFrom(
+    // c
+    ""a\""b"" )@rightPad //
+( '\x00' ) @calculatedFrom(""a\""b""
+) char[] Pad ,
+    } MetaData  i64_ {u64
+    matchKey
+    ,int64 Foo ,
+    char[
+    0123456789]
+    BodyLength
+    `
+` , tag crc ,
+}")).
+Eval vm_compute in ("<<<M373>>>" ++ check (runes_of_ascii " // trailing space ")).
+Eval vm_compute in ("<<<M405>>>" ++ check (runes_of_ascii "  MetaData repeatCount { metadata Pad
+//	t
+// packet A { u8 x, }
+`say ""hi""` ,
+//
+//	t
+}
+")).
+Eval vm_compute in ("<<<T405>>>" ++ terms [mkTok 37 "MetaData" 1 2 false; mkTok 42 "repeatCount" 1 11 false; mkTok 2 "{" 1 23 false; mkTok 42 "metadata" 1 25 false; mkTok 42 "Pad" 1 34 false; mkTok 44 (string_of_bytes [47; 47; 9; 116]%N) 2 0 true; mkTok 44 "// packet A { u8 x, }" 3 0 true; mkTok 43 "`say ""hi""`" 4 0 false; mkTok 40 "," 4 11 false; mkTok 44 "//" 5 0 true; mkTok 44 (string_of_bytes [47; 47; 9; 116]%N) 6 0 true; mkTok 3 "}" 7 0 false; mkTok 0 "<EOF>" 8 0 false] (mkPacket (mkPtok 37 "MetaData" 1 2 0) (Some (mkPtok 3 "}" 7 0 11)) [(DMeta (mkMetaDef (mkSpan (mkPtok 37 "MetaData" 1 2 0) (mkPtok 3 "}" 7 0 11)) (mkPtok 37 "MetaData" 1 2 0) (mkPtok 42 "repeatCount" 1 11 1) (mkPtok 2 "{" 1 23 2) [(MIRef (mkRefMetaDecl (mkSpan (mkPtok 42 "metadata" 1 25 3) (mkPtok 40 "," 4 11 8)) (mkPtok 42 "metadata" 1 25 3) (mkPtok 42 "Pad" 1 34 4) (Some (mkPtok 43 "`say ""hi""`" 4 0 7)) (mkPtok 40 "," 4 11 8)))] (mkPtok 3 "}" 7 0 11)))])).
+Eval vm_compute in ("<<<M437>>>" ++ check (runes_of_ascii "
+MetaData lengthOf { calculatedFrom	BodyLength `" ++ [28040; 24687; 31867; 22411]%N ++ runes_of_ascii "` ,Packet x,
+char[00 ] metadata
+,
+options1
+BodyLength ,
+f32 x  ,
+// `tick` ""quote"" 'q'
+//x
+} MetaData pack{int64
+u
+`a\`
+, int8 asx `tab	here` ,
+    char[]
+a1`u8 x,` ,repeatCount len `" ++ [233]%N ++ runes_of_ascii "` ,
+    } packet charz{
+@leftPad ( '\x00' ) float32 options1`two words` , } packet pack{ @tag( 10 )
+repeat u
+{ repeat i16 trueish`say ""hi""` ,repeat len calculatedFrom ,o Foo ,
+}
+,
+i8 msg_type`crlf
+line` , @calculatedFrom(
+    ""\n""
+) // c
+zchar[
+    10
+]
+chars
+    @lengthOf(	trueish// 50% %s
+) //	t
+,
+    uint8 o, @calculatedFrom( ""a	b""
+) f64/// triple
+string_ , a1 {string x
+    `" ++ [28040; 24687; 31867; 22411]%N ++ runes_of_ascii "`
+, // " ++ [128512]%N ++ runes_of_ascii " emoji
+repeat i64_
+,
+    f64
+i8i8 `it's`// 50% %s
+,} ,  @calculatedFrom(""abc""	)
+    string_ @calculatedFrom( ""`tick`"" )
+`{ , }`
+    ,match
+uint8x as As
+    {[
+0,
+""a\\"" ]
+:
+    metadata [ ""x y"" , ""a	b""
+    ,""{,}"" //
+, """ ++ [28040; 24687]%N ++ runes_of_ascii """  , ""{,}"" ,
+""{,}"" ]  : asx ,},}")).
+Eval vm_compute in ("<<<M469>>>" ++ check (runes_of_ascii "// packet A { u8 x, }
 
 ")).
-Eval vm_compute in ("<<<M1813>>>" ++ check (runes_of_ascii "
-root packet
-    zchar {float options1 ,
-    /// triple
-    }packet Packet
-{
-repeat zchar ,} MetaData
+Eval vm_compute in ("<<<M501>>>" ++ check (runes_of_ascii "packet x_y_z  {@lengthOf( leftPad)
+float {	int32 Header , matchKey asx
+,
     // " ++ [27880; 37322]%N ++ runes_of_ascii "
-    zchar{
-}MetaData u
-    { len rootA, //x
+    match metadata as pack
+    {""\" ++ [233]%N ++ runes_of_ascii """: packetx, ""CRC32"":	Packet  , 255
+// " ++ [27880; 37322]%N ++ runes_of_ascii "
+/// triple
+:f32a""// no comment""
+    :	len ""// no comment"" // " ++ [27880; 37322]%N ++ runes_of_ascii "
+:	float, 007 :
+Header , } ,} ,
+    }
+")).
+Eval vm_compute in ("<<<M533>>>" ++ check (runes_of_ascii "packet i8i8
+{match
+Pad as u8x {
+""CRC32""
+    // @lengthOf(
+    : metadata ,
+[ 7 , 65535// c
+] : matchKey/// triple
+,
+} , metadata
+@calculatedFrom(
+    //	t
+    ""// no comment""// a // b
+)	, uint32
+f32a `
+` // 50% %s
+,
+@tag(255)	@tag( 1 ) @leftPad ( //
+' '
+    )int32 Foo
+    `100% of %d` ,
+    string falsey @lengthOf(i64_) , @calculatedFrom( ""\n""
+)i8i8
+`{ , }`	, lengthOf u8x , @lengthOf(
+    // @lengthOf(
+    uint8x)
+MetaDataX // " ++ [128512]%N ++ runes_of_ascii " emoji
+{ repeat A i64_ `" ++ [233]%N ++ runes_of_ascii "` ,} , a1`u8 x,` , Z9_@calculatedFrom(
+// c
+/// triple
+""\" ++ [233]%N ++ runes_of_ascii """ ) // a // b
+, }
+")).
+Eval vm_compute in ("<<<M565>>>" ++ check (runes_of_ascii "
+root  packet msg_type { packetx // " ++ [128512]%N ++ runes_of_ascii " emoji
+, } root packet u8x { @calculatedFrom(
+    ""CRC32""  ) repeat u128{ u32
+asx, } , }
+
+")).
+Eval vm_compute in ("<<<M597>>>" ++ check (runes_of_ascii "
+MetaData As { char
+i64_
+`tab	here`
+    , char[ // packet A { u8 x, }
+0
+    ]
+    charz `crlf
+line` ,zchar[ 0123456789] metadata	, }")).
+Eval vm_compute in ("<<<M629>>>" ++ check (runes_of_ascii "packet lengthOf { } root packet
+    repeatCount { // 50% %s
+@tag( 42 ) @tag(0 ) @calculatedFrom(
+""it's""
+)// `tick` ""quote"" 'q'
+char[
+    //x
+    65535 ]
+charz @lengthOf( falsey )
+`" ++ [28040; 24687; 31867; 22411]%N ++ runes_of_ascii "` , } packet//	t
+crc {@calculatedFrom( ""packet""
+) @calculatedFrom( """ ++ [233]%N ++ runes_of_ascii "t" ++ [233]%N ++ runes_of_ascii """) @lengthOf( A
+) match float as chars
+    {
+    //	t
+    [ 65535 , """ ++ [233]%N ++ runes_of_ascii "t" ++ [233]%N ++ runes_of_ascii """
+    , ""CRC32""
+,0123456789
+] : u ,
+    } ,zchar[ 255 ]
+chars @calculatedFrom(
+    // @lengthOf(
+    """ ++ [28040; 24687]%N ++ runes_of_ascii """ ),
+@lengthOf( asx )@rightPad ( // 50% %s
+'\x00'
+) repeat
+lengthOf `crlf
+line`,// `tick` ""quote"" 'q'
+repeat // trailing space 
+string_ { match Z9_
+//	t
+// " ++ [27880; 37322]%N ++ runes_of_ascii "
+as
+roots {
+3  : T, [ """" ,
+10,  00 ]:packetx , }
+, }	, i8 Header @lengthOf(
+    charz )  `it's` ,repeat calculatedFrom
+    //x
+    {
+// `tick` ""quote"" 'q'
+// `tick` ""quote"" 'q'
+match repeatCount as
+len { 7: lengthOf // trailing space 
+, [  """ ++ [233]%N ++ runes_of_ascii "t" ++ [233]%N ++ runes_of_ascii """ ] : MetaDataX
+    , ""abc"": Packet
+// c
+// `tick` ""quote"" 'q'
+,
+65535 : i64_ ,
+    007 : Packet },  stringy o  `
+`//
+,zchar[ /// triple
+7
+    ]
+    u
+// packet A { u8 x, }
+// `tick` ""quote"" 'q'
+,	}, @lengthOf(lengthOf
+    )
+match f32a as  Z9_	{ ""1"" : o  ,} , }
+packet body { } //x
+root packet
+    Z9_
+    {
+match packetx as f32a	{ 0 // a // b
+: metadata , }
+    , char[] leftPad
+    ``
+    // @lengthOf(
+    ,repeat
+    uint8 x_y_z`100% of %d`  ,
+string BodyLength@calculatedFrom(
+""" ++ [128512]%N ++ runes_of_ascii """) ,	Pad	, @tag(
+    255 )
+    @lengthOf(
+// @lengthOf(
+// packet A { u8 x, }
+roots ) @calculatedFrom(  """ ++ [128512]%N ++ runes_of_ascii """
+)
+    repeat crc { repeat char //	t
+trueish
+    , }	,
+    zchar[
+    4294967296 ]options1
+@calculatedFrom(""CRC32"" ) , // 50% %s
+match packetx as lengthOf { ""a\""b""  : options1	,
+// trailing space 
+// " ++ [128512]%N ++ runes_of_ascii " emoji
+0123456789
+: Foo
+,  ""a\\"": trueish	, 3
+    :
+    string_ , ""\n"" :
+    /// triple
+    zchar , [ 65535 ]
+: u128
+} ,@tag( 42 ) @leftPad ( '\x00' ) i16 crc ,
+    zchar[7]	_x  @lengthOf(falsey  )
+,
 }
 ")).
-Eval vm_compute in ("<<<M1845>>>" ++ check (runes_of_ascii "packet T
-    { @calculatedFrom( ""// no comment""	) // " ++ [128512]%N ++ runes_of_ascii " emoji
-repeat uint32
-    roots,uint16 float `a\`
+Eval vm_compute in ("<<<T629>>>" ++ terms [mkTok 35 "packet" 1 0 false; mkTok 42 "lengthOf" 1 7 false; mkTok 2 "{" 1 16 false; mkTok 3 "}" 1 18 false; mkTok 34 "root" 1 20 false; mkTok 35 "packet" 1 25 false; mkTok 42 "repeatCount" 2 4 false; mkTok 2 "{" 2 16 false; mkTok 44 "// 50% %s" 2 18 true; mkTok 9 "@tag(" 3 0 false; mkTok 30 "42" 3 6 false; mkTok 6 ")" 3 9 false; mkTok 9 "@tag(" 3 11 false; mkTok 30 "0" 3 16 false; mkTok 6 ")" 3 18 false; mkTok 5 "@calculatedFrom(" 3 20 false; mkTok 31 """it's""" 4 0 false; mkTok 6 ")" 5 0 false; mkTok 44 "// `tick` ""quote"" 'q'" 5 1 true; mkTok 12 "char[" 6 0 false; mkTok 44 "//x" 7 4 true; mkTok 30 "65535" 8 4 false; mkTok 13 "]" 8 10 false; mkTok 42 "charz" 9 0 false; mkTok 7 "@lengthOf(" 9 6 false; mkTok 42 "falsey" 9 17 false; mkTok 6 ")" 9 24 false; mkTok 43 (string_of_bytes [96; 230; 182; 136; 230; 129; 175; 231; 177; 187; 229; 158; 139; 96]%N) 10 0 false; mkTok 40 "," 10 7 false; mkTok 3 "}" 10 9 false; mkTok 35 "packet" 10 11 false; mkTok 44 (string_of_bytes [47; 47; 9; 116]%N) 10 17 true; mkTok 42 "crc" 11 0 false; mkTok 2 "{" 11 4 false; mkTok 5 "@calculatedFrom(" 11 5 false; mkTok 31 """packet""" 11 22 false; mkTok 6 ")" 12 0 false; mkTok 5 "@calculatedFrom(" 12 2 false; mkTok 31 (string_of_bytes [34; 195; 169; 116; 195; 169; 34]%N) 12 19 false; mkTok 6 ")" 12 24 false; mkTok 7 "@lengthOf(" 12 26 false; mkTok 42 "A" 12 37 false; mkTok 6 ")" 13 0 false; mkTok 38 "match" 13 2 false; mkTok 42 "float" 13 8 false; mkTok 17 "as" 13 14 false; mkTok 42 "chars" 13 17 false; mkTok 2 "{" 14 4 false; mkTok 44 (string_of_bytes [47; 47; 9; 116]%N) 15 4 true; mkTok 18 "[" 16 4 false; mkTok 30 "65535" 16 6 false; mkTok 40 "," 16 12 false; mkTok 31 (string_of_bytes [34; 195; 169; 116; 195; 169; 34]%N) 16 14 false; mkTok 40 "," 17 4 false; mkTok 31 """CRC32""" 17 6 false; mkTok 40 "," 18 0 false; mkTok 30 "0123456789" 18 1 false; mkTok 13 "]" 19 0 false; mkTok 39 ":" 19 2 false; mkTok 42 "u" 19 4 false; mkTok 40 "," 19 6 false; mkTok 3 "}" 20 4 false; mkTok 40 "," 20 6 false; mkTok 14 "zchar[" 20 7 false; mkTok 30 "255" 20 14 false; mkTok 13 "]" 20 18 false; mkTok 42 "chars" 21 0 false; mkTok 5 "@calculatedFrom(" 21 6 false; mkTok 44 "// @lengthOf(" 22 4 true; mkTok 31 (string_of_bytes [34; 230; 182; 136; 230; 129; 175; 34]%N) 23 4 false; mkTok 6 ")" 23 9 false; mkTok 40 "," 23 10 false; mkTok 7 "@lengthOf(" 24 0 false; mkTok 42 "asx" 24 11 false; mkTok 6 ")" 24 15 false; mkTok 32 "@rightPad" 24 16 false; mkTok 8 "(" 24 26 false; mkTok 44 "// 50% %s" 24 28 true; mkTok 33 "'\x00'" 25 0 false; mkTok 6 ")" 26 0 false; mkTok 36 "repeat" 26 2 false; mkTok 42 "lengthOf" 27 0 false; mkTok 43 (string_of_bytes [96; 99; 114; 108; 102; 13; 10; 108; 105; 110; 101; 96]%N) 27 9 false; mkTok 40 "," 28 5 false; mkTok 44 "// `tick` ""quote"" 'q'" 28 6 true; mkTok 36 "repeat" 29 0 false; mkTok 44 "// trailing space " 29 7 true; mkTok 42 "string_" 30 0 false; mkTok 2 "{" 30 8 false; mkTok 38 "match" 30 10 false; mkTok 42 "Z9_" 30 16 false; mkTok 44 (string_of_bytes [47; 47; 9; 116]%N) 31 0 true; mkTok 44 (string_of_bytes [47; 47; 32; 230; 179; 168; 233; 135; 138]%N) 32 0 true; mkTok 17 "as" 33 0 false; mkTok 42 "roots" 34 0 false; mkTok 2 "{" 34 6 false; mkTok 30 "3" 35 0 false; mkTok 39 ":" 35 3 false; mkTok 42 "T" 35 5 false; mkTok 40 "," 35 6 false; mkTok 18 "[" 35 8 false; mkTok 31 """""" 35 10 false; mkTok 40 "," 35 13 false; mkTok 30 "10" 36 0 false; mkTok 40 "," 36 2 false; mkTok 30 "00" 36 5 false; mkTok 13 "]" 36 8 false; mkTok 39 ":" 36 9 false; mkTok 42 "packetx" 36 10 false; mkTok 40 "," 36 18 false; mkTok 3 "}" 36 20 false; mkTok 40 "," 37 0 false; mkTok 3 "}" 37 2 false; mkTok 40 "," 37 4 false; mkTok 24 "i8" 37 6 false; mkTok 42 "Header" 37 9 false; mkTok 7 "@lengthOf(" 37 16 false; mkTok 42 "charz" 38 4 false; mkTok 6 ")" 38 10 false; mkTok 43 "`it's`" 38 13 false; mkTok 40 "," 38 20 false; mkTok 36 "repeat" 38 21 false; mkTok 42 "calculatedFrom" 38 28 false; mkTok 44 "//x" 39 4 true; mkTok 2 "{" 40 4 false; mkTok 44 "// `tick` ""quote"" 'q'" 41 0 true; mkTok 44 "// `tick` ""quote"" 'q'" 42 0 true; mkTok 38 "match" 43 0 false; mkTok 42 "repeatCount" 43 6 false; mkTok 17 "as" 43 18 false; mkTok 42 "len" 44 0 false; mkTok 2 "{" 44 4 false; mkTok 30 "7" 44 6 false; mkTok 39 ":" 44 7 false; mkTok 42 "lengthOf" 44 9 false; mkTok 44 "// trailing space " 44 18 true; mkTok 40 "," 45 0 false; mkTok 18 "[" 45 2 false; mkTok 31 (string_of_bytes [34; 195; 169; 116; 195; 169; 34]%N) 45 5 false; mkTok 13 "]" 45 11 false; mkTok 39 ":" 45 13 false; mkTok 42 "MetaDataX" 45 15 false; mkTok 40 "," 46 4 false; mkTok 31 """abc""" 46 6 false; mkTok 39 ":" 46 11 false; mkTok 42 "Packet" 46 13 false; mkTok 44 "// c" 47 0 true; mkTok 44 "// `tick` ""quote"" 'q'" 48 0 true; mkTok 40 "," 49 0 false; mkTok 30 "65535" 50 0 false; mkTok 39 ":" 50 6 false; mkTok 42 "i64_" 50 8 false; mkTok 40 "," 50 13 false; mkTok 30 "007" 51 4 false; mkTok 39 ":" 51 8 false; mkTok 42 "Packet" 51 10 false; mkTok 3 "}" 51 17 false; mkTok 40 "," 51 18 false; mkTok 42 "stringy" 51 21 false; mkTok 42 "o" 51 29 false; mkTok 43 (string_of_bytes [96; 10; 96]%N) 51 32 false; mkTok 44 "//" 52 1 true; mkTok 40 "," 53 0 false; mkTok 14 "zchar[" 53 1 false; mkTok 44 "/// triple" 53 8 true; mkTok 30 "7" 54 0 false; mkTok 13 "]" 55 4 false; mkTok 42 "u" 56 4 false; mkTok 44 "// packet A { u8 x, }" 57 0 true; mkTok 44 "// `tick` ""quote"" 'q'" 58 0 true; mkTok 40 "," 59 0 false; mkTok 3 "}" 59 2 false; mkTok 40 "," 59 3 false; mkTok 7 "@lengthOf(" 59 5 false; mkTok 42 "lengthOf" 59 15 false; mkTok 6 ")" 60 4 false; mkTok 38 "match" 61 0 false; mkTok 42 "f32a" 61 6 false; mkTok 17 "as" 61 11 false; mkTok 42 "Z9_" 61 15 false; mkTok 2 "{" 61 19 false; mkTok 31 """1""" 61 21 false; mkTok 39 ":" 61 25 false; mkTok 42 "o" 61 27 false; mkTok 40 "," 61 30 false; mkTok 3 "}" 61 31 false; mkTok 40 "," 61 33 false; mkTok 3 "}" 61 35 false; mkTok 35 "packet" 62 0 false; mkTok 42 "body" 62 7 false; mkTok 2 "{" 62 12 false; mkTok 3 "}" 62 14 false; mkTok 44 "//x" 62 16 true; mkTok 34 "root" 63 0 false; mkTok 35 "packet" 63 5 false; mkTok 42 "Z9_" 64 4 false; mkTok 2 "{" 65 4 false; mkTok 38 "match" 66 0 false; mkTok 42 "packetx" 66 6 false; mkTok 17 "as" 66 14 false; mkTok 42 "f32a" 66 17 false; mkTok 2 "{" 66 22 false; mkTok 30 "0" 66 24 false; mkTok 44 "// a // b" 66 26 true; mkTok 39 ":" 67 0 false; mkTok 42 "metadata" 67 2 false; mkTok 40 "," 67 11 false; mkTok 3 "}" 67 13 false; mkTok 40 "," 68 4 false; mkTok 16 "char[]" 68 6 false; mkTok 42 "leftPad" 68 13 false; mkTok 43 "``" 69 4 false; mkTok 44 "// @lengthOf(" 70 4 true; mkTok 40 "," 71 4 false; mkTok 36 "repeat" 71 5 false; mkTok 20 "uint8" 72 4 false; mkTok 42 "x_y_z" 72 10 false; mkTok 43 "`100% of %d`" 72 15 false; mkTok 40 "," 72 29 false; mkTok 15 "string" 73 0 false; mkTok 42 "BodyLength" 73 7 false; mkTok 5 "@calculatedFrom(" 73 17 false; mkTok 31 (string_of_bytes [34; 240; 159; 152; 128; 34]%N) 74 0 false; mkTok 6 ")" 74 3 false; mkTok 40 "," 74 5 false; mkTok 42 "Pad" 74 7 false; mkTok 40 "," 74 11 false; mkTok 9 "@tag(" 74 13 false; mkTok 30 "255" 75 4 false; mkTok 6 ")" 75 8 false; mkTok 7 "@lengthOf(" 76 4 false; mkTok 44 "// @lengthOf(" 77 0 true; mkTok 44 "// packet A { u8 x, }" 78 0 true; mkTok 42 "roots" 79 0 false; mkTok 6 ")" 79 6 false; mkTok 5 "@calculatedFrom(" 79 8 false; mkTok 31 (string_of_bytes [34; 240; 159; 152; 128; 34]%N) 79 26 false; mkTok 6 ")" 80 0 false; mkTok 36 "repeat" 81 4 false; mkTok 42 "crc" 81 11 false; mkTok 2 "{" 81 15 false; mkTok 36 "repeat" 81 17 false; mkTok 19 "char" 81 24 false; mkTok 44 (string_of_bytes [47; 47; 9; 116]%N) 81 29 true; mkTok 42 "trueish" 82 0 false; mkTok 40 "," 83 4 false; mkTok 3 "}" 83 6 false; mkTok 40 "," 83 8 false; mkTok 14 "zchar[" 84 4 false; mkTok 30 "4294967296" 85 4 false; mkTok 13 "]" 85 15 false; mkTok 42 "options1" 85 16 false; mkTok 5 "@calculatedFrom(" 86 0 false; mkTok 31 """CRC32""" 86 16 false; mkTok 6 ")" 86 24 false; mkTok 40 "," 86 26 false; mkTok 44 "// 50% %s" 86 28 true; mkTok 38 "match" 87 0 false; mkTok 42 "packetx" 87 6 false; mkTok 17 "as" 87 14 false; mkTok 42 "lengthOf" 87 17 false; mkTok 2 "{" 87 26 false; mkTok 31 """a\""b""" 87 28 false; mkTok 39 ":" 87 36 false; mkTok 42 "options1" 87 38 false; mkTok 40 "," 87 47 false; mkTok 44 "// trailing space " 88 0 true; mkTok 44 (string_of_bytes [47; 47; 32; 240; 159; 152; 128; 32; 101; 109; 111; 106; 105]%N) 89 0 true; mkTok 30 "0123456789" 90 0 false; mkTok 39 ":" 91 0 false; mkTok 42 "Foo" 91 2 false; mkTok 40 "," 92 0 false; mkTok 31 """a\\""" 92 3 false; mkTok 39 ":" 92 8 false; mkTok 42 "trueish" 92 10 false; mkTok 40 "," 92 18 false; mkTok 30 "3" 92 20 false; mkTok 39 ":" 93 4 false; mkTok 42 "string_" 94 4 false; mkTok 40 "," 94 12 false; mkTok 31 """\n""" 94 14 false; mkTok 39 ":" 94 19 false; mkTok 44 "/// triple" 95 4 true; mkTok 42 "zchar" 96 4 false; mkTok 40 "," 96 10 false; mkTok 18 "[" 96 12 false; mkTok 30 "65535" 96 14 false; mkTok 13 "]" 96 20 false; mkTok 39 ":" 97 0 false; mkTok 42 "u128" 97 2 false; mkTok 3 "}" 98 0 false; mkTok 40 "," 98 2 false; mkTok 9 "@tag(" 98 3 false; mkTok 30 "42" 98 9 false; mkTok 6 ")" 98 12 false; mkTok 32 "@leftPad" 98 14 false; mkTok 8 "(" 98 23 false; mkTok 33 "'\x00'" 98 25 false; mkTok 6 ")" 98 32 false; mkTok 25 "i16" 98 34 false; mkTok 42 "crc" 98 38 false; mkTok 40 "," 98 42 false; mkTok 14 "zchar[" 99 4 false; mkTok 30 "7" 99 10 false; mkTok 13 "]" 99 11 false; mkTok 42 "_x" 99 13 false; mkTok 7 "@lengthOf(" 99 17 false; mkTok 42 "falsey" 99 27 false; mkTok 6 ")" 99 35 false; mkTok 40 "," 100 0 false; mkTok 3 "}" 101 0 false; mkTok 0 "<EOF>" 102 0 false] (mkPacket (mkPtok 35 "packet" 1 0 0) (Some (mkPtok 3 "}" 101 0 310)) [(DPacket (mkPacketDef (mkSpan (mkPtok 35 "packet" 1 0 0) (mkPtok 3 "}" 1 18 3)) None (mkPtok 35 "packet" 1 0 0) (mkPtok 42 "lengthOf" 1 7 1) (mkPtok 2 "{" 1 16 2) [] (mkPtok 3 "}" 1 18 3))); (DPacket (mkPacketDef (mkSpan (mkPtok 34 "root" 1 20 4) (mkPtok 3 "}" 10 9 29)) (Some (mkPtok 34 "root" 1 20 4)) (mkPtok 35 "packet" 1 25 5) (mkPtok 42 "repeatCount" 2 4 6) (mkPtok 2 "{" 2 16 7) [(mkFieldWithAttr (mkSpan (mkPtok 9 "@tag(" 3 0 9) (mkPtok 40 "," 10 7 28)) [(FATag (mkSpan (mkPtok 9 "@tag(" 3 0 9) (mkPtok 6 ")" 3 9 11)) (mkTagAttr (mkSpan (mkPtok 9 "@tag(" 3 0 9) (mkPtok 6 ")" 3 9 11)) (mkPtok 9 "@tag(" 3 0 9) (mkPtok 30 "42" 3 6 10) (mkPtok 6 ")" 3 9 11))); (FATag (mkSpan (mkPtok 9 "@tag(" 3 11 12) (mkPtok 6 ")" 3 18 14)) (mkTagAttr (mkSpan (mkPtok 9 "@tag(" 3 11 12) (mkPtok 6 ")" 3 18 14)) (mkPtok 9 "@tag(" 3 11 12) (mkPtok 30 "0" 3 16 13) (mkPtok 6 ")" 3 18 14))); (FACalculatedFrom (mkSpan (mkPtok 5 "@calculatedFrom(" 3 20 15) (mkPtok 6 ")" 5 0 17)) (mkCalculatedFrom (mkSpan (mkPtok 5 "@calculatedFrom(" 3 20 15) (mkPtok 6 ")" 5 0 17)) (mkPtok 5 "@calculatedFrom(" 3 20 15) (mkPtok 31 """it's""" 4 0 16) (mkPtok 6 ")" 5 0 17)))] (LengthField (mkSpan (mkPtok 12 "char[" 6 0 19) (mkPtok 40 "," 10 7 28)) (mkLengthFieldDecl (mkSpan (mkPtok 12 "char[" 6 0 19) (mkPtok 40 "," 10 7 28)) (Some (TyFixed (mkSpan (mkPtok 12 "char[" 6 0 19) (mkPtok 13 "]" 8 10 22)) (mkFixedString (mkSpan (mkPtok 12 "char[" 6 0 19) (mkPtok 13 "]" 8 10 22)) (mkPtok 12 "char[" 6 0 19) (mkPtok 30 "65535" 8 4 21) (mkPtok 13 "]" 8 10 22)))) (mkPtok 42 "charz" 9 0 23) (mkLengthOf (mkSpan (mkPtok 7 "@lengthOf(" 9 6 24) (mkPtok 6 ")" 9 24 26)) (mkPtok 7 "@lengthOf(" 9 6 24) (mkPtok 42 "falsey" 9 17 25) (mkPtok 6 ")" 9 24 26)) (Some (mkPtok 43 (string_of_bytes [96; 230; 182; 136; 230; 129; 175; 231; 177; 187; 229; 158; 139; 96]%N) 10 0 27)) (mkPtok 40 "," 10 7 28))))] (mkPtok 3 "}" 10 9 29))); (DPacket (mkPacketDef (mkSpan (mkPtok 35 "packet" 10 11 30) (mkPtok 3 "}" 61 35 187)) None (mkPtok 35 "packet" 10 11 30) (mkPtok 42 "crc" 11 0 32) (mkPtok 2 "{" 11 4 33) [(mkFieldWithAttr (mkSpan (mkPtok 5 "@calculatedFrom(" 11 5 34) (mkPtok 40 "," 20 6 62)) [(FACalculatedFrom (mkSpan (mkPtok 5 "@calculatedFrom(" 11 5 34) (mkPtok 6 ")" 12 0 36)) (mkCalculatedFrom (mkSpan (mkPtok 5 "@calculatedFrom(" 11 5 34) (mkPtok 6 ")" 12 0 36)) (mkPtok 5 "@calculatedFrom(" 11 5 34) (mkPtok 31 """packet""" 11 22 35) (mkPtok 6 ")" 12 0 36))); (FACalculatedFrom (mkSpan (mkPtok 5 "@calculatedFrom(" 12 2 37) (mkPtok 6 ")" 12 24 39)) (mkCalculatedFrom (mkSpan (mkPtok 5 "@calculatedFrom(" 12 2 37) (mkPtok 6 ")" 12 24 39)) (mkPtok 5 "@calculatedFrom(" 12 2 37) (mkPtok 31 (string_of_bytes [34; 195; 169; 116; 195; 169; 34]%N) 12 19 38) (mkPtok 6 ")" 12 24 39))); (FALengthOf (mkSpan (mkPtok 7 "@lengthOf(" 12 26 40) (mkPtok 6 ")" 13 0 42)) (mkLengthOf (mkSpan (mkPtok 7 "@lengthOf(" 12 26 40) (mkPtok 6 ")" 13 0 42)) (mkPtok 7 "@lengthOf(" 12 26 40) (mkPtok 42 "A" 12 37 41) (mkPtok 6 ")" 13 0 42)))] (MatchField (mkSpan (mkPtok 38 "match" 13 2 43) (mkPtok 40 "," 20 6 62)) (mkMatchFieldDecl (mkSpan (mkPtok 38 "match" 13 2 43) (mkPtok 3 "}" 20 4 61)) (mkPtok 38 "match" 13 2 43) (mkPtok 42 "float" 13 8 44) (mkPtok 17 "as" 13 14 45) (mkPtok 42 "chars" 13 17 46) (mkPtok 2 "{" 14 4 47) [(mkMatchPair (mkSpan (mkPtok 18 "[" 16 4 49) (mkPtok 40 "," 19 6 60)) (MKList (mkKeyList (mkSpan (mkPtok 18 "[" 16 4 49) (mkPtok 13 "]" 19 0 57)) (mkPtok 18 "[" 16 4 49) (mkPtok 30 "65535" 16 6 50) [((mkPtok 40 "," 16 12 51), (mkPtok 31 (string_of_bytes [34; 195; 169; 116; 195; 169; 34]%N) 16 14 52)); ((mkPtok 40 "," 17 4 53), (mkPtok 31 """CRC32""" 17 6 54)); ((mkPtok 40 "," 18 0 55), (mkPtok 30 "0123456789" 18 1 56))] (mkPtok 13 "]" 19 0 57))) (mkPtok 39 ":" 19 2 58) (mkPtok 42 "u" 19 4 59) (Some (mkPtok 40 "," 19 6 60)))] (mkPtok 3 "}" 20 4 61)) (mkPtok 40 "," 20 6 62))); (mkFieldWithAttr (mkSpan (mkPtok 14 "zchar[" 20 7 63) (mkPtok 40 "," 23 10 71)) [] (CheckSumField (mkSpan (mkPtok 14 "zchar[" 20 7 63) (mkPtok 40 "," 23 10 71)) (mkChecksumFieldDecl (mkSpan (mkPtok 14 "zchar[" 20 7 63) (mkPtok 40 "," 23 10 71)) (Some (TyFixed (mkSpan (mkPtok 14 "zchar[" 20 7 63) (mkPtok 13 "]" 20 18 65)) (mkFixedString (mkSpan (mkPtok 14 "zchar[" 20 7 63) (mkPtok 13 "]" 20 18 65)) (mkPtok 14 "zchar[" 20 7 63) (mkPtok 30 "255" 20 14 64) (mkPtok 13 "]" 20 18 65)))) (mkPtok 42 "chars" 21 0 66) (mkCalculatedFrom (mkSpan (mkPtok 5 "@calculatedFrom(" 21 6 67) (mkPtok 6 ")" 23 9 70)) (mkPtok 5 "@calculatedFrom(" 21 6 67) (mkPtok 31 (string_of_bytes [34; 230; 182; 136; 230; 129; 175; 34]%N) 23 4 69) (mkPtok 6 ")" 23 9 70)) None (mkPtok 40 "," 23 10 71)))); (mkFieldWithAttr (mkSpan (mkPtok 7 "@lengthOf(" 24 0 72) (mkPtok 40 "," 28 5 83)) [(FALengthOf (mkSpan (mkPtok 7 "@lengthOf(" 24 0 72) (mkPtok 6 ")" 24 15 74)) (mkLengthOf (mkSpan (mkPtok 7 "@lengthOf(" 24 0 72) (mkPtok 6 ")" 24 15 74)) (mkPtok 7 "@lengthOf(" 24 0 72) (mkPtok 42 "asx" 24 11 73) (mkPtok 6 ")" 24 15 74))); (FAPadding (mkSpan (mkPtok 32 "@rightPad" 24 16 75) (mkPtok 6 ")" 26 0 79)) (mkPaddingAttr (mkSpan (mkPtok 32 "@rightPad" 24 16 75) (mkPtok 6 ")" 26 0 79)) (mkPtok 32 "@rightPad" 24 16 75) (mkPtok 8 "(" 24 26 76) (Some (mkPtok 33 "'\x00'" 25 0 78)) (mkPtok 6 ")" 26 0 79)))] (ObjectField (mkSpan (mkPtok 36 "repeat" 26 2 80) (mkPtok 40 "," 28 5 83)) (Some (mkPtok 36 "repeat" 26 2 80)) (mkPtok 42 "lengthOf" 27 0 81) None (Some (mkPtok 43 (string_of_bytes [96; 99; 114; 108; 102; 13; 10; 108; 105; 110; 101; 96]%N) 27 9 82)) (mkPtok 40 "," 28 5 83))); (mkFieldWithAttr (mkSpan (mkPtok 36 "repeat" 29 0 85) (mkPtok 40 "," 37 4 113)) [] (InerObjectField (mkSpan (mkPtok 36 "repeat" 29 0 85) (mkPtok 40 "," 37 4 113)) (Some (mkPtok 36 "repeat" 29 0 85)) (InerObjectDecl (mkSpan (mkPtok 42 "string_" 30 0 87) (mkPtok 3 "}" 37 2 112)) (mkPtok 42 "string_" 30 0 87) (mkPtok 2 "{" 30 8 88) [(MatchField (mkSpan (mkPtok 38 "match" 30 10 89) (mkPtok 40 "," 37 0 111)) (mkMatchFieldDecl (mkSpan (mkPtok 38 "match" 30 10 89) (mkPtok 3 "}" 36 20 110)) (mkPtok 38 "match" 30 10 89) (mkPtok 42 "Z9_" 30 16 90) (mkPtok 17 "as" 33 0 93) (mkPtok 42 "roots" 34 0 94) (mkPtok 2 "{" 34 6 95) [(mkMatchPair (mkSpan (mkPtok 30 "3" 35 0 96) (mkPtok 40 "," 35 6 99)) (MKDigits (mkPtok 30 "3" 35 0 96)) (mkPtok 39 ":" 35 3 97) (mkPtok 42 "T" 35 5 98) (Some (mkPtok 40 "," 35 6 99))); (mkMatchPair (mkSpan (mkPtok 18 "[" 35 8 100) (mkPtok 40 "," 36 18 109)) (MKList (mkKeyList (mkSpan (mkPtok 18 "[" 35 8 100) (mkPtok 13 "]" 36 8 106)) (mkPtok 18 "[" 35 8 100) (mkPtok 31 """""" 35 10 101) [((mkPtok 40 "," 35 13 102), (mkPtok 30 "10" 36 0 103)); ((mkPtok 40 "," 36 2 104), (mkPtok 30 "00" 36 5 105))] (mkPtok 13 "]" 36 8 106))) (mkPtok 39 ":" 36 9 107) (mkPtok 42 "packetx" 36 10 108) (Some (mkPtok 40 "," 36 18 109)))] (mkPtok 3 "}" 36 20 110)) (mkPtok 40 "," 37 0 111))] (mkPtok 3 "}" 37 2 112)) (mkPtok 40 "," 37 4 113))); (mkFieldWithAttr (mkSpan (mkPtok 24 "i8" 37 6 114) (mkPtok 40 "," 38 20 120)) [] (LengthField (mkSpan (mkPtok 24 "i8" 37 6 114) (mkPtok 40 "," 38 20 120)) (mkLengthFieldDecl (mkSpan (mkPtok 24 "i8" 37 6 114) (mkPtok 40 "," 38 20 120)) (Some (TyBasic (mkSpan (mkPtok 24 "i8" 37 6 114) (mkPtok 24 "i8" 37 6 114)) (mkBasicType (mkSpan (mkPtok 24 "i8" 37 6 114) (mkPtok 24 "i8" 37 6 114)) (mkPtok 24 "i8" 37 6 114)))) (mkPtok 42 "Header" 37 9 115) (mkLengthOf (mkSpan (mkPtok 7 "@lengthOf(" 37 16 116) (mkPtok 6 ")" 38 10 118)) (mkPtok 7 "@lengthOf(" 37 16 116) (mkPtok 42 "charz" 38 4 117) (mkPtok 6 ")" 38 10 118)) (Some (mkPtok 43 "`it's`" 38 13 119)) (mkPtok 40 "," 38 20 120)))); (mkFieldWithAttr (mkSpan (mkPtok 36 "repeat" 38 21 121) (mkPtok 40 "," 59 3 172)) [] (InerObjectField (mkSpan (mkPtok 36 "repeat" 38 21 121) (mkPtok 40 "," 59 3 172)) (Some (mkPtok 36 "repeat" 38 21 121)) (InerObjectDecl (mkSpan (mkPtok 42 "calculatedFrom" 38 28 122) (mkPtok 3 "}" 59 2 171)) (mkPtok 42 "calculatedFrom" 38 28 122) (mkPtok 2 "{" 40 4 124) [(MatchField (mkSpan (mkPtok 38 "match" 43 0 127) (mkPtok 40 "," 51 18 157)) (mkMatchFieldDecl (mkSpan (mkPtok 38 "match" 43 0 127) (mkPtok 3 "}" 51 17 156)) (mkPtok 38 "match" 43 0 127) (mkPtok 42 "repeatCount" 43 6 128) (mkPtok 17 "as" 43 18 129) (mkPtok 42 "len" 44 0 130) (mkPtok 2 "{" 44 4 131) [(mkMatchPair (mkSpan (mkPtok 30 "7" 44 6 132) (mkPtok 40 "," 45 0 136)) (MKDigits (mkPtok 30 "7" 44 6 132)) (mkPtok 39 ":" 44 7 133) (mkPtok 42 "lengthOf" 44 9 134) (Some (mkPtok 40 "," 45 0 136))); (mkMatchPair (mkSpan (mkPtok 18 "[" 45 2 137) (mkPtok 40 "," 46 4 142)) (MKList (mkKeyList (mkSpan (mkPtok 18 "[" 45 2 137) (mkPtok 13 "]" 45 11 139)) (mkPtok 18 "[" 45 2 137) (mkPtok 31 (string_of_bytes [34; 195; 169; 116; 195; 169; 34]%N) 45 5 138) [] (mkPtok 13 "]" 45 11 139))) (mkPtok 39 ":" 45 13 140) (mkPtok 42 "MetaDataX" 45 15 141) (Some (mkPtok 40 "," 46 4 142))); (mkMatchPair (mkSpan (mkPtok 31 """abc""" 46 6 143) (mkPtok 40 "," 49 0 148)) (MKString (mkPtok 31 """abc""" 46 6 143)) (mkPtok 39 ":" 46 11 144) (mkPtok 42 "Packet" 46 13 145) (Some (mkPtok 40 "," 49 0 148))); (mkMatchPair (mkSpan (mkPtok 30 "65535" 50 0 149) (mkPtok 40 "," 50 13 152)) (MKDigits (mkPtok 30 "65535" 50 0 149)) (mkPtok 39 ":" 50 6 150) (mkPtok 42 "i64_" 50 8 151) (Some (mkPtok 40 "," 50 13 152))); (mkMatchPair (mkSpan (mkPtok 30 "007" 51 4 153) (mkPtok 42 "Packet" 51 10 155)) (MKDigits (mkPtok 30 "007" 51 4 153)) (mkPtok 39 ":" 51 8 154) (mkPtok 42 "Packet" 51 10 155) None)] (mkPtok 3 "}" 51 17 156)) (mkPtok 40 "," 51 18 157)); (ObjectField (mkSpan (mkPtok 42 "stringy" 51 21 158) (mkPtok 40 "," 53 0 162)) None (mkPtok 42 "stringy" 51 21 158) (Some (mkPtok 42 "o" 51 29 159)) (Some (mkPtok 43 (string_of_bytes [96; 10; 96]%N) 51 32 160)) (mkPtok 40 "," 53 0 162)); (MetaField (mkSpan (mkPtok 14 "zchar[" 53 1 163) (mkPtok 40 "," 59 0 170)) None (mkMetaDecl (mkSpan (mkPtok 14 "zchar[" 53 1 163) (mkPtok 40 "," 59 0 170)) (TyFixed (mkSpan (mkPtok 14 "zchar[" 53 1 163) (mkPtok 13 "]" 55 4 166)) (mkFixedString (mkSpan (mkPtok 14 "zchar[" 53 1 163) (mkPtok 13 "]" 55 4 166)) (mkPtok 14 "zchar[" 53 1 163) (mkPtok 30 "7" 54 0 165) (mkPtok 13 "]" 55 4 166))) (mkPtok 42 "u" 56 4 167) None (mkPtok 40 "," 59 0 170)))] (mkPtok 3 "}" 59 2 171)) (mkPtok 40 "," 59 3 172))); (mkFieldWithAttr (mkSpan (mkPtok 7 "@lengthOf(" 59 5 173) (mkPtok 40 "," 61 33 186)) [(FALengthOf (mkSpan (mkPtok 7 "@lengthOf(" 59 5 173) (mkPtok 6 ")" 60 4 175)) (mkLengthOf (mkSpan (mkPtok 7 "@lengthOf(" 59 5 173) (mkPtok 6 ")" 60 4 175)) (mkPtok 7 "@lengthOf(" 59 5 173) (mkPtok 42 "lengthOf" 59 15 174) (mkPtok 6 ")" 60 4 175)))] (MatchField (mkSpan (mkPtok 38 "match" 61 0 176) (mkPtok 40 "," 61 33 186)) (mkMatchFieldDecl (mkSpan (mkPtok 38 "match" 61 0 176) (mkPtok 3 "}" 61 31 185)) (mkPtok 38 "match" 61 0 176) (mkPtok 42 "f32a" 61 6 177) (mkPtok 17 "as" 61 11 178) (mkPtok 42 "Z9_" 61 15 179) (mkPtok 2 "{" 61 19 180) [(mkMatchPair (mkSpan (mkPtok 31 """1""" 61 21 181) (mkPtok 40 "," 61 30 184)) (MKString (mkPtok 31 """1""" 61 21 181)) (mkPtok 39 ":" 61 25 182) (mkPtok 42 "o" 61 27 183) (Some (mkPtok 40 "," 61 30 184)))] (mkPtok 3 "}" 61 31 185)) (mkPtok 40 "," 61 33 186)))] (mkPtok 3 "}" 61 35 187))); (DPacket (mkPacketDef (mkSpan (mkPtok 35 "packet" 62 0 188) (mkPtok 3 "}" 62 14 191)) None (mkPtok 35 "packet" 62 0 188) (mkPtok 42 "body" 62 7 189) (mkPtok 2 "{" 62 12 190) [] (mkPtok 3 "}" 62 14 191))); (DPacket (mkPacketDef (mkSpan (mkPtok 34 "root" 63 0 193) (mkPtok 3 "}" 101 0 310)) (Some (mkPtok 34 "root" 63 0 193)) (mkPtok 35 "packet" 63 5 194) (mkPtok 42 "Z9_" 64 4 195) (mkPtok 2 "{" 65 4 196) [(mkFieldWithAttr (mkSpan (mkPtok 38 "match" 66 0 197) (mkPtok 40 "," 68 4 208)) [] (MatchField (mkSpan (mkPtok 38 "match" 66 0 197) (mkPtok 40 "," 68 4 208)) (mkMatchFieldDecl (mkSpan (mkPtok 38 "match" 66 0 197) (mkPtok 3 "}" 67 13 207)) (mkPtok 38 "match" 66 0 197) (mkPtok 42 "packetx" 66 6 198) (mkPtok 17 "as" 66 14 199) (mkPtok 42 "f32a" 66 17 200) (mkPtok 2 "{" 66 22 201) [(mkMatchPair (mkSpan (mkPtok 30 "0" 66 24 202) (mkPtok 40 "," 67 11 206)) (MKDigits (mkPtok 30 "0" 66 24 202)) (mkPtok 39 ":" 67 0 204) (mkPtok 42 "metadata" 67 2 205) (Some (mkPtok 40 "," 67 11 206)))] (mkPtok 3 "}" 67 13 207)) (mkPtok 40 "," 68 4 208))); (mkFieldWithAttr (mkSpan (mkPtok 16 "char[]" 68 6 209) (mkPtok 40 "," 71 4 213)) [] (MetaField (mkSpan (mkPtok 16 "char[]" 68 6 209) (mkPtok 40 "," 71 4 213)) None (mkMetaDecl (mkSpan (mkPtok 16 "char[]" 68 6 209) (mkPtok 40 "," 71 4 213)) (TyDynamic (mkSpan (mkPtok 16 "char[]" 68 6 209) (mkPtok 16 "char[]" 68 6 209)) (mkDynamicString (mkSpan (mkPtok 16 "char[]" 68 6 209) (mkPtok 16 "char[]" 68 6 209)) (mkPtok 16 "char[]" 68 6 209))) (mkPtok 42 "leftPad" 68 13 210) (Some (mkPtok 43 "``" 69 4 211)) (mkPtok 40 "," 71 4 213)))); (mkFieldWithAttr (mkSpan (mkPtok 36 "repeat" 71 5 214) (mkPtok 40 "," 72 29 218)) [] (MetaField (mkSpan (mkPtok 36 "repeat" 71 5 214) (mkPtok 40 "," 72 29 218)) (Some (mkPtok 36 "repeat" 71 5 214)) (mkMetaDecl (mkSpan (mkPtok 20 "uint8" 72 4 215) (mkPtok 40 "," 72 29 218)) (TyBasic (mkSpan (mkPtok 20 "uint8" 72 4 215) (mkPtok 20 "uint8" 72 4 215)) (mkBasicType (mkSpan (mkPtok 20 "uint8" 72 4 215) (mkPtok 20 "uint8" 72 4 215)) (mkPtok 20 "uint8" 72 4 215))) (mkPtok 42 "x_y_z" 72 10 216) (Some (mkPtok 43 "`100% of %d`" 72 15 217)) (mkPtok 40 "," 72 29 218)))); (mkFieldWithAttr (mkSpan (mkPtok 15 "string" 73 0 219) (mkPtok 40 "," 74 5 224)) [] (CheckSumField (mkSpan (mkPtok 15 "string" 73 0 219) (mkPtok 40 "," 74 5 224)) (mkChecksumFieldDecl (mkSpan (mkPtok 15 "string" 73 0 219) (mkPtok 40 "," 74 5 224)) (Some (TyDynamic (mkSpan (mkPtok 15 "string" 73 0 219) (mkPtok 15 "string" 73 0 219)) (mkDynamicString (mkSpan (mkPtok 15 "string" 73 0 219) (mkPtok 15 "string" 73 0 219)) (mkPtok 15 "string" 73 0 219)))) (mkPtok 42 "BodyLength" 73 7 220) (mkCalculatedFrom (mkSpan (mkPtok 5 "@calculatedFrom(" 73 17 221) (mkPtok 6 ")" 74 3 223)) (mkPtok 5 "@calculatedFrom(" 73 17 221) (mkPtok 31 (string_of_bytes [34; 240; 159; 152; 128; 34]%N) 74 0 222) (mkPtok 6 ")" 74 3 223)) None (mkPtok 40 "," 74 5 224)))); (mkFieldWithAttr (mkSpan (mkPtok 42 "Pad" 74 7 225) (mkPtok 40 "," 74 11 226)) [] (ObjectField (mkSpan (mkPtok 42 "Pad" 74 7 225) (mkPtok 40 "," 74 11 226)) None (mkPtok 42 "Pad" 74 7 225) None None (mkPtok 40 "," 74 11 226))); (mkFieldWithAttr (mkSpan (mkPtok 9 "@tag(" 74 13 227) (mkPtok 40 "," 83 8 247)) [(FATag (mkSpan (mkPtok 9 "@tag(" 74 13 227) (mkPtok 6 ")" 75 8 229)) (mkTagAttr (mkSpan (mkPtok 9 "@tag(" 74 13 227) (mkPtok 6 ")" 75 8 229)) (mkPtok 9 "@tag(" 74 13 227) (mkPtok 30 "255" 75 4 228) (mkPtok 6 ")" 75 8 229))); (FALengthOf (mkSpan (mkPtok 7 "@lengthOf(" 76 4 230) (mkPtok 6 ")" 79 6 234)) (mkLengthOf (mkSpan (mkPtok 7 "@lengthOf(" 76 4 230) (mkPtok 6 ")" 79 6 234)) (mkPtok 7 "@lengthOf(" 76 4 230) (mkPtok 42 "roots" 79 0 233) (mkPtok 6 ")" 79 6 234))); (FACalculatedFrom (mkSpan (mkPtok 5 "@calculatedFrom(" 79 8 235) (mkPtok 6 ")" 80 0 237)) (mkCalculatedFrom (mkSpan (mkPtok 5 "@calculatedFrom(" 79 8 235) (mkPtok 6 ")" 80 0 237)) (mkPtok 5 "@calculatedFrom(" 79 8 235) (mkPtok 31 (string_of_bytes [34; 240; 159; 152; 128; 34]%N) 79 26 236) (mkPtok 6 ")" 80 0 237)))] (InerObjectField (mkSpan (mkPtok 36 "repeat" 81 4 238) (mkPtok 40 "," 83 8 247)) (Some (mkPtok 36 "repeat" 81 4 238)) (InerObjectDecl (mkSpan (mkPtok 42 "crc" 81 11 239) (mkPtok 3 "}" 83 6 246)) (mkPtok 42 "crc" 81 11 239) (mkPtok 2 "{" 81 15 240) [(MetaField (mkSpan (mkPtok 36 "repeat" 81 17 241) (mkPtok 40 "," 83 4 245)) (Some (mkPtok 36 "repeat" 81 17 241)) (mkMetaDecl (mkSpan (mkPtok 19 "char" 81 24 242) (mkPtok 40 "," 83 4 245)) (TyBasic (mkSpan (mkPtok 19 "char" 81 24 242) (mkPtok 19 "char" 81 24 242)) (mkBasicType (mkSpan (mkPtok 19 "char" 81 24 242) (mkPtok 19 "char" 81 24 242)) (mkPtok 19 "char" 81 24 242))) (mkPtok 42 "trueish" 82 0 244) None (mkPtok 40 "," 83 4 245)))] (mkPtok 3 "}" 83 6 246)) (mkPtok 40 "," 83 8 247))); (mkFieldWithAttr (mkSpan (mkPtok 14 "zchar[" 84 4 248) (mkPtok 40 "," 86 26 255)) [] (CheckSumField (mkSpan (mkPtok 14 "zchar[" 84 4 248) (mkPtok 40 "," 86 26 255)) (mkChecksumFieldDecl (mkSpan (mkPtok 14 "zchar[" 84 4 248) (mkPtok 40 "," 86 26 255)) (Some (TyFixed (mkSpan (mkPtok 14 "zchar[" 84 4 248) (mkPtok 13 "]" 85 15 250)) (mkFixedString (mkSpan (mkPtok 14 "zchar[" 84 4 248) (mkPtok 13 "]" 85 15 250)) (mkPtok 14 "zchar[" 84 4 248) (mkPtok 30 "4294967296" 85 4 249) (mkPtok 13 "]" 85 15 250)))) (mkPtok 42 "options1" 85 16 251) (mkCalculatedFrom (mkSpan (mkPtok 5 "@calculatedFrom(" 86 0 252) (mkPtok 6 ")" 86 24 254)) (mkPtok 5 "@calculatedFrom(" 86 0 252) (mkPtok 31 """CRC32""" 86 16 253) (mkPtok 6 ")" 86 24 254)) None (mkPtok 40 "," 86 26 255)))); (mkFieldWithAttr (mkSpan (mkPtok 38 "match" 87 0 257) (mkPtok 40 "," 98 2 291)) [] (MatchField (mkSpan (mkPtok 38 "match" 87 0 257) (mkPtok 40 "," 98 2 291)) (mkMatchFieldDecl (mkSpan (mkPtok 38 "match" 87 0 257) (mkPtok 3 "}" 98 0 290)) (mkPtok 38 "match" 87 0 257) (mkPtok 42 "packetx" 87 6 258) (mkPtok 17 "as" 87 14 259) (mkPtok 42 "lengthOf" 87 17 260) (mkPtok 2 "{" 87 26 261) [(mkMatchPair (mkSpan (mkPtok 31 """a\""b""" 87 28 262) (mkPtok 40 "," 87 47 265)) (MKString (mkPtok 31 """a\""b""" 87 28 262)) (mkPtok 39 ":" 87 36 263) (mkPtok 42 "options1" 87 38 264) (Some (mkPtok 40 "," 87 47 265))); (mkMatchPair (mkSpan (mkPtok 30 "0123456789" 90 0 268) (mkPtok 40 "," 92 0 271)) (MKDigits (mkPtok 30 "0123456789" 90 0 268)) (mkPtok 39 ":" 91 0 269) (mkPtok 42 "Foo" 91 2 270) (Some (mkPtok 40 "," 92 0 271))); (mkMatchPair (mkSpan (mkPtok 31 """a\\""" 92 3 272) (mkPtok 40 "," 92 18 275)) (MKString (mkPtok 31 """a\\""" 92 3 272)) (mkPtok 39 ":" 92 8 273) (mkPtok 42 "trueish" 92 10 274) (Some (mkPtok 40 "," 92 18 275))); (mkMatchPair (mkSpan (mkPtok 30 "3" 92 20 276) (mkPtok 40 "," 94 12 279)) (MKDigits (mkPtok 30 "3" 92 20 276)) (mkPtok 39 ":" 93 4 277) (mkPtok 42 "string_" 94 4 278) (Some (mkPtok 40 "," 94 12 279))); (mkMatchPair (mkSpan (mkPtok 31 """\n""" 94 14 280) (mkPtok 40 "," 96 10 284)) (MKString (mkPtok 31 """\n""" 94 14 280)) (mkPtok 39 ":" 94 19 281) (mkPtok 42 "zchar" 96 4 283) (Some (mkPtok 40 "," 96 10 284))); (mkMatchPair (mkSpan (mkPtok 18 "[" 96 12 285) (mkPtok 42 "u128" 97 2 289)) (MKList (mkKeyList (mkSpan (mkPtok 18 "[" 96 12 285) (mkPtok 13 "]" 96 20 287)) (mkPtok 18 "[" 96 12 285) (mkPtok 30 "65535" 96 14 286) [] (mkPtok 13 "]" 96 20 287))) (mkPtok 39 ":" 97 0 288) (mkPtok 42 "u128" 97 2 289) None)] (mkPtok 3 "}" 98 0 290)) (mkPtok 40 "," 98 2 291))); (mkFieldWithAttr (mkSpan (mkPtok 9 "@tag(" 98 3 292) (mkPtok 40 "," 98 42 301)) [(FATag (mkSpan (mkPtok 9 "@tag(" 98 3 292) (mkPtok 6 ")" 98 12 294)) (mkTagAttr (mkSpan (mkPtok 9 "@tag(" 98 3 292) (mkPtok 6 ")" 98 12 294)) (mkPtok 9 "@tag(" 98 3 292) (mkPtok 30 "42" 98 9 293) (mkPtok 6 ")" 98 12 294))); (FAPadding (mkSpan (mkPtok 32 "@leftPad" 98 14 295) (mkPtok 6 ")" 98 32 298)) (mkPaddingAttr (mkSpan (mkPtok 32 "@leftPad" 98 14 295) (mkPtok 6 ")" 98 32 298)) (mkPtok 32 "@leftPad" 98 14 295) (mkPtok 8 "(" 98 23 296) (Some (mkPtok 33 "'\x00'" 98 25 297)) (mkPtok 6 ")" 98 32 298)))] (MetaField (mkSpan (mkPtok 25 "i16" 98 34 299) (mkPtok 40 "," 98 42 301)) None (mkMetaDecl (mkSpan (mkPtok 25 "i16" 98 34 299) (mkPtok 40 "," 98 42 301)) (TyBasic (mkSpan (mkPtok 25 "i16" 98 34 299) (mkPtok 25 "i16" 98 34 299)) (mkBasicType (mkSpan (mkPtok 25 "i16" 98 34 299) (mkPtok 25 "i16" 98 34 299)) (mkPtok 25 "i16" 98 34 299))) (mkPtok 42 "crc" 98 38 300) None (mkPtok 40 "," 98 42 301)))); (mkFieldWithAttr (mkSpan (mkPtok 14 "zchar[" 99 4 302) (mkPtok 40 "," 100 0 309)) [] (LengthField (mkSpan (mkPtok 14 "zchar[" 99 4 302) (mkPtok 40 "," 100 0 309)) (mkLengthFieldDecl (mkSpan (mkPtok 14 "zchar[" 99 4 302) (mkPtok 40 "," 100 0 309)) (Some (TyFixed (mkSpan (mkPtok 14 "zchar[" 99 4 302) (mkPtok 13 "]" 99 11 304)) (mkFixedString (mkSpan (mkPtok 14 "zchar[" 99 4 302) (mkPtok 13 "]" 99 11 304)) (mkPtok 14 "zchar[" 99 4 302) (mkPtok 30 "7" 99 10 303) (mkPtok 13 "]" 99 11 304)))) (mkPtok 42 "_x" 99 13 305) (mkLengthOf (mkSpan (mkPtok 7 "@lengthOf(" 99 17 306) (mkPtok 6 ")" 99 35 308)) (mkPtok 7 "@lengthOf(" 99 17 306) (mkPtok 42 "falsey" 99 27 307) (mkPtok 6 ")" 99 35 308)) None (mkPtok 40 "," 100 0 309))))] (mkPtok 3 "}" 101 0 310)))])).
+Eval vm_compute in ("<<<M661>>>" ++ check (runes_of_ascii "options{ roots
+=
+    65535;
+    }options { repeatCount =""" ++ [28040; 24687]%N ++ runes_of_ascii """ i64_
+// " ++ [128512]%N ++ runes_of_ascii " emoji
+// `tick` ""quote"" 'q'
+=
+    zchar[ 0123456789 ] i64_=""""pack
+// packet A { u8 x, }
+// " ++ [27880; 37322]%N ++ runes_of_ascii "
+= true
+    } packet rootA{
+    // " ++ [128512]%N ++ runes_of_ascii " emoji
+    msg_type { int32 trueish@lengthOf( asx ) `crlf
+line` ,a1 @lengthOf(
+    leftPad // a // b
+)  ,	}// `tick` ""quote"" 'q'
+, i64	repeatCount ,
+u32	float
+@lengthOf( float
+    )
+, pack  { leftPad	, } ,packetx As ,
+}
+// packet A { u8 x, }
+// 50% %s
+packet pack{
+match
+A as msg_type { 007  : Logon , // " ++ [27880; 37322]%N ++ runes_of_ascii "
+[""CRC32"",007 , 10,
+    // @lengthOf(
+    7
+    , ""CRC32""] : lengthOf
+[
+""packet""] : string_ ,""x y"": Z9_
+    , }
+/// triple
+// @lengthOf(
+,
+tag ,chars @lengthOf( float ) , }")).
+Eval vm_compute in ("<<<M693>>>" ++ check (runes_of_ascii "packet
+    f32a
+{
+@lengthOf(stringy
+    ) // trailing space 
+char[42 ] // c
+body , trueish o ,char[] rootA @calculatedFrom(
+""// no comment""
+)
+``
+    , calculatedFrom `crlf
+line` ,}  MetaData	o {i8i8 i8i8 `100% of %d`, msg_type	Z9_ , // " ++ [27880; 37322]%N ++ runes_of_ascii "
+uint32 matchKey
+, // a // b
+} options  { crc
+    = char[]
+    ; } // @lengthOf(")).
+Eval vm_compute in ("<<<M725>>>" ++ check (runes_of_ascii "MetaData trueish {string //
+f32a `` ,  char MetaDataX , stringy string_`100% of %d`,zchar[
+7 ]
+A , } // " ++ [128512]%N ++ runes_of_ascii " emoji")).
+Eval vm_compute in ("<<<M757>>>" ++ check (runes_of_ascii "  packet asx
+{  repeat lengthOf {f32 matchKey `" ++ [28040; 24687; 31867; 22411]%N ++ runes_of_ascii "`, } , @leftPad
+( ) match
+a1
+    as asx { [ ""\" ++ [233]%N ++ runes_of_ascii """ ,10
+    , ""it's""
+, ""a\\""]
+/// triple
+// trailing space 
+: metadata ,
+[
+42	]:
+    crc , 42 :	metadata , 10 :
+// c
+/// triple
+_x ,} , @lengthOf( options1 )
+match pack as len { 7
+:
+    Z9_  ,
+    // packet A { u8 x, }
+    0
+: i64_
+, 65535: u8x ,  4294967296 :
+    packetx,	[
+""x y""  ,
+/// triple
+// @lengthOf(
+""packet"" , ""CRC32"", 00  ,  1,
+00
+    // a // b
+    , ""CRC32"" ]
+    :T ,
+}, @rightPad (' ' )
+@leftPad
+    ( '\x00' )
+@tag( 00
+    ) i32 pack, @leftPad ('0' )	lengthOf @calculatedFrom(""\n""
+)
+    , uint64 float `100% of %d` , }
+    // trailing space 
+    options { }")).
+Eval vm_compute in ("<<<M789>>>" ++ check (runes_of_ascii "options
+// " ++ [128512]%N ++ runes_of_ascii " emoji
+//	t
+{
+//
+// c
+} MetaData
+    /// triple
+    float
+{
+zchar//	t
+f32a
+,
+    } MetaData packetx { i64_
+// @lengthOf(
+//x
+trueish`" ++ [233]%N ++ runes_of_ascii "` , }")).
+Eval vm_compute in ("<<<M821>>>" ++ check (runes_of_ascii "options { } packet i8i8 {
+    //x
+    }	root packet crc {
+@calculatedFrom( // 50% %s
+""a\\"" )
+    @calculatedFrom( ""// no comment"" )	@calculatedFrom( ""packet"") repeat As {
+// a // b
+// c
+zchar[ 7] falsey // @lengthOf(
+@lengthOf( // " ++ [128512]%N ++ runes_of_ascii " emoji
+int ) ,
+    repeat zchar[	007 ] i8i8
+`line1
+line2`
+    ,  } , repeat
+Logon { Foo @lengthOf(
+//
+// c
+chars ) ,match matchKey as Pad{ 42:// 50% %s
+i8i8 ,
+} // `tick` ""quote"" 'q'
+, }  , }
+")).
+Eval vm_compute in ("<<<M853>>>" ++ check (runes_of_ascii "root packet chars
+// 50% %s
+/// triple
+{ // a // b
+repeat u , asx // c
+@lengthOf( chars
+)	, i32 rootA , @leftPad ( )
+    msg_type
+,i64 u128, @lengthOf(Logon ) // `tick` ""quote"" 'q'
+@rightPad // trailing space 
+(
+    //x
+    ) char[ 1]
+roots//	t
+,
+@tag(	1 ) int @calculatedFrom(  ""CRC32"") `tab	here` ,repeat
+repeatCount float,char[ 65535 ] Packet
+    `// not a comment` , @lengthOf(Header)//x
+repeat string Pad`u8 x,`,} packet
+    // packet A { u8 x, }
+    metadata
+// packet A { u8 x, }
+// `tick` ""quote"" 'q'
+{x Packet ,
+    repeat
+u64 /// triple
+string_ `doc` // `tick` ""quote"" 'q'
+,
+repeat/// triple
+Packet , @tag(
+65535) zchar[  1
+] pack@lengthOf( zchar
+    ) `a\` //
+,rootA matchKey`two words` , @rightPad(
+    )stringy o
 , }
+")).
+Eval vm_compute in ("<<<T853>>>" ++ terms [mkTok 34 "root" 1 0 false; mkTok 35 "packet" 1 5 false; mkTok 42 "chars" 1 12 false; mkTok 44 "// 50% %s" 2 0 true; mkTok 44 "/// triple" 3 0 true; mkTok 2 "{" 4 0 false; mkTok 44 "// a // b" 4 2 true; mkTok 36 "repeat" 5 0 false; mkTok 42 "u" 5 7 false; mkTok 40 "," 5 9 false; mkTok 42 "asx" 5 11 false; mkTok 44 "// c" 5 15 true; mkTok 7 "@lengthOf(" 6 0 false; mkTok 42 "chars" 6 11 false; mkTok 6 ")" 7 0 false; mkTok 40 "," 7 2 false; mkTok 26 "i32" 7 4 false; mkTok 42 "rootA" 7 8 false; mkTok 40 "," 7 14 false; mkTok 32 "@leftPad" 7 16 false; mkTok 8 "(" 7 25 false; mkTok 6 ")" 7 27 false; mkTok 42 "msg_type" 8 4 false; mkTok 40 "," 9 0 false; mkTok 27 "i64" 9 1 false; mkTok 42 "u128" 9 5 false; mkTok 40 "," 9 9 false; mkTok 7 "@lengthOf(" 9 11 false; mkTok 42 "Logon" 9 21 false; mkTok 6 ")" 9 27 false; mkTok 44 "// `tick` ""quote"" 'q'" 9 29 true; mkTok 32 "@rightPad" 10 0 false; mkTok 44 "// trailing space " 10 10 true; mkTok 8 "(" 11 0 false; mkTok 44 "//x" 12 4 true; mkTok 6 ")" 13 4 false; mkTok 12 "char[" 13 6 false; mkTok 30 "1" 13 12 false; mkTok 13 "]" 13 13 false; mkTok 42 "roots" 14 0 false; mkTok 44 (string_of_bytes [47; 47; 9; 116]%N) 14 5 true; mkTok 40 "," 15 0 false; mkTok 9 "@tag(" 16 0 false; mkTok 30 "1" 16 6 false; mkTok 6 ")" 16 8 false; mkTok 42 "int" 16 10 false; mkTok 5 "@calculatedFrom(" 16 14 false; mkTok 31 """CRC32""" 16 32 false; mkTok 6 ")" 16 39 false; mkTok 43 (string_of_bytes [96; 116; 97; 98; 9; 104; 101; 114; 101; 96]%N) 16 41 false; mkTok 40 "," 16 52 false; mkTok 36 "repeat" 16 53 false; mkTok 42 "repeatCount" 17 0 false; mkTok 42 "float" 17 12 false; mkTok 40 "," 17 17 false; mkTok 12 "char[" 17 18 false; mkTok 30 "65535" 17 24 false; mkTok 13 "]" 17 30 false; mkTok 42 "Packet" 17 32 false; mkTok 43 "`// not a comment`" 18 4 false; mkTok 40 "," 18 23 false; mkTok 7 "@lengthOf(" 18 25 false; mkTok 42 "Header" 18 35 false; mkTok 6 ")" 18 41 false; mkTok 44 "//x" 18 42 true; mkTok 36 "repeat" 19 0 false; mkTok 15 "string" 19 7 false; mkTok 42 "Pad" 19 14 false; mkTok 43 "`u8 x,`" 19 17 false; mkTok 40 "," 19 24 false; mkTok 3 "}" 19 25 false; mkTok 35 "packet" 19 27 false; mkTok 44 "// packet A { u8 x, }" 20 4 true; mkTok 42 "metadata" 21 4 false; mkTok 44 "// packet A { u8 x, }" 22 0 true; mkTok 44 "// `tick` ""quote"" 'q'" 23 0 true; mkTok 2 "{" 24 0 false; mkTok 42 "x" 24 1 false; mkTok 42 "Packet" 24 3 false; mkTok 40 "," 24 10 false; mkTok 36 "repeat" 25 4 false; mkTok 23 "u64" 26 0 false; mkTok 44 "/// triple" 26 4 true; mkTok 42 "string_" 27 0 false; mkTok 43 "`doc`" 27 8 false; mkTok 44 "// `tick` ""quote"" 'q'" 27 14 true; mkTok 40 "," 28 0 false; mkTok 36 "repeat" 29 0 false; mkTok 44 "/// triple" 29 6 true; mkTok 42 "Packet" 30 0 false; mkTok 40 "," 30 7 false; mkTok 9 "@tag(" 30 9 false; mkTok 30 "65535" 31 0 false; mkTok 6 ")" 31 5 false; mkTok 14 "zchar[" 31 7 false; mkTok 30 "1" 31 15 false; mkTok 13 "]" 32 0 false; mkTok 42 "pack" 32 2 false; mkTok 7 "@lengthOf(" 32 6 false; mkTok 42 "zchar" 32 17 false; mkTok 6 ")" 33 4 false; mkTok 43 "`a\`" 33 6 false; mkTok 44 "//" 33 11 true; mkTok 40 "," 34 0 false; mkTok 42 "rootA" 34 1 false; mkTok 42 "matchKey" 34 7 false; mkTok 43 "`two words`" 34 15 false; mkTok 40 "," 34 27 false; mkTok 32 "@rightPad" 34 29 false; mkTok 8 "(" 34 38 false; mkTok 6 ")" 35 4 false; mkTok 42 "stringy" 35 5 false; mkTok 42 "o" 35 13 false; mkTok 40 "," 36 0 false; mkTok 3 "}" 36 2 false; mkTok 0 "<EOF>" 37 0 false] (mkPacket (mkPtok 34 "root" 1 0 0) (Some (mkPtok 3 "}" 36 2 114)) [(DPacket (mkPacketDef (mkSpan (mkPtok 34 "root" 1 0 0) (mkPtok 3 "}" 19 25 70)) (Some (mkPtok 34 "root" 1 0 0)) (mkPtok 35 "packet" 1 5 1) (mkPtok 42 "chars" 1 12 2) (mkPtok 2 "{" 4 0 5) [(mkFieldWithAttr (mkSpan (mkPtok 36 "repeat" 5 0 7) (mkPtok 40 "," 5 9 9)) [] (ObjectField (mkSpan (mkPtok 36 "repeat" 5 0 7) (mkPtok 40 "," 5 9 9)) (Some (mkPtok 36 "repeat" 5 0 7)) (mkPtok 42 "u" 5 7 8) None None (mkPtok 40 "," 5 9 9))); (mkFieldWithAttr (mkSpan (mkPtok 42 "asx" 5 11 10) (mkPtok 40 "," 7 2 15)) [] (LengthField (mkSpan (mkPtok 42 "asx" 5 11 10) (mkPtok 40 "," 7 2 15)) (mkLengthFieldDecl (mkSpan (mkPtok 42 "asx" 5 11 10) (mkPtok 40 "," 7 2 15)) None (mkPtok 42 "asx" 5 11 10) (mkLengthOf (mkSpan (mkPtok 7 "@lengthOf(" 6 0 12) (mkPtok 6 ")" 7 0 14)) (mkPtok 7 "@lengthOf(" 6 0 12) (mkPtok 42 "chars" 6 11 13) (mkPtok 6 ")" 7 0 14)) None (mkPtok 40 "," 7 2 15)))); (mkFieldWithAttr (mkSpan (mkPtok 26 "i32" 7 4 16) (mkPtok 40 "," 7 14 18)) [] (MetaField (mkSpan (mkPtok 26 "i32" 7 4 16) (mkPtok 40 "," 7 14 18)) None (mkMetaDecl (mkSpan (mkPtok 26 "i32" 7 4 16) (mkPtok 40 "," 7 14 18)) (TyBasic (mkSpan (mkPtok 26 "i32" 7 4 16) (mkPtok 26 "i32" 7 4 16)) (mkBasicType (mkSpan (mkPtok 26 "i32" 7 4 16) (mkPtok 26 "i32" 7 4 16)) (mkPtok 26 "i32" 7 4 16))) (mkPtok 42 "rootA" 7 8 17) None (mkPtok 40 "," 7 14 18)))); (mkFieldWithAttr (mkSpan (mkPtok 32 "@leftPad" 7 16 19) (mkPtok 40 "," 9 0 23)) [(FAPadding (mkSpan (mkPtok 32 "@leftPad" 7 16 19) (mkPtok 6 ")" 7 27 21)) (mkPaddingAttr (mkSpan (mkPtok 32 "@leftPad" 7 16 19) (mkPtok 6 ")" 7 27 21)) (mkPtok 32 "@leftPad" 7 16 19) (mkPtok 8 "(" 7 25 20) None (mkPtok 6 ")" 7 27 21)))] (ObjectField (mkSpan (mkPtok 42 "msg_type" 8 4 22) (mkPtok 40 "," 9 0 23)) None (mkPtok 42 "msg_type" 8 4 22) None None (mkPtok 40 "," 9 0 23))); (mkFieldWithAttr (mkSpan (mkPtok 27 "i64" 9 1 24) (mkPtok 40 "," 9 9 26)) [] (MetaField (mkSpan (mkPtok 27 "i64" 9 1 24) (mkPtok 40 "," 9 9 26)) None (mkMetaDecl (mkSpan (mkPtok 27 "i64" 9 1 24) (mkPtok 40 "," 9 9 26)) (TyBasic (mkSpan (mkPtok 27 "i64" 9 1 24) (mkPtok 27 "i64" 9 1 24)) (mkBasicType (mkSpan (mkPtok 27 "i64" 9 1 24) (mkPtok 27 "i64" 9 1 24)) (mkPtok 27 "i64" 9 1 24))) (mkPtok 42 "u128" 9 5 25) None (mkPtok 40 "," 9 9 26)))); (mkFieldWithAttr (mkSpan (mkPtok 7 "@lengthOf(" 9 11 27) (mkPtok 40 "," 15 0 41)) [(FALengthOf (mkSpan (mkPtok 7 "@lengthOf(" 9 11 27) (mkPtok 6 ")" 9 27 29)) (mkLengthOf (mkSpan (mkPtok 7 "@lengthOf(" 9 11 27) (mkPtok 6 ")" 9 27 29)) (mkPtok 7 "@lengthOf(" 9 11 27) (mkPtok 42 "Logon" 9 21 28) (mkPtok 6 ")" 9 27 29))); (FAPadding (mkSpan (mkPtok 32 "@rightPad" 10 0 31) (mkPtok 6 ")" 13 4 35)) (mkPaddingAttr (mkSpan (mkPtok 32 "@rightPad" 10 0 31) (mkPtok 6 ")" 13 4 35)) (mkPtok 32 "@rightPad" 10 0 31) (mkPtok 8 "(" 11 0 33) None (mkPtok 6 ")" 13 4 35)))] (MetaField (mkSpan (mkPtok 12 "char[" 13 6 36) (mkPtok 40 "," 15 0 41)) None (mkMetaDecl (mkSpan (mkPtok 12 "char[" 13 6 36) (mkPtok 40 "," 15 0 41)) (TyFixed (mkSpan (mkPtok 12 "char[" 13 6 36) (mkPtok 13 "]" 13 13 38)) (mkFixedString (mkSpan (mkPtok 12 "char[" 13 6 36) (mkPtok 13 "]" 13 13 38)) (mkPtok 12 "char[" 13 6 36) (mkPtok 30 "1" 13 12 37) (mkPtok 13 "]" 13 13 38))) (mkPtok 42 "roots" 14 0 39) None (mkPtok 40 "," 15 0 41)))); (mkFieldWithAttr (mkSpan (mkPtok 9 "@tag(" 16 0 42) (mkPtok 40 "," 16 52 50)) [(FATag (mkSpan (mkPtok 9 "@tag(" 16 0 42) (mkPtok 6 ")" 16 8 44)) (mkTagAttr (mkSpan (mkPtok 9 "@tag(" 16 0 42) (mkPtok 6 ")" 16 8 44)) (mkPtok 9 "@tag(" 16 0 42) (mkPtok 30 "1" 16 6 43) (mkPtok 6 ")" 16 8 44)))] (CheckSumField (mkSpan (mkPtok 42 "int" 16 10 45) (mkPtok 40 "," 16 52 50)) (mkChecksumFieldDecl (mkSpan (mkPtok 42 "int" 16 10 45) (mkPtok 40 "," 16 52 50)) None (mkPtok 42 "int" 16 10 45) (mkCalculatedFrom (mkSpan (mkPtok 5 "@calculatedFrom(" 16 14 46) (mkPtok 6 ")" 16 39 48)) (mkPtok 5 "@calculatedFrom(" 16 14 46) (mkPtok 31 """CRC32""" 16 32 47) (mkPtok 6 ")" 16 39 48)) (Some (mkPtok 43 (string_of_bytes [96; 116; 97; 98; 9; 104; 101; 114; 101; 96]%N) 16 41 49)) (mkPtok 40 "," 16 52 50)))); (mkFieldWithAttr (mkSpan (mkPtok 36 "repeat" 16 53 51) (mkPtok 40 "," 17 17 54)) [] (ObjectField (mkSpan (mkPtok 36 "repeat" 16 53 51) (mkPtok 40 "," 17 17 54)) (Some (mkPtok 36 "repeat" 16 53 51)) (mkPtok 42 "repeatCount" 17 0 52) (Some (mkPtok 42 "float" 17 12 53)) None (mkPtok 40 "," 17 17 54))); (mkFieldWithAttr (mkSpan (mkPtok 12 "char[" 17 18 55) (mkPtok 40 "," 18 23 60)) [] (MetaField (mkSpan (mkPtok 12 "char[" 17 18 55) (mkPtok 40 "," 18 23 60)) None (mkMetaDecl (mkSpan (mkPtok 12 "char[" 17 18 55) (mkPtok 40 "," 18 23 60)) (TyFixed (mkSpan (mkPtok 12 "char[" 17 18 55) (mkPtok 13 "]" 17 30 57)) (mkFixedString (mkSpan (mkPtok 12 "char[" 17 18 55) (mkPtok 13 "]" 17 30 57)) (mkPtok 12 "char[" 17 18 55) (mkPtok 30 "65535" 17 24 56) (mkPtok 13 "]" 17 30 57))) (mkPtok 42 "Packet" 17 32 58) (Some (mkPtok 43 "`// not a comment`" 18 4 59)) (mkPtok 40 "," 18 23 60)))); (mkFieldWithAttr (mkSpan (mkPtok 7 "@lengthOf(" 18 25 61) (mkPtok 40 "," 19 24 69)) [(FALengthOf (mkSpan (mkPtok 7 "@lengthOf(" 18 25 61) (mkPtok 6 ")" 18 41 63)) (mkLengthOf (mkSpan (mkPtok 7 "@lengthOf(" 18 25 61) (mkPtok 6 ")" 18 41 63)) (mkPtok 7 "@lengthOf(" 18 25 61) (mkPtok 42 "Header" 18 35 62) (mkPtok 6 ")" 18 41 63)))] (MetaField (mkSpan (mkPtok 36 "repeat" 19 0 65) (mkPtok 40 "," 19 24 69)) (Some (mkPtok 36 "repeat" 19 0 65)) (mkMetaDecl (mkSpan (mkPtok 15 "string" 19 7 66) (mkPtok 40 "," 19 24 69)) (TyDynamic (mkSpan (mkPtok 15 "string" 19 7 66) (mkPtok 15 "string" 19 7 66)) (mkDynamicString (mkSpan (mkPtok 15 "string" 19 7 66) (mkPtok 15 "string" 19 7 66)) (mkPtok 15 "string" 19 7 66))) (mkPtok 42 "Pad" 19 14 67) (Some (mkPtok 43 "`u8 x,`" 19 17 68)) (mkPtok 40 "," 19 24 69))))] (mkPtok 3 "}" 19 25 70))); (DPacket (mkPacketDef (mkSpan (mkPtok 35 "packet" 19 27 71) (mkPtok 3 "}" 36 2 114)) None (mkPtok 35 "packet" 19 27 71) (mkPtok 42 "metadata" 21 4 73) (mkPtok 2 "{" 24 0 76) [(mkFieldWithAttr (mkSpan (mkPtok 42 "x" 24 1 77) (mkPtok 40 "," 24 10 79)) [] (ObjectField (mkSpan (mkPtok 42 "x" 24 1 77) (mkPtok 40 "," 24 10 79)) None (mkPtok 42 "x" 24 1 77) (Some (mkPtok 42 "Packet" 24 3 78)) None (mkPtok 40 "," 24 10 79))); (mkFieldWithAttr (mkSpan (mkPtok 36 "repeat" 25 4 80) (mkPtok 40 "," 28 0 86)) [] (MetaField (mkSpan (mkPtok 36 "repeat" 25 4 80) (mkPtok 40 "," 28 0 86)) (Some (mkPtok 36 "repeat" 25 4 80)) (mkMetaDecl (mkSpan (mkPtok 23 "u64" 26 0 81) (mkPtok 40 "," 28 0 86)) (TyBasic (mkSpan (mkPtok 23 "u64" 26 0 81) (mkPtok 23 "u64" 26 0 81)) (mkBasicType (mkSpan (mkPtok 23 "u64" 26 0 81) (mkPtok 23 "u64" 26 0 81)) (mkPtok 23 "u64" 26 0 81))) (mkPtok 42 "string_" 27 0 83) (Some (mkPtok 43 "`doc`" 27 8 84)) (mkPtok 40 "," 28 0 86)))); (mkFieldWithAttr (mkSpan (mkPtok 36 "repeat" 29 0 87) (mkPtok 40 "," 30 7 90)) [] (ObjectField (mkSpan (mkPtok 36 "repeat" 29 0 87) (mkPtok 40 "," 30 7 90)) (Some (mkPtok 36 "repeat" 29 0 87)) (mkPtok 42 "Packet" 30 0 89) None None (mkPtok 40 "," 30 7 90))); (mkFieldWithAttr (mkSpan (mkPtok 9 "@tag(" 30 9 91) (mkPtok 40 "," 34 0 103)) [(FATag (mkSpan (mkPtok 9 "@tag(" 30 9 91) (mkPtok 6 ")" 31 5 93)) (mkTagAttr (mkSpan (mkPtok 9 "@tag(" 30 9 91) (mkPtok 6 ")" 31 5 93)) (mkPtok 9 "@tag(" 30 9 91) (mkPtok 30 "65535" 31 0 92) (mkPtok 6 ")" 31 5 93)))] (LengthField (mkSpan (mkPtok 14 "zchar[" 31 7 94) (mkPtok 40 "," 34 0 103)) (mkLengthFieldDecl (mkSpan (mkPtok 14 "zchar[" 31 7 94) (mkPtok 40 "," 34 0 103)) (Some (TyFixed (mkSpan (mkPtok 14 "zchar[" 31 7 94) (mkPtok 13 "]" 32 0 96)) (mkFixedString (mkSpan (mkPtok 14 "zchar[" 31 7 94) (mkPtok 13 "]" 32 0 96)) (mkPtok 14 "zchar[" 31 7 94) (mkPtok 30 "1" 31 15 95) (mkPtok 13 "]" 32 0 96)))) (mkPtok 42 "pack" 32 2 97) (mkLengthOf (mkSpan (mkPtok 7 "@lengthOf(" 32 6 98) (mkPtok 6 ")" 33 4 100)) (mkPtok 7 "@lengthOf(" 32 6 98) (mkPtok 42 "zchar" 32 17 99) (mkPtok 6 ")" 33 4 100)) (Some (mkPtok 43 "`a\`" 33 6 101)) (mkPtok 40 "," 34 0 103)))); (mkFieldWithAttr (mkSpan (mkPtok 42 "rootA" 34 1 104) (mkPtok 40 "," 34 27 107)) [] (ObjectField (mkSpan (mkPtok 42 "rootA" 34 1 104) (mkPtok 40 "," 34 27 107)) None (mkPtok 42 "rootA" 34 1 104) (Some (mkPtok 42 "matchKey" 34 7 105)) (Some (mkPtok 43 "`two words`" 34 15 106)) (mkPtok 40 "," 34 27 107))); (mkFieldWithAttr (mkSpan (mkPtok 32 "@rightPad" 34 29 108) (mkPtok 40 "," 36 0 113)) [(FAPadding (mkSpan (mkPtok 32 "@rightPad" 34 29 108) (mkPtok 6 ")" 35 4 110)) (mkPaddingAttr (mkSpan (mkPtok 32 "@rightPad" 34 29 108) (mkPtok 6 ")" 35 4 110)) (mkPtok 32 "@rightPad" 34 29 108) (mkPtok 8 "(" 34 38 109) None (mkPtok 6 ")" 35 4 110)))] (ObjectField (mkSpan (mkPtok 42 "stringy" 35 5 111) (mkPtok 40 "," 36 0 113)) None (mkPtok 42 "stringy" 35 5 111) (Some (mkPtok 42 "o" 35 13 112)) None (mkPtok 40 "," 36 0 113)))] (mkPtok 3 "}" 36 2 114)))])).
+Eval vm_compute in ("<<<M885>>>" ++ check (runes_of_ascii "  packet falsey
+{zchar[  1 ]a1@calculatedFrom(//
+""a\\"") ,
+u8x _x , float64 rootA, Foo{ match stringy as calculatedFrom{ 3 :
+o ,}, } ,  }")).
+Eval vm_compute in ("<<<M917>>>" ++ check (runes_of_ascii "MetaData stringy{ char[	3 ]
+T
+    ,
+char[
+255
+    ] Logon ,zchar[ 007 ]
+packetx  ,	i8	pack`` , // 50% %s
+} // 50% %s
+packet// trailing space 
+Logon { match u
+    // `tick` ""quote"" 'q'
+    as
+roots {
+[""// no comment"" , ""it's"" ]:
+    lengthOf ,}
+, uint64
+u128 @calculatedFrom( // a // b
+""\" ++ [233]%N ++ runes_of_ascii """
+) , string metadata `say ""hi""` ,	} /// triple")).
+Eval vm_compute in ("<<<M949>>>" ++ check (runes_of_ascii "
+")).
+Eval vm_compute in ("<<<M981>>>" ++ check (runes_of_ascii "root packet zchar	{ repeat lengthOf crc ,
+trueish @lengthOf(crc
+) , @rightPad( )
+    @tag(0 ) char[ 7] tag	,  }
+options  {
+    leftPad
+= ""abc"" Z9_ =
+true ; Z9_
+=
+    '\x00' repeatCount=
+    true MetaDataX
+=""it's"" ;}")).
+Eval vm_compute in ("<<<M1013>>>" ++ check (runes_of_ascii "MetaData body {
+    // c
+    zchar[ 0123456789
+] MetaDataX,uint8 As  ,	u8x
+Logon
+`doc`
+    , char[
+// c
+// " ++ [27880; 37322]%N ++ runes_of_ascii "
+0123456789 ] msg_type , zchar[1
+    ] x_y_z
+    , }")).
+Eval vm_compute in ("<<<M1045>>>" ++ check (runes_of_ascii "options {u128 //
+= 4294967296 ; BodyLength
+//	t
+// c
+=string
+    Packet// " ++ [27880; 37322]%N ++ runes_of_ascii "
+= // @lengthOf(
+' ' u8x= ""x y"" ; asx= 255 ; }
+")).
+Eval vm_compute in ("<<<M1077>>>" ++ check (runes_of_ascii "packet msg_type { uint16 T// a // b
+@lengthOf( i8i8 )
+, repeat	i32  int
+    ,
+@lengthOf(x_y_z
+    ) int64
+    As
+    ,
+    }
+")).
+Eval vm_compute in ("<<<T1077>>>" ++ terms [mkTok 35 "packet" 1 0 false; mkTok 42 "msg_type" 1 7 false; mkTok 2 "{" 1 16 false; mkTok 21 "uint16" 1 18 false; mkTok 42 "T" 1 25 false; mkTok 44 "// a // b" 1 26 true; mkTok 7 "@lengthOf(" 2 0 false; mkTok 42 "i8i8" 2 11 false; mkTok 6 ")" 2 16 false; mkTok 40 "," 3 0 false; mkTok 36 "repeat" 3 2 false; mkTok 26 "i32" 3 9 false; mkTok 42 "int" 3 14 false; mkTok 40 "," 4 4 false; mkTok 7 "@lengthOf(" 5 0 false; mkTok 42 "x_y_z" 5 10 false; mkTok 6 ")" 6 4 false; mkTok 27 "int64" 6 6 false; mkTok 42 "As" 7 4 false; mkTok 40 "," 8 4 false; mkTok 3 "}" 9 4 false; mkTok 0 "<EOF>" 10 0 false] (mkPacket (mkPtok 35 "packet" 1 0 0) (Some (mkPtok 3 "}" 9 4 20)) [(DPacket (mkPacketDef (mkSpan (mkPtok 35 "packet" 1 0 0) (mkPtok 3 "}" 9 4 20)) None (mkPtok 35 "packet" 1 0 0) (mkPtok 42 "msg_type" 1 7 1) (mkPtok 2 "{" 1 16 2) [(mkFieldWithAttr (mkSpan (mkPtok 21 "uint16" 1 18 3) (mkPtok 40 "," 3 0 9)) [] (LengthField (mkSpan (mkPtok 21 "uint16" 1 18 3) (mkPtok 40 "," 3 0 9)) (mkLengthFieldDecl (mkSpan (mkPtok 21 "uint16" 1 18 3) (mkPtok 40 "," 3 0 9)) (Some (TyBasic (mkSpan (mkPtok 21 "uint16" 1 18 3) (mkPtok 21 "uint16" 1 18 3)) (mkBasicType (mkSpan (mkPtok 21 "uint16" 1 18 3) (mkPtok 21 "uint16" 1 18 3)) (mkPtok 21 "uint16" 1 18 3)))) (mkPtok 42 "T" 1 25 4) (mkLengthOf (mkSpan (mkPtok 7 "@lengthOf(" 2 0 6) (mkPtok 6 ")" 2 16 8)) (mkPtok 7 "@lengthOf(" 2 0 6) (mkPtok 42 "i8i8" 2 11 7) (mkPtok 6 ")" 2 16 8)) None (mkPtok 40 "," 3 0 9)))); (mkFieldWithAttr (mkSpan (mkPtok 36 "repeat" 3 2 10) (mkPtok 40 "," 4 4 13)) [] (MetaField (mkSpan (mkPtok 36 "repeat" 3 2 10) (mkPtok 40 "," 4 4 13)) (Some (mkPtok 36 "repeat" 3 2 10)) (mkMetaDecl (mkSpan (mkPtok 26 "i32" 3 9 11) (mkPtok 40 "," 4 4 13)) (TyBasic (mkSpan (mkPtok 26 "i32" 3 9 11) (mkPtok 26 "i32" 3 9 11)) (mkBasicType (mkSpan (mkPtok 26 "i32" 3 9 11) (mkPtok 26 "i32" 3 9 11)) (mkPtok 26 "i32" 3 9 11))) (mkPtok 42 "int" 3 14 12) None (mkPtok 40 "," 4 4 13)))); (mkFieldWithAttr (mkSpan (mkPtok 7 "@lengthOf(" 5 0 14) (mkPtok 40 "," 8 4 19)) [(FALengthOf (mkSpan (mkPtok 7 "@lengthOf(" 5 0 14) (mkPtok 6 ")" 6 4 16)) (mkLengthOf (mkSpan (mkPtok 7 "@lengthOf(" 5 0 14) (mkPtok 6 ")" 6 4 16)) (mkPtok 7 "@lengthOf(" 5 0 14) (mkPtok 42 "x_y_z" 5 10 15) (mkPtok 6 ")" 6 4 16)))] (MetaField (mkSpan (mkPtok 27 "int64" 6 6 17) (mkPtok 40 "," 8 4 19)) None (mkMetaDecl (mkSpan (mkPtok 27 "int64" 6 6 17) (mkPtok 40 "," 8 4 19)) (TyBasic (mkSpan (mkPtok 27 "int64" 6 6 17) (mkPtok 27 "int64" 6 6 17)) (mkBasicType (mkSpan (mkPtok 27 "int64" 6 6 17) (mkPtok 27 "int64" 6 6 17)) (mkPtok 27 "int64" 6 6 17))) (mkPtok 42 "As" 7 4 18) None (mkPtok 40 "," 8 4 19))))] (mkPtok 3 "}" 9 4 20)))])).
+Eval vm_compute in ("<<<M1109>>>" ++ check (runes_of_ascii "  root  packet T { // " ++ [128512]%N ++ runes_of_ascii " emoji
+}")).
+Eval vm_compute in ("<<<M1141>>>" ++ check (runes_of_ascii "options { u128
+// " ++ [128512]%N ++ runes_of_ascii " emoji
+//x
+= // 50% %s
+int64
+}
+packet _x{ char[]crc @lengthOf(
+i8i8
+    )
+, stringy
+    ,
+    //x
+    char[ 255 ] x	, @lengthOf( Header)
+repeat
+i8 i64_ , @leftPad( '0'
+) match msg_type as o {//	t
+[
+3, // `tick` ""quote"" 'q'
+3
+// packet A { u8 x, }
+//	t
+, 42, ""`tick`"" ]
+: metadata
+    ,1:
+    uint8x  , } //	t
+,	@lengthOf(
+_x ) uint8// trailing space 
+BodyLength
+// 50% %s
+// @lengthOf(
+`tab	here`
+,
+// 50% %s
+// a // b
+}MetaData A {
+    }
+// @lengthOf(
+// `tick` ""quote"" 'q'
+root packet lengthOf	{ i8
+MetaDataX
+//
+// " ++ [128512]%N ++ runes_of_ascii " emoji
+, match crc as	f32a
+{ ""\n""
+    :
+//
+// c
+leftPad	00: Pad
+    , }, @tag( 0 )	i16 i64_ `doc` , char[
+00 ] T
+, lengthOf @calculatedFrom(
+//
+// c
+""a\""b"" )
+    , @tag(0 ) uint8
+    u
+// c
+// @lengthOf(
+,roots { //
+match
+    As as tag { ""\" ++ [233]%N ++ runes_of_ascii """ :
+    body , 3 : Z9_ //	t
+,
+}
+,// " ++ [128512]%N ++ runes_of_ascii " emoji
+match f32a as f32a { [
+    ""`tick`""  ,7]:
+    i64_ , },
+    zchar[
+    // " ++ [27880; 37322]%N ++ runes_of_ascii "
+    10] float `crlf
+line`
+, //x
+}
+, repeat  pack{ zchar[
+255 ]Pad @lengthOf( stringy ) ,char[ 4294967296	]	x_y_z
+    , }, }")).
+Eval vm_compute in ("<<<M1173>>>" ++ check (runes_of_ascii "MetaData tag { MetaDataX i8i8
+    ,
+}	MetaData o { a1
+    charz `two words`, }// packet A { u8 x, }
+root// " ++ [27880; 37322]%N ++ runes_of_ascii "
+packet	zchar {	@calculatedFrom( ""// no comment"" ) @lengthOf(
+string_)
+@calculatedFrom(
+""a\""b"" )match Header
+as options1 { 0123456789 : roots 00 :/// triple
+asx//x
+[65535 , /// triple
+""\n""
+]:u128
+, """ ++ [233]%N ++ runes_of_ascii "t" ++ [233]%N ++ runes_of_ascii """ : zchar 255
+:
+Header
+    , 65535: packetx ,  }	,// " ++ [128512]%N ++ runes_of_ascii " emoji
+@calculatedFrom( ""1"" ) repeat u32 repeatCount ,
+    }
+")).
+Eval vm_compute in ("<<<M1205>>>" ++ check (runes_of_ascii "
+root packet stringy
+{ @tag(10 )  string
+len ``
+    // @lengthOf(
+    ,  float64 i64_ ,@calculatedFrom(""abc"" )@leftPad (
+'\x00' )
+repeat
+    char[
+    3 // @lengthOf(
+]
+Header, msg_type metadata`two words`
+    , leftPad
+    body `crlf
+line`
+,
+string_ ,
+    stringy
+    { repeat metadata  {  repeat
+    // trailing space 
+    lengthOf ,}
+, // packet A { u8 x, }
+}
+    ,
+@lengthOf(	stringy ) u128@calculatedFrom( """ ++ [28040; 24687]%N ++ runes_of_ascii """  ), @calculatedFrom( ""a	b"") match crc
+    as a1 { 42
+    :
+    Header , 3	: tag [ ""CRC32"" , ""packet""
+]: f32a // packet A { u8 x, }
+[ """ ++ [28040; 24687]%N ++ runes_of_ascii """, ""abc"" ,
+65535 ,""" ++ [128512]%N ++ runes_of_ascii """ , 10
+] :
+pack, }
+,zchar[ 10 ] calculatedFrom
+    @calculatedFrom( ""\" ++ [233]%N ++ runes_of_ascii """
+// " ++ [27880; 37322]%N ++ runes_of_ascii "
+// " ++ [27880; 37322]%N ++ runes_of_ascii "
+) `
+` , } root packet falsey
+    { @calculatedFrom( """ ++ [128512]%N ++ runes_of_ascii """ )
+@lengthOf( falsey )
+int @calculatedFrom( ""{,}"") ,
+repeat matchKey f32a`{ , }` ,
+    float64
+    crc `doc`	, @calculatedFrom(""" ++ [128512]%N ++ runes_of_ascii """ )  matchKey  @calculatedFrom( """" )`u8 x,` ,	A , // c
+string Z9_ @lengthOf(x //	t
+) `u8 x,`	, zchar  @lengthOf(
+rootA
+)
+`// not a comment` ,	options1 @lengthOf( packetx )  `a\`, // " ++ [128512]%N ++ runes_of_ascii " emoji
+@lengthOf(leftPad) repeat u32 //
+A,
+} packet	Pad { @calculatedFrom( ""a\\"")
+    // trailing space 
+    @tag(
+    65535)	@lengthOf(
+u128
+    ) f64 x
+    `u8 x,`,@lengthOf( x_y_z )string	stringy @lengthOf(
+    string_ )	,metadata
+{match body  as rootA { 0  : o
+,255 : uint8x // @lengthOf(
+, [10 ]	: crc ,007
+:msg_type
+} //x
+,} , msg_type
+    @lengthOf(msg_type
+    )	, @leftPad ( '0' )lengthOf @lengthOf( //	t
+As ) `// not a comment` //
+, /// triple
+repeat
+    zchar[1
+    ] rootA  `// not a comment`
+, @tag(	10  )
+@leftPad( ) @lengthOf( stringy ) repeat body { // a // b
+i8i8	@calculatedFrom( ""a	b""/// triple
+)
+    ,
+    // " ++ [128512]%N ++ runes_of_ascii " emoji
+    _x, repeat u8 Packet,
+    } , i32 Logon , } packet// 50% %s
+calculatedFrom { float32 rootA
+`say ""hi""`
+, } root packet packetx{ @tag( 3 )
+    asx ,len { tag { repeat zchar[  0123456789]stringy`` , }
+    /// triple
+    ,Z9_ `
+`
+, Foo , repeat u8x
+`// not a comment`
+, } ,int64
+body
+    // 50% %s
+    @calculatedFrom( ""a\\"" ) `it's` ,}")).
+Eval vm_compute in ("<<<M1237>>>" ++ check (runes_of_ascii "  packet packetx{
+    float64
+string_ , o
+{ Pad options1
+`" ++ [233]%N ++ runes_of_ascii "`
+,
+    roots {float32 Z9_`a\` ,
+uint32 Logon
+,
+match
+asx as
+rootA { ""`tick`""  : As
+// trailing space 
+// c
+, 00 : int ,/// triple
+} , repeat char[]
+// 50% %s
+// a // b
+Logon , }	,f32// `tick` ""quote"" 'q'
+u128`crlf
+line`
+    , } ,} packet float{	falsey, crc
+    @calculatedFrom(""abc"" ) ,
+@calculatedFrom(
+""1"" ) repeat //	t
+T , @rightPad(
+'\x00') repeat Header `tab	here` , repeat //x
+char[] uint8x , pack @calculatedFrom( """ ++ [233]%N ++ runes_of_ascii "t" ++ [233]%N ++ runes_of_ascii """ ) ,
+@lengthOf( i8i8 )
+    u16 a1 ``
+,  int64 roots
+// 50% %s
+// 50% %s
+@calculatedFrom(	""x y"" ) , rootA  , BodyLength
+    // a // b
+    @lengthOf(
+zchar
+    /// triple
+    )
+, // 50% %s
+}MetaData calculatedFrom{  stringy crc //	t
+,
+    }
+    MetaData Foo { Packet
+    A , int8 Packet, As calculatedFrom ,calculatedFrom
+    calculatedFrom `` , }
+")).
+Eval vm_compute in ("<<<M1269>>>" ++ check (runes_of_ascii "packet int {
+    A { int
+{
+    zchar[// " ++ [128512]%N ++ runes_of_ascii " emoji
+0 ] pack
+@calculatedFrom( ""packet"" ) `100% of %d`
+    ,
+char[]
+trueish // a // b
+,repeat char[00
+    /// triple
+    ] crc`{ , }` , } , }
+    // 50% %s
+    , uint64 roots
+@lengthOf( rootA ) , i8 uint8x
+    //	t
+    ,
+    } packet uint8x {}
+MetaData int
+{  char[] i8i8 `two words` ,
+}
+")).
+Eval vm_compute in ("<<<M1301>>>" ++ check (runes_of_ascii "packet Foo { match body as leftPad{ 4294967296  :/// triple
+tag , } , }
+")).
+Eval vm_compute in ("<<<T1301>>>" ++ terms [mkTok 35 "packet" 1 0 false; mkTok 42 "Foo" 1 7 false; mkTok 2 "{" 1 11 false; mkTok 38 "match" 1 13 false; mkTok 42 "body" 1 19 false; mkTok 17 "as" 1 24 false; mkTok 42 "leftPad" 1 27 false; mkTok 2 "{" 1 34 false; mkTok 30 "4294967296" 1 36 false; mkTok 39 ":" 1 48 false; mkTok 44 "/// triple" 1 49 true; mkTok 42 "tag" 2 0 false; mkTok 40 "," 2 4 false; mkTok 3 "}" 2 6 false; mkTok 40 "," 2 8 false; mkTok 3 "}" 2 10 false; mkTok 0 "<EOF>" 3 0 false] (mkPacket (mkPtok 35 "packet" 1 0 0) (Some (mkPtok 3 "}" 2 10 15)) [(DPacket (mkPacketDef (mkSpan (mkPtok 35 "packet" 1 0 0) (mkPtok 3 "}" 2 10 15)) None (mkPtok 35 "packet" 1 0 0) (mkPtok 42 "Foo" 1 7 1) (mkPtok 2 "{" 1 11 2) [(mkFieldWithAttr (mkSpan (mkPtok 38 "match" 1 13 3) (mkPtok 40 "," 2 8 14)) [] (MatchField (mkSpan (mkPtok 38 "match" 1 13 3) (mkPtok 40 "," 2 8 14)) (mkMatchFieldDecl (mkSpan (mkPtok 38 "match" 1 13 3) (mkPtok 3 "}" 2 6 13)) (mkPtok 38 "match" 1 13 3) (mkPtok 42 "body" 1 19 4) (mkPtok 17 "as" 1 24 5) (mkPtok 42 "leftPad" 1 27 6) (mkPtok 2 "{" 1 34 7) [(mkMatchPair (mkSpan (mkPtok 30 "4294967296" 1 36 8) (mkPtok 40 "," 2 4 12)) (MKDigits (mkPtok 30 "4294967296" 1 36 8)) (mkPtok 39 ":" 1 48 9) (mkPtok 42 "tag" 2 0 11) (Some (mkPtok 40 "," 2 4 12)))] (mkPtok 3 "}" 2 6 13)) (mkPtok 40 "," 2 8 14)))] (mkPtok 3 "}" 2 10 15)))])).
+Eval vm_compute in ("<<<M1333>>>" ++ check (runes_of_ascii "options	{x_y_z	= u8 ;
+_x = 4294967296
+asx =0123456789;
+charz
+=false ; x_y_z =
+    // 50% %s
+    10}
+")).
+Eval vm_compute in ("<<<M1365>>>" ++ check (runes_of_ascii "packet x_y_z { @calculatedFrom( ""{,}""
+)	match pack // `tick` ""quote"" 'q'
+as i8i8 { [
+    //
+    3	] :
+    // " ++ [128512]%N ++ runes_of_ascii " emoji
+    BodyLength  ,
+42
+: i8i8 , [ ""CRC32""
+    // `tick` ""quote"" 'q'
+    ,""a\""b""
+]
+    : Foo } , Pad {crc `crlf
+line`
+    // c
+    ,u8// `tick` ""quote"" 'q'
+x	@calculatedFrom(""abc"" )	`" ++ [28040; 24687; 31867; 22411]%N ++ runes_of_ascii "` , stringy `it's` , } ,
+falsey `
+` , }")).
+Eval vm_compute in ("<<<M1397>>>" ++ check (runes_of_ascii "packet// c
+u128
+{ roots BodyLength , }
+
+")).
+Eval vm_compute in ("<<<M1429>>>" ++ check (runes_of_ascii "options {BodyLength // " ++ [27880; 37322]%N ++ runes_of_ascii "
+=
+    4294967296	}")).
+Eval vm_compute in ("<<<M1461>>>" ++ check (runes_of_ascii "
+root packet	u128 {repeat// 50% %s
+metadata , } packet
+trueish { zchar[ 0123456789 ] roots, }	packet leftPad {len  msg_type , MetaDataX
+pack ,// trailing space 
+}
+
+")).
+Eval vm_compute in ("<<<M1493>>>" ++ check (runes_of_ascii "
+//x
+")).
+Eval vm_compute in ("<<<M1525>>>" ++ check (runes_of_ascii "options { Packet
+= """ ++ [28040; 24687]%N ++ runes_of_ascii """ ;
+    Foo=
+    """" ; //	t
+leftPad = ""// no comment"" ;
+MetaDataX
+=false // @lengthOf(
+;
+    }")).
+Eval vm_compute in ("<<<T1525>>>" ++ terms [mkTok 1 "options" 1 0 false; mkTok 2 "{" 1 8 false; mkTok 42 "Packet" 1 10 false; mkTok 4 "=" 2 0 false; mkTok 31 (string_of_bytes [34; 230; 182; 136; 230; 129; 175; 34]%N) 2 2 false; mkTok 41 ";" 2 7 false; mkTok 42 "Foo" 3 4 false; mkTok 4 "=" 3 7 false; mkTok 31 """""" 4 4 false; mkTok 41 ";" 4 7 false; mkTok 44 (string_of_bytes [47; 47; 9; 116]%N) 4 9 true; mkTok 42 "leftPad" 5 0 false; mkTok 4 "=" 5 8 false; mkTok 31 """// no comment""" 5 10 false; mkTok 41 ";" 5 26 false; mkTok 42 "MetaDataX" 6 0 false; mkTok 4 "=" 7 0 false; mkTok 11 "false" 7 1 false; mkTok 44 "// @lengthOf(" 7 7 true; mkTok 41 ";" 8 0 false; mkTok 3 "}" 9 4 false; mkTok 0 "<EOF>" 9 5 false] (mkPacket (mkPtok 1 "options" 1 0 0) (Some (mkPtok 3 "}" 9 4 20)) [(DOption (mkOptionDef (mkSpan (mkPtok 1 "options" 1 0 0) (mkPtok 3 "}" 9 4 20)) (mkPtok 1 "options" 1 0 0) (mkPtok 2 "{" 1 8 1) [(mkOptionDecl (mkSpan (mkPtok 42 "Packet" 1 10 2) (mkPtok 41 ";" 2 7 5)) (mkPtok 42 "Packet" 1 10 2) (mkPtok 4 "=" 2 0 3) (VString (mkSpan (mkPtok 31 (string_of_bytes [34; 230; 182; 136; 230; 129; 175; 34]%N) 2 2 4) (mkPtok 31 (string_of_bytes [34; 230; 182; 136; 230; 129; 175; 34]%N) 2 2 4)) (mkPtok 31 (string_of_bytes [34; 230; 182; 136; 230; 129; 175; 34]%N) 2 2 4)) (Some (mkPtok 41 ";" 2 7 5))); (mkOptionDecl (mkSpan (mkPtok 42 "Foo" 3 4 6) (mkPtok 41 ";" 4 7 9)) (mkPtok 42 "Foo" 3 4 6) (mkPtok 4 "=" 3 7 7) (VString (mkSpan (mkPtok 31 """""" 4 4 8) (mkPtok 31 """""" 4 4 8)) (mkPtok 31 """""" 4 4 8)) (Some (mkPtok 41 ";" 4 7 9))); (mkOptionDecl (mkSpan (mkPtok 42 "leftPad" 5 0 11) (mkPtok 41 ";" 5 26 14)) (mkPtok 42 "leftPad" 5 0 11) (mkPtok 4 "=" 5 8 12) (VString (mkSpan (mkPtok 31 """// no comment""" 5 10 13) (mkPtok 31 """// no comment""" 5 10 13)) (mkPtok 31 """// no comment""" 5 10 13)) (Some (mkPtok 41 ";" 5 26 14))); (mkOptionDecl (mkSpan (mkPtok 42 "MetaDataX" 6 0 15) (mkPtok 41 ";" 8 0 19)) (mkPtok 42 "MetaDataX" 6 0 15) (mkPtok 4 "=" 7 0 16) (VFalse (mkSpan (mkPtok 11 "false" 7 1 17) (mkPtok 11 "false" 7 1 17)) (mkPtok 11 "false" 7 1 17)) (Some (mkPtok 41 ";" 8 0 19)))] (mkPtok 3 "}" 9 4 20)))])).
+Eval vm_compute in ("<<<M1557>>>" ++ check (runes_of_ascii "packet body
+    // @lengthOf(
+    { @tag( 0123456789 ) match options1 as leftPad { 00
+:body
+[
+7,
+4294967296
+,
+//x
+//	t
+""1"" // trailing space 
+, ""`tick`""  , 0 // 50% %s
+,
+255 , 10 , ""CRC32"" ] :
+a1
+    // trailing space 
+    , [""it's"" , """ ++ [233]%N ++ runes_of_ascii "t" ++ [233]%N ++ runes_of_ascii """,""" ++ [233]%N ++ runes_of_ascii "t" ++ [233]%N ++ runes_of_ascii """
+,	""CRC32""	, """ ++ [128512]%N ++ runes_of_ascii """ ,	65535
+// c
+// a // b
+,
+255 ,
+    007
+    // 50% %s
+    ]:
+x_y_z
+, 0:
+Logon , 65535
+: metadata
+    , [ """"  ]
+: Packet , } // " ++ [128512]%N ++ runes_of_ascii " emoji
+,f64
+    // trailing space 
+    calculatedFrom @lengthOf(chars) `{ , }`, @rightPad ( '0' )
+    @lengthOf(  BodyLength	)string leftPad @lengthOf(	packetx
+) , @tag(
+42
+) i8
+    A ,	}
+packet crc{
+    match
+crc as float { [ 0123456789
+,""a\""b""
+    ]
+    :
+u128 ,10 :MetaDataX , [
+00 ,
+""packet"" // `tick` ""quote"" 'q'
+,
+"""" , 4294967296
+    // @lengthOf(
+    ,	0 ,""" ++ [28040; 24687]%N ++ runes_of_ascii """ ]: Z9_
+    , 4294967296 : Z9_ //
+,
+}, zchar[7] MetaDataX
+    , }
+")).
+Eval vm_compute in ("<<<M1589>>>" ++ check (runes_of_ascii "packet Header { }
+")).
+Eval vm_compute in ("<<<M1621>>>" ++ check (runes_of_ascii "packet MetaDataX
+    { @lengthOf( pack) T
+{	zchar[ 0123456789 ] lengthOf `{ , }`
+    // @lengthOf(
+    ,} , }	packet crc
+{	char uint8x
+    `line1
+line2`
+    , } options {
+zchar
+=false ; }
+")).
+Eval vm_compute in ("<<<M1653>>>" ++ check (runes_of_ascii "packet As
+{ repeat uint8
+x_y_z ,  match leftPad as //x
+T {[  4294967296 ] :
+Foo , }, repeat // `tick` ""quote"" 'q'
+len {uint32
+    // " ++ [27880; 37322]%N ++ runes_of_ascii "
+    asx
+@calculatedFrom( ""{,}"") , } ,@tag(0 )repeat u64 crc
+, } /// triple
+packet BodyLength {
+@leftPad( )match packetx as body// " ++ [27880; 37322]%N ++ runes_of_ascii "
+{ ""`tick`""	:
+// c
+// trailing space 
+u8x ,
+""a\""b"": float , [ """ ++ [233]%N ++ runes_of_ascii "t" ++ [233]%N ++ runes_of_ascii """]	:	chars, """":
+    repeatCount,// c
+""a	b"": zchar // " ++ [128512]%N ++ runes_of_ascii " emoji
+, 65535
+    :// " ++ [27880; 37322]%N ++ runes_of_ascii "
+T
+, } ,	}packet metadata { repeat
+    // @lengthOf(
+    Foo ,
+    i32 T
+    @lengthOf( roots ) `doc` , zchar[	007 ] i64_
+@lengthOf( _x	),	}
+")).
+Eval vm_compute in ("<<<M1685>>>" ++ check (runes_of_ascii "packet
+a1 // " ++ [128512]%N ++ runes_of_ascii " emoji
+{ }
+options { i8i8
+= """ ++ [128512]%N ++ runes_of_ascii """
+uint8x
+=""" ++ [233]%N ++ runes_of_ascii "t" ++ [233]%N ++ runes_of_ascii """
+;
+Logon =
+'\x00';  } packet x_y_z{u32 f32a , @lengthOf(MetaDataX
+)char[] msg_type,}")).
+Eval vm_compute in ("<<<M1717>>>" ++ check (runes_of_ascii "MetaData
+// " ++ [27880; 37322]%N ++ runes_of_ascii "
+//	t
+Pad
+{char[] u128 `
+`	,char[
+1 ] trueish `100% of %d` ,char[ 1
+]u
+    `say ""hi""`,char[ 0
+    ] Header ,
+} packet falsey { @tag( 255
+) @calculatedFrom( ""{,}"" )  @tag( 00	) match //x
+msg_type as float {
+    00 :  falsey
+""x y""  : metadata , [42 ,10 , ""{,}""
+    , ""packet""
+,00	, ""`tick`""
+,""\" ++ [233]%N ++ runes_of_ascii """ , ""// no comment""// 50% %s
+] : roots , [ 007 , 00
+    ,/// triple
+""`tick`"" , 00	, ""a\""b"" ,
+    7// " ++ [128512]%N ++ runes_of_ascii " emoji
+,
+// `tick` ""quote"" 'q'
+/// triple
+1
+    ] : trueish
+,
+7	:u128 ,	}	, } packet Z9_ {@tag( 00 ) T msg_type
+    `{ , }`
+, } packet a1	{ }
+")).
+Eval vm_compute in ("<<<M1749>>>" ++ check (runes_of_ascii "packet packetx
+    // " ++ [128512]%N ++ runes_of_ascii " emoji
+    { repeat zchar[ 3]a1 `" ++ [233]%N ++ runes_of_ascii "`	, @calculatedFrom(
+""""
+    //
+    ) u64 pack
+@lengthOf(
+    Pad // c
+)	,}
+")).
+Eval vm_compute in ("<<<T1749>>>" ++ terms [mkTok 35 "packet" 1 0 false; mkTok 42 "packetx" 1 7 false; mkTok 44 (string_of_bytes [47; 47; 32; 240; 159; 152; 128; 32; 101; 109; 111; 106; 105]%N) 2 4 true; mkTok 2 "{" 3 4 false; mkTok 36 "repeat" 3 6 false; mkTok 14 "zchar[" 3 13 false; mkTok 30 "3" 3 20 false; mkTok 13 "]" 3 21 false; mkTok 42 "a1" 3 22 false; mkTok 43 (string_of_bytes [96; 195; 169; 96]%N) 3 25 false; mkTok 40 "," 3 29 false; mkTok 5 "@calculatedFrom(" 3 31 false; mkTok 31 """""" 4 0 false; mkTok 44 "//" 5 4 true; mkTok 6 ")" 6 4 false; mkTok 23 "u64" 6 6 false; mkTok 42 "pack" 6 10 false; mkTok 7 "@lengthOf(" 7 0 false; mkTok 42 "Pad" 8 4 false; mkTok 44 "// c" 8 8 true; mkTok 6 ")" 9 0 false; mkTok 40 "," 9 2 false; mkTok 3 "}" 9 3 false; mkTok 0 "<EOF>" 10 0 false] (mkPacket (mkPtok 35 "packet" 1 0 0) (Some (mkPtok 3 "}" 9 3 22)) [(DPacket (mkPacketDef (mkSpan (mkPtok 35 "packet" 1 0 0) (mkPtok 3 "}" 9 3 22)) None (mkPtok 35 "packet" 1 0 0) (mkPtok 42 "packetx" 1 7 1) (mkPtok 2 "{" 3 4 3) [(mkFieldWithAttr (mkSpan (mkPtok 36 "repeat" 3 6 4) (mkPtok 40 "," 3 29 10)) [] (MetaField (mkSpan (mkPtok 36 "repeat" 3 6 4) (mkPtok 40 "," 3 29 10)) (Some (mkPtok 36 "repeat" 3 6 4)) (mkMetaDecl (mkSpan (mkPtok 14 "zchar[" 3 13 5) (mkPtok 40 "," 3 29 10)) (TyFixed (mkSpan (mkPtok 14 "zchar[" 3 13 5) (mkPtok 13 "]" 3 21 7)) (mkFixedString (mkSpan (mkPtok 14 "zchar[" 3 13 5) (mkPtok 13 "]" 3 21 7)) (mkPtok 14 "zchar[" 3 13 5) (mkPtok 30 "3" 3 20 6) (mkPtok 13 "]" 3 21 7))) (mkPtok 42 "a1" 3 22 8) (Some (mkPtok 43 (string_of_bytes [96; 195; 169; 96]%N) 3 25 9)) (mkPtok 40 "," 3 29 10)))); (mkFieldWithAttr (mkSpan (mkPtok 5 "@calculatedFrom(" 3 31 11) (mkPtok 40 "," 9 2 21)) [(FACalculatedFrom (mkSpan (mkPtok 5 "@calculatedFrom(" 3 31 11) (mkPtok 6 ")" 6 4 14)) (mkCalculatedFrom (mkSpan (mkPtok 5 "@calculatedFrom(" 3 31 11) (mkPtok 6 ")" 6 4 14)) (mkPtok 5 "@calculatedFrom(" 3 31 11) (mkPtok 31 """""" 4 0 12) (mkPtok 6 ")" 6 4 14)))] (LengthField (mkSpan (mkPtok 23 "u64" 6 6 15) (mkPtok 40 "," 9 2 21)) (mkLengthFieldDecl (mkSpan (mkPtok 23 "u64" 6 6 15) (mkPtok 40 "," 9 2 21)) (Some (TyBasic (mkSpan (mkPtok 23 "u64" 6 6 15) (mkPtok 23 "u64" 6 6 15)) (mkBasicType (mkSpan (mkPtok 23 "u64" 6 6 15) (mkPtok 23 "u64" 6 6 15)) (mkPtok 23 "u64" 6 6 15)))) (mkPtok 42 "pack" 6 10 16) (mkLengthOf (mkSpan (mkPtok 7 "@lengthOf(" 7 0 17) (mkPtok 6 ")" 9 0 20)) (mkPtok 7 "@lengthOf(" 7 0 17) (mkPtok 42 "Pad" 8 4 18) (mkPtok 6 ")" 9 0 20)) None (mkPtok 40 "," 9 2 21))))] (mkPtok 3 "}" 9 3 22)))])).
+Eval vm_compute in ("<<<M1781>>>" ++ check (runes_of_ascii "options
+{pack = """ ++ [233]%N ++ runes_of_ascii "t" ++ [233]%N ++ runes_of_ascii """
+; } packet
+roots
+// trailing space 
+//	t
+{
+match o // packet A { u8 x, }
+as repeatCount /// triple
+{10 :
+uint8x , 65535 :
+Logon 4294967296 : pack
+,
+0123456789
+    // packet A { u8 x, }
+    : trueish
+    , } , repeat
+i8
+    Pad `two words` , } root packet
+// packet A { u8 x, }
+// a // b
+charz
+    {@tag(65535 ) repeat	crc
+    , @calculatedFrom( """ ++ [28040; 24687]%N ++ runes_of_ascii """
+)	char[007 ] o
+`" ++ [233]%N ++ runes_of_ascii "` , zchar[0 ] string_ , repeat A
+{ char[] roots ,
+    } ,  } // " ++ [128512]%N ++ runes_of_ascii " emoji")).
+Eval vm_compute in ("<<<M1813>>>" ++ check (runes_of_ascii "options{
+    // @lengthOf(
+    repeatCount = """ ++ [233]%N ++ runes_of_ascii "t" ++ [233]%N ++ runes_of_ascii """
+u	= false
+; Pad //x
+=true As = '\x00' } packet a1 {f64 options1
+    ,
+    u16 x
+@lengthOf(crc	)
+,
+i32 uint8x ,// packet A { u8 x, }
+@lengthOf(msg_type ) //x
+repeat int	{ repeat char[
+7 ]crc `say ""hi""`// trailing space 
+, match// `tick` ""quote"" 'q'
+zchar as	lengthOf{ ""1"" : a1},
+repeat Foo // " ++ [128512]%N ++ runes_of_ascii " emoji
+string_ ,u8x uint8x`u8 x,` //	t
+,  },
+    } packet o { @lengthOf(// trailing space 
+trueish ) char[] i8i8@lengthOf( _x ) , }//x
+packet	Header { } // trailing space 
+MetaData // packet A { u8 x, }
+rootA { char[]metadata `u8 x,` ,
+// " ++ [27880; 37322]%N ++ runes_of_ascii "
+// " ++ [27880; 37322]%N ++ runes_of_ascii "
+}
+")).
+Eval vm_compute in ("<<<M1845>>>" ++ check (runes_of_ascii "
 ")).
 Eval vm_compute in ("<<<M1877>>>" ++ check (runes_of_ascii "
-packet
-MetaDataX {u128 @calculatedFrom(
-    """ ++ [28040; 24687]%N ++ runes_of_ascii """ ) ,
-uint16 u , match asx as
-_x//x
-{ ""{,}""// a // b
-:Header
-    // " ++ [27880; 37322]%N ++ runes_of_ascii "
-    , }
-,
-msg_type BodyLength `it's` , }
-    options {
-    } options { zchar	=""\" ++ [233]%N ++ runes_of_ascii """
-charz =zchar[	3
-]
-    }")).
-Eval vm_compute in ("<<<M1909>>>" ++ check (runes_of_ascii "options
-    { Foo =
-    '0' ; } packet zchar{ int16
-string_ ,@rightPad
-( '\x00'
-) int options1 `a\` ,@calculatedFrom(
-    ""// no comment"" ) @lengthOf( Pad
-)	repeat char[7 ]
-i8i8 `
-` ,
-@tag( 7)match trueish as chars
-    { ""\" ++ [233]%N ++ runes_of_ascii """// " ++ [27880; 37322]%N ++ runes_of_ascii "
-:
-string_  , 7	:f32a , [ ""\n"" ] :asx , [ 007 ]  : repeatCount }
-    // packet A { u8 x, }
-    , repeat
-body
-T , } root packet Z9_{
-calculatedFrom @lengthOf(Pad ) `a\` , @lengthOf(
-    // `tick` ""quote"" 'q'
-    falsey )
-    string
-    len @calculatedFrom( // trailing space 
-""a\\""  )
-`tab	here` ,
-@rightPad
-( )//
-Foo string_
-    `doc` ,}
-    packet u8x {
-    float32
-_x
-    //
-    @calculatedFrom(
-""1""	)
-// c
-//x
-, }
-    packet asx{ i16
-// " ++ [27880; 37322]%N ++ runes_of_ascii "
-//x
-Header ,match x as BodyLength {  [007
-, 65535, ""`tick`""	, ""abc"" , 42 , """ ++ [28040; 24687]%N ++ runes_of_ascii """, ""{,}"" , 42
-] : x_y_z ,  0123456789 :MetaDataX 1
-    :
-len } ,string x,  float ,  }
+// 50% %s
 ")).
-Eval vm_compute in ("<<<M1941>>>" ++ check (runes_of_ascii "root// `tick` ""quote"" 'q'
-packet int{ u8 i8i8
-, // " ++ [128512]%N ++ runes_of_ascii " emoji
-}packet float {
-    @calculatedFrom(	""" ++ [233]%N ++ runes_of_ascii "t" ++ [233]%N ++ runes_of_ascii """ ) @rightPad ( '\x00') @calculatedFrom( ""x y"" //x
-)string chars ,
+Eval vm_compute in ("<<<M1909>>>" ++ check (runes_of_ascii "packet chars { }
+packet a1 // " ++ [128512]%N ++ runes_of_ascii " emoji
+{ char[ 0123456789] i64_
+    @calculatedFrom( ""it's"" ) // a // b
+, }
+")).
+Eval vm_compute in ("<<<M1941>>>" ++ check (runes_of_ascii "MetaData packetx
+{
+charz falsey	, }
+")).
+Eval vm_compute in ("<<<M1973>>>" ++ check (runes_of_ascii "MetaData matchKey { zchar[ 1
+    // 50% %s
+    ]crc `it's`
+// @lengthOf(
+// packet A { u8 x, }
+, zchar options1 //
+, asx A	`crlf
+line`
+, char[
+0 ] string_ ,char[]
+    repeatCount `// not a comment` , // packet A { u8 x, }
+i8
+    repeatCount `say ""hi""`, } packet A { repeat
+lengthOf Pad`two words` , } options
+{
+    } packet x { @calculatedFrom( """ ++ [128512]%N ++ runes_of_ascii """	) @lengthOf( trueish )
     char[
-0 ] u @lengthOf(i8i8 ) `it's`,
-    repeat char[	4294967296
-// " ++ [27880; 37322]%N ++ runes_of_ascii "
-// " ++ [128512]%N ++ runes_of_ascii " emoji
-]  stringy `doc`
-, }
-// " ++ [128512]%N ++ runes_of_ascii " emoji
-// `tick` ""quote"" 'q'
-MetaData
-    // trailing space 
-    u8x { //	t
-char[]asx `{ , }` //	t
-,
-}
+    4294967296] x , Z9_ `100% of %d` ,
+repeat string_ ,match Z9_ as u8x // `tick` ""quote"" 'q'
+{ ""a\""b"" : i64_ ""\n""
+:MetaDataX
+[
+    65535
+,	""abc""
+    ]:	Logon ,
+}, zchar[
+    3 ]
+    x_y_z ,
+    chars// `tick` ""quote"" 'q'
+@calculatedFrom(
+    ""a\""b""
+) , @tag(0123456789 ) @lengthOf( body ) @rightPad ( '\x00'
+)
+u16 rootA@lengthOf( tag ),
+    int16//	t
+int ,
+int32 BodyLength ,}
+// c
 ")).
-Eval vm_compute in ("<<<M1973>>>" ++ check (runes_of_ascii "
-packet
-//
-// a // b
-asx
-{ @rightPad
-(
-'\x00' )repeat
-//
-// `tick` ""quote"" 'q'
-falsey ,
-    }
-// `tick` ""quote"" 'q'
-")).
-Eval vm_compute in ("<<<T1973>>>" ++ terms [mkTok 35 "packet" 2 0 false; mkTok 44 "//" 3 0 true; mkTok 44 "// a // b" 4 0 true; mkTok 42 "asx" 5 0 false; mkTok 2 "{" 6 0 false; mkTok 32 "@rightPad" 6 2 false; mkTok 8 "(" 7 0 false; mkTok 33 "'\x00'" 8 0 false; mkTok 6 ")" 8 7 false; mkTok 36 "repeat" 8 8 false; mkTok 44 "//" 9 0 true; mkTok 44 "// `tick` ""quote"" 'q'" 10 0 true; mkTok 42 "falsey" 11 0 false; mkTok 40 "," 11 7 false; mkTok 3 "}" 12 4 false; mkTok 44 "// `tick` ""quote"" 'q'" 13 0 true; mkTok 0 "<EOF>" 14 0 false] (mkPacket (mkPtok 35 "packet" 2 0 0) (Some (mkPtok 3 "}" 12 4 14)) [(DPacket (mkPacketDef (mkSpan (mkPtok 35 "packet" 2 0 0) (mkPtok 3 "}" 12 4 14)) None (mkPtok 35 "packet" 2 0 0) (mkPtok 42 "asx" 5 0 3) (mkPtok 2 "{" 6 0 4) [(mkFieldWithAttr (mkSpan (mkPtok 32 "@rightPad" 6 2 5) (mkPtok 40 "," 11 7 13)) [(FAPadding (mkSpan (mkPtok 32 "@rightPad" 6 2 5) (mkPtok 6 ")" 8 7 8)) (mkPaddingAttr (mkSpan (mkPtok 32 "@rightPad" 6 2 5) (mkPtok 6 ")" 8 7 8)) (mkPtok 32 "@rightPad" 6 2 5) (mkPtok 8 "(" 7 0 6) (Some (mkPtok 33 "'\x00'" 8 0 7)) (mkPtok 6 ")" 8 7 8)))] (ObjectField (mkSpan (mkPtok 36 "repeat" 8 8 9) (mkPtok 40 "," 11 7 13)) (Some (mkPtok 36 "repeat" 8 8 9)) (mkPtok 42 "falsey" 11 0 12) None None (mkPtok 40 "," 11 7 13)))] (mkPtok 3 "}" 12 4 14)))])).
+Eval vm_compute in ("<<<T1973>>>" ++ terms [mkTok 37 "MetaData" 1 0 false; mkTok 42 "matchKey" 1 9 false; mkTok 2 "{" 1 18 false; mkTok 14 "zchar[" 1 20 false; mkTok 30 "1" 1 27 false; mkTok 44 "// 50% %s" 2 4 true; mkTok 13 "]" 3 4 false; mkTok 42 "crc" 3 5 false; mkTok 43 "`it's`" 3 9 false; mkTok 44 "// @lengthOf(" 4 0 true; mkTok 44 "// packet A { u8 x, }" 5 0 true; mkTok 40 "," 6 0 false; mkTok 42 "zchar" 6 2 false; mkTok 42 "options1" 6 8 false; mkTok 44 "//" 6 17 true; mkTok 40 "," 7 0 false; mkTok 42 "asx" 7 2 false; mkTok 42 "A" 7 6 false; mkTok 43 (string_of_bytes [96; 99; 114; 108; 102; 13; 10; 108; 105; 110; 101; 96]%N) 7 8 false; mkTok 40 "," 9 0 false; mkTok 12 "char[" 9 2 false; mkTok 30 "0" 10 0 false; mkTok 13 "]" 10 2 false; mkTok 42 "string_" 10 4 false; mkTok 40 "," 10 12 false; mkTok 16 "char[]" 10 13 false; mkTok 42 "repeatCount" 11 4 false; mkTok 43 "`// not a comment`" 11 16 false; mkTok 40 "," 11 35 false; mkTok 44 "// packet A { u8 x, }" 11 37 true; mkTok 24 "i8" 12 0 false; mkTok 42 "repeatCount" 13 4 false; mkTok 43 "`say ""hi""`" 13 16 false; mkTok 40 "," 13 26 false; mkTok 3 "}" 13 28 false; mkTok 35 "packet" 13 30 false; mkTok 42 "A" 13 37 false; mkTok 2 "{" 13 39 false; mkTok 36 "repeat" 13 41 false; mkTok 42 "lengthOf" 14 0 false; mkTok 42 "Pad" 14 9 false; mkTok 43 "`two words`" 14 12 false; mkTok 40 "," 14 24 false; mkTok 3 "}" 14 26 false; mkTok 1 "options" 14 28 false; mkTok 2 "{" 15 0 false; mkTok 3 "}" 16 4 false; mkTok 35 "packet" 16 6 false; mkTok 42 "x" 16 13 false; mkTok 2 "{" 16 15 false; mkTok 5 "@calculatedFrom(" 16 17 false; mkTok 31 (string_of_bytes [34; 240; 159; 152; 128; 34]%N) 16 34 false; mkTok 6 ")" 16 38 false; mkTok 7 "@lengthOf(" 16 40 false; mkTok 42 "trueish" 16 51 false; mkTok 6 ")" 16 59 false; mkTok 12 "char[" 17 4 false; mkTok 30 "4294967296" 18 4 false; mkTok 13 "]" 18 14 false; mkTok 42 "x" 18 16 false; mkTok 40 "," 18 18 false; mkTok 42 "Z9_" 18 20 false; mkTok 43 "`100% of %d`" 18 24 false; mkTok 40 "," 18 37 false; mkTok 36 "repeat" 19 0 false; mkTok 42 "string_" 19 7 false; mkTok 40 "," 19 15 false; mkTok 38 "match" 19 16 false; mkTok 42 "Z9_" 19 22 false; mkTok 17 "as" 19 26 false; mkTok 42 "u8x" 19 29 false; mkTok 44 "// `tick` ""quote"" 'q'" 19 33 true; mkTok 2 "{" 20 0 false; mkTok 31 """a\""b""" 20 2 false; mkTok 39 ":" 20 9 false; mkTok 42 "i64_" 20 11 false; mkTok 31 """\n""" 20 16 false; mkTok 39 ":" 21 0 false; mkTok 42 "MetaDataX" 21 1 false; mkTok 18 "[" 22 0 false; mkTok 30 "65535" 23 4 false; mkTok 40 "," 24 0 false; mkTok 31 """abc""" 24 2 false; mkTok 13 "]" 25 4 false; mkTok 39 ":" 25 5 false; mkTok 42 "Logon" 25 7 false; mkTok 40 "," 25 13 false; mkTok 3 "}" 26 0 false; mkTok 40 "," 26 1 false; mkTok 14 "zchar[" 26 3 false; mkTok 30 "3" 27 4 false; mkTok 13 "]" 27 6 false; mkTok 42 "x_y_z" 28 4 false; mkTok 40 "," 28 10 false; mkTok 42 "chars" 29 4 false; mkTok 44 "// `tick` ""quote"" 'q'" 29 9 true; mkTok 5 "@calculatedFrom(" 30 0 false; mkTok 31 """a\""b""" 31 4 false; mkTok 6 ")" 32 0 false; mkTok 40 "," 32 2 false; mkTok 9 "@tag(" 32 4 false; mkTok 30 "0123456789" 32 9 false; mkTok 6 ")" 32 20 false; mkTok 7 "@lengthOf(" 32 22 false; mkTok 42 "body" 32 33 false; mkTok 6 ")" 32 38 false; mkTok 32 "@rightPad" 32 40 false; mkTok 8 "(" 32 50 false; mkTok 33 "'\x00'" 32 52 false; mkTok 6 ")" 33 0 false; mkTok 21 "u16" 34 0 false; mkTok 42 "rootA" 34 4 false; mkTok 7 "@lengthOf(" 34 9 false; mkTok 42 "tag" 34 20 false; mkTok 6 ")" 34 24 false; mkTok 40 "," 34 25 false; mkTok 25 "int16" 35 4 false; mkTok 44 (string_of_bytes [47; 47; 9; 116]%N) 35 9 true; mkTok 42 "int" 36 0 false; mkTok 40 "," 36 4 false; mkTok 26 "int32" 37 0 false; mkTok 42 "BodyLength" 37 6 false; mkTok 40 "," 37 17 false; mkTok 3 "}" 37 18 false; mkTok 44 "// c" 38 0 true; mkTok 0 "<EOF>" 39 0 false] (mkPacket (mkPtok 37 "MetaData" 1 0 0) (Some (mkPtok 3 "}" 37 18 123)) [(DMeta (mkMetaDef (mkSpan (mkPtok 37 "MetaData" 1 0 0) (mkPtok 3 "}" 13 28 34)) (mkPtok 37 "MetaData" 1 0 0) (mkPtok 42 "matchKey" 1 9 1) (mkPtok 2 "{" 1 18 2) [(MIDecl (mkMetaDecl (mkSpan (mkPtok 14 "zchar[" 1 20 3) (mkPtok 40 "," 6 0 11)) (TyFixed (mkSpan (mkPtok 14 "zchar[" 1 20 3) (mkPtok 13 "]" 3 4 6)) (mkFixedString (mkSpan (mkPtok 14 "zchar[" 1 20 3) (mkPtok 13 "]" 3 4 6)) (mkPtok 14 "zchar[" 1 20 3) (mkPtok 30 "1" 1 27 4) (mkPtok 13 "]" 3 4 6))) (mkPtok 42 "crc" 3 5 7) (Some (mkPtok 43 "`it's`" 3 9 8)) (mkPtok 40 "," 6 0 11))); (MIRef (mkRefMetaDecl (mkSpan (mkPtok 42 "zchar" 6 2 12) (mkPtok 40 "," 7 0 15)) (mkPtok 42 "zchar" 6 2 12) (mkPtok 42 "options1" 6 8 13) None (mkPtok 40 "," 7 0 15))); (MIRef (mkRefMetaDecl (mkSpan (mkPtok 42 "asx" 7 2 16) (mkPtok 40 "," 9 0 19)) (mkPtok 42 "asx" 7 2 16) (mkPtok 42 "A" 7 6 17) (Some (mkPtok 43 (string_of_bytes [96; 99; 114; 108; 102; 13; 10; 108; 105; 110; 101; 96]%N) 7 8 18)) (mkPtok 40 "," 9 0 19))); (MIDecl (mkMetaDecl (mkSpan (mkPtok 12 "char[" 9 2 20) (mkPtok 40 "," 10 12 24)) (TyFixed (mkSpan (mkPtok 12 "char[" 9 2 20) (mkPtok 13 "]" 10 2 22)) (mkFixedString (mkSpan (mkPtok 12 "char[" 9 2 20) (mkPtok 13 "]" 10 2 22)) (mkPtok 12 "char[" 9 2 20) (mkPtok 30 "0" 10 0 21) (mkPtok 13 "]" 10 2 22))) (mkPtok 42 "string_" 10 4 23) None (mkPtok 40 "," 10 12 24))); (MIDecl (mkMetaDecl (mkSpan (mkPtok 16 "char[]" 10 13 25) (mkPtok 40 "," 11 35 28)) (TyDynamic (mkSpan (mkPtok 16 "char[]" 10 13 25) (mkPtok 16 "char[]" 10 13 25)) (mkDynamicString (mkSpan (mkPtok 16 "char[]" 10 13 25) (mkPtok 16 "char[]" 10 13 25)) (mkPtok 16 "char[]" 10 13 25))) (mkPtok 42 "repeatCount" 11 4 26) (Some (mkPtok 43 "`// not a comment`" 11 16 27)) (mkPtok 40 "," 11 35 28))); (MIDecl (mkMetaDecl (mkSpan (mkPtok 24 "i8" 12 0 30) (mkPtok 40 "," 13 26 33)) (TyBasic (mkSpan (mkPtok 24 "i8" 12 0 30) (mkPtok 24 "i8" 12 0 30)) (mkBasicType (mkSpan (mkPtok 24 "i8" 12 0 30) (mkPtok 24 "i8" 12 0 30)) (mkPtok 24 "i8" 12 0 30))) (mkPtok 42 "repeatCount" 13 4 31) (Some (mkPtok 43 "`say ""hi""`" 13 16 32)) (mkPtok 40 "," 13 26 33)))] (mkPtok 3 "}" 13 28 34))); (DPacket (mkPacketDef (mkSpan (mkPtok 35 "packet" 13 30 35) (mkPtok 3 "}" 14 26 43)) None (mkPtok 35 "packet" 13 30 35) (mkPtok 42 "A" 13 37 36) (mkPtok 2 "{" 13 39 37) [(mkFieldWithAttr (mkSpan (mkPtok 36 "repeat" 13 41 38) (mkPtok 40 "," 14 24 42)) [] (ObjectField (mkSpan (mkPtok 36 "repeat" 13 41 38) (mkPtok 40 "," 14 24 42)) (Some (mkPtok 36 "repeat" 13 41 38)) (mkPtok 42 "lengthOf" 14 0 39) (Some (mkPtok 42 "Pad" 14 9 40)) (Some (mkPtok 43 "`two words`" 14 12 41)) (mkPtok 40 "," 14 24 42)))] (mkPtok 3 "}" 14 26 43))); (DOption (mkOptionDef (mkSpan (mkPtok 1 "options" 14 28 44) (mkPtok 3 "}" 16 4 46)) (mkPtok 1 "options" 14 28 44) (mkPtok 2 "{" 15 0 45) [] (mkPtok 3 "}" 16 4 46))); (DPacket (mkPacketDef (mkSpan (mkPtok 35 "packet" 16 6 47) (mkPtok 3 "}" 37 18 123)) None (mkPtok 35 "packet" 16 6 47) (mkPtok 42 "x" 16 13 48) (mkPtok 2 "{" 16 15 49) [(mkFieldWithAttr (mkSpan (mkPtok 5 "@calculatedFrom(" 16 17 50) (mkPtok 40 "," 18 18 60)) [(FACalculatedFrom (mkSpan (mkPtok 5 "@calculatedFrom(" 16 17 50) (mkPtok 6 ")" 16 38 52)) (mkCalculatedFrom (mkSpan (mkPtok 5 "@calculatedFrom(" 16 17 50) (mkPtok 6 ")" 16 38 52)) (mkPtok 5 "@calculatedFrom(" 16 17 50) (mkPtok 31 (string_of_bytes [34; 240; 159; 152; 128; 34]%N) 16 34 51) (mkPtok 6 ")" 16 38 52))); (FALengthOf (mkSpan (mkPtok 7 "@lengthOf(" 16 40 53) (mkPtok 6 ")" 16 59 55)) (mkLengthOf (mkSpan (mkPtok 7 "@lengthOf(" 16 40 53) (mkPtok 6 ")" 16 59 55)) (mkPtok 7 "@lengthOf(" 16 40 53) (mkPtok 42 "trueish" 16 51 54) (mkPtok 6 ")" 16 59 55)))] (MetaField (mkSpan (mkPtok 12 "char[" 17 4 56) (mkPtok 40 "," 18 18 60)) None (mkMetaDecl (mkSpan (mkPtok 12 "char[" 17 4 56) (mkPtok 40 "," 18 18 60)) (TyFixed (mkSpan (mkPtok 12 "char[" 17 4 56) (mkPtok 13 "]" 18 14 58)) (mkFixedString (mkSpan (mkPtok 12 "char[" 17 4 56) (mkPtok 13 "]" 18 14 58)) (mkPtok 12 "char[" 17 4 56) (mkPtok 30 "4294967296" 18 4 57) (mkPtok 13 "]" 18 14 58))) (mkPtok 42 "x" 18 16 59) None (mkPtok 40 "," 18 18 60)))); (mkFieldWithAttr (mkSpan (mkPtok 42 "Z9_" 18 20 61) (mkPtok 40 "," 18 37 63)) [] (ObjectField (mkSpan (mkPtok 42 "Z9_" 18 20 61) (mkPtok 40 "," 18 37 63)) None (mkPtok 42 "Z9_" 18 20 61) None (Some (mkPtok 43 "`100% of %d`" 18 24 62)) (mkPtok 40 "," 18 37 63))); (mkFieldWithAttr (mkSpan (mkPtok 36 "repeat" 19 0 64) (mkPtok 40 "," 19 15 66)) [] (ObjectField (mkSpan (mkPtok 36 "repeat" 19 0 64) (mkPtok 40 "," 19 15 66)) (Some (mkPtok 36 "repeat" 19 0 64)) (mkPtok 42 "string_" 19 7 65) None None (mkPtok 40 "," 19 15 66))); (mkFieldWithAttr (mkSpan (mkPtok 38 "match" 19 16 67) (mkPtok 40 "," 26 1 88)) [] (MatchField (mkSpan (mkPtok 38 "match" 19 16 67) (mkPtok 40 "," 26 1 88)) (mkMatchFieldDecl (mkSpan (mkPtok 38 "match" 19 16 67) (mkPtok 3 "}" 26 0 87)) (mkPtok 38 "match" 19 16 67) (mkPtok 42 "Z9_" 19 22 68) (mkPtok 17 "as" 19 26 69) (mkPtok 42 "u8x" 19 29 70) (mkPtok 2 "{" 20 0 72) [(mkMatchPair (mkSpan (mkPtok 31 """a\""b""" 20 2 73) (mkPtok 42 "i64_" 20 11 75)) (MKString (mkPtok 31 """a\""b""" 20 2 73)) (mkPtok 39 ":" 20 9 74) (mkPtok 42 "i64_" 20 11 75) None); (mkMatchPair (mkSpan (mkPtok 31 """\n""" 20 16 76) (mkPtok 42 "MetaDataX" 21 1 78)) (MKString (mkPtok 31 """\n""" 20 16 76)) (mkPtok 39 ":" 21 0 77) (mkPtok 42 "MetaDataX" 21 1 78) None); (mkMatchPair (mkSpan (mkPtok 18 "[" 22 0 79) (mkPtok 40 "," 25 13 86)) (MKList (mkKeyList (mkSpan (mkPtok 18 "[" 22 0 79) (mkPtok 13 "]" 25 4 83)) (mkPtok 18 "[" 22 0 79) (mkPtok 30 "65535" 23 4 80) [((mkPtok 40 "," 24 0 81), (mkPtok 31 """abc""" 24 2 82))] (mkPtok 13 "]" 25 4 83))) (mkPtok 39 ":" 25 5 84) (mkPtok 42 "Logon" 25 7 85) (Some (mkPtok 40 "," 25 13 86)))] (mkPtok 3 "}" 26 0 87)) (mkPtok 40 "," 26 1 88))); (mkFieldWithAttr (mkSpan (mkPtok 14 "zchar[" 26 3 89) (mkPtok 40 "," 28 10 93)) [] (MetaField (mkSpan (mkPtok 14 "zchar[" 26 3 89) (mkPtok 40 "," 28 10 93)) None (mkMetaDecl (mkSpan (mkPtok 14 "zchar[" 26 3 89) (mkPtok 40 "," 28 10 93)) (TyFixed (mkSpan (mkPtok 14 "zchar[" 26 3 89) (mkPtok 13 "]" 27 6 91)) (mkFixedString (mkSpan (mkPtok 14 "zchar[" 26 3 89) (mkPtok 13 "]" 27 6 91)) (mkPtok 14 "zchar[" 26 3 89) (mkPtok 30 "3" 27 4 90) (mkPtok 13 "]" 27 6 91))) (mkPtok 42 "x_y_z" 28 4 92) None (mkPtok 40 "," 28 10 93)))); (mkFieldWithAttr (mkSpan (mkPtok 42 "chars" 29 4 94) (mkPtok 40 "," 32 2 99)) [] (CheckSumField (mkSpan (mkPtok 42 "chars" 29 4 94) (mkPtok 40 "," 32 2 99)) (mkChecksumFieldDecl (mkSpan (mkPtok 42 "chars" 29 4 94) (mkPtok 40 "," 32 2 99)) None (mkPtok 42 "chars" 29 4 94) (mkCalculatedFrom (mkSpan (mkPtok 5 "@calculatedFrom(" 30 0 96) (mkPtok 6 ")" 32 0 98)) (mkPtok 5 "@calculatedFrom(" 30 0 96) (mkPtok 31 """a\""b""" 31 4 97) (mkPtok 6 ")" 32 0 98)) None (mkPtok 40 "," 32 2 99)))); (mkFieldWithAttr (mkSpan (mkPtok 9 "@tag(" 32 4 100) (mkPtok 40 "," 34 25 115)) [(FATag (mkSpan (mkPtok 9 "@tag(" 32 4 100) (mkPtok 6 ")" 32 20 102)) (mkTagAttr (mkSpan (mkPtok 9 "@tag(" 32 4 100) (mkPtok 6 ")" 32 20 102)) (mkPtok 9 "@tag(" 32 4 100) (mkPtok 30 "0123456789" 32 9 101) (mkPtok 6 ")" 32 20 102))); (FALengthOf (mkSpan (mkPtok 7 "@lengthOf(" 32 22 103) (mkPtok 6 ")" 32 38 105)) (mkLengthOf (mkSpan (mkPtok 7 "@lengthOf(" 32 22 103) (mkPtok 6 ")" 32 38 105)) (mkPtok 7 "@lengthOf(" 32 22 103) (mkPtok 42 "body" 32 33 104) (mkPtok 6 ")" 32 38 105))); (FAPadding (mkSpan (mkPtok 32 "@rightPad" 32 40 106) (mkPtok 6 ")" 33 0 109)) (mkPaddingAttr (mkSpan (mkPtok 32 "@rightPad" 32 40 106) (mkPtok 6 ")" 33 0 109)) (mkPtok 32 "@rightPad" 32 40 106) (mkPtok 8 "(" 32 50 107) (Some (mkPtok 33 "'\x00'" 32 52 108)) (mkPtok 6 ")" 33 0 109)))] (LengthField (mkSpan (mkPtok 21 "u16" 34 0 110) (mkPtok 40 "," 34 25 115)) (mkLengthFieldDecl (mkSpan (mkPtok 21 "u16" 34 0 110) (mkPtok 40 "," 34 25 115)) (Some (TyBasic (mkSpan (mkPtok 21 "u16" 34 0 110) (mkPtok 21 "u16" 34 0 110)) (mkBasicType (mkSpan (mkPtok 21 "u16" 34 0 110) (mkPtok 21 "u16" 34 0 110)) (mkPtok 21 "u16" 34 0 110)))) (mkPtok 42 "rootA" 34 4 111) (mkLengthOf (mkSpan (mkPtok 7 "@lengthOf(" 34 9 112) (mkPtok 6 ")" 34 24 114)) (mkPtok 7 "@lengthOf(" 34 9 112) (mkPtok 42 "tag" 34 20 113) (mkPtok 6 ")" 34 24 114)) None (mkPtok 40 "," 34 25 115)))); (mkFieldWithAttr (mkSpan (mkPtok 25 "int16" 35 4 116) (mkPtok 40 "," 36 4 119)) [] (MetaField (mkSpan (mkPtok 25 "int16" 35 4 116) (mkPtok 40 "," 36 4 119)) None (mkMetaDecl (mkSpan (mkPtok 25 "int16" 35 4 116) (mkPtok 40 "," 36 4 119)) (TyBasic (mkSpan (mkPtok 25 "int16" 35 4 116) (mkPtok 25 "int16" 35 4 116)) (mkBasicType (mkSpan (mkPtok 25 "int16" 35 4 116) (mkPtok 25 "int16" 35 4 116)) (mkPtok 25 "int16" 35 4 116))) (mkPtok 42 "int" 36 0 118) None (mkPtok 40 "," 36 4 119)))); (mkFieldWithAttr (mkSpan (mkPtok 26 "int32" 37 0 120) (mkPtok 40 "," 37 17 122)) [] (MetaField (mkSpan (mkPtok 26 "int32" 37 0 120) (mkPtok 40 "," 37 17 122)) None (mkMetaDecl (mkSpan (mkPtok 26 "int32" 37 0 120) (mkPtok 40 "," 37 17 122)) (TyBasic (mkSpan (mkPtok 26 "int32" 37 0 120) (mkPtok 26 "int32" 37 0 120)) (mkBasicType (mkSpan (mkPtok 26 "int32" 37 0 120) (mkPtok 26 "int32" 37 0 120)) (mkPtok 26 "int32" 37 0 120))) (mkPtok 42 "BodyLength" 37 6 121) None (mkPtok 40 "," 37 17 122))))] (mkPtok 3 "}" 37 18 123)))])).
 Eval vm_compute in ("<<<M2005>>>" ++ check (runes_of_ascii "options {
 	StringPrefixLenType = u16;
 	ArrayPrefixLenType = u16;
@@ -1336,459 +1373,407 @@ packet Detail {
 	string RuleName `" ++ [35268; 21017; 21517; 31216]%N ++ runes_of_ascii "`,
 	u16 Code `" ++ [21407; 22240; 20195; 30721]%N ++ runes_of_ascii "`,
 }")).
-Eval vm_compute in ("<<<M2037>>>" ++ check (runes_of_ascii "options{ i64_ = string 7 trueish =
-    '\x00'
-    leftPad = ""a\\"" /// triple
-; crc
-    = 255; uint8x
-=
-""abc""
-    ;}")).
-Eval vm_compute in ("<<<M2069>>>" ++ check (runes_of_ascii "options{ i64_ = string ; trueish =
-    '\x00'
-    leftPad = ""a\\"" /// triple
- crc
-    = 255; uint8x
-=
-""abc""
-    ;}")).
-Eval vm_compute in ("<<<M2101>>>" ++ check (runes_of_ascii "options{ i64_ = string ; trueish =
-    '\x00'
-    leftPad = ""a\\"" /// triple
-; crc
-    = 255; uint8x
-""abc""
-=
-    ;}")).
-Eval vm_compute in ("<<<M2133>>>" ++ check (runes_of_ascii "options{ i64_ = string ; trueish =
-    '\x00'
-    leftPad = ""a\\"" /// triple
-@lengthOf; crc
-    = 255; uint8x
-=
-""abc""
-    ;}")).
-Eval vm_compute in ("<<<M2165>>>" ++ check (runes_of_ascii "  packet
-asx
-{
-/// triple
-// @lengthOf(
-u32 stringy
- ,} MetaData
-    A {string  _x, zchar Header `a\`
-// @lengthOf(
+Eval vm_compute in ("<<<M2037>>>" ++ check (runes_of_ascii "MetaData repeatCount { float64 packetx metadata
+} root packet  metadata {
+char _x @lengthOf( trueish ), @leftPad
+( ' '// " ++ [27880; 37322]%N ++ runes_of_ascii "
+)/// triple
+char[] len`doc` , // packet A { u8 x, }
+repeatCount , }
+")).
+Eval vm_compute in ("<<<M2069>>>" ++ check (runes_of_ascii "MetaData repeatCount { float64 packetx,
+} root packet  metadata {
+char  @lengthOf( trueish ), @leftPad
+( ' '// " ++ [27880; 37322]%N ++ runes_of_ascii "
+)/// triple
+char[] len`doc` , // packet A { u8 x, }
+repeatCount , }
+")).
+Eval vm_compute in ("<<<M2101>>>" ++ check (runes_of_ascii "MetaData repeatCount { float64 packetx,
+} root packet  metadata {
+char _x @lengthOf( trueish ), @leftPad
+' ' (// " ++ [27880; 37322]%N ++ runes_of_ascii "
+)/// triple
+char[] len`doc` , // packet A { u8 x, }
+repeatCount , }
+")).
+Eval vm_compute in ("<<<M2133>>>" ++ check (runes_of_ascii "MetaData repeatCount { float64 packetx,
+} root packet  metadata {
+char _x @lengthOf( trueish ), @leftPad
+( ' '// " ++ [27880; 37322]%N ++ runes_of_ascii "
+)/// triple
+char[] len`doc`")).
+Eval vm_compute in ("<<<M2165>>>" ++ check (runes_of_ascii "MetaData repeatCount { float64 packetx,
+} root packet  metadata {
+char _x @lengthOf( trueish ), @leftPad
+( ' '// " ++ [27880; 37322]%N ++ runes_of_ascii "
+)/// triple
+char[] len" ++ [65279]%N ++ runes_of_ascii " `doc` , // packet A { u8 x, }
+repeatCount , }
+")).
+Eval vm_compute in ("<<<M2197>>>" ++ check (runes_of_ascii "options{
+leftPad
+    =65535
+a1
+; = true ; packetx=  '\x00' ; packetx
+=  """ ++ [28040; 24687]%N ++ runes_of_ascii """MetaDataX= // " ++ [27880; 37322]%N ++ runes_of_ascii "
+false }root // c
+packet // packet A { u8 x, }
+Pad { repeat
+u8 Header
 // packet A { u8 x, }
-, char[] MetaDataX
-,zchar[ 1 ]
-    matchKey
-    , char[] //
-u,	char[0123456789 ]
-    matchKey
-    `{ , }`, }
+//	t
+`{ , }`
+// a // b
+//x
+, }
 ")).
-Eval vm_compute in ("<<<M2197>>>" ++ check (runes_of_ascii "  packet
-asx
-{
-/// triple
-// @lengthOf(
-u32 stringy
-`" ++ [28040; 24687; 31867; 22411]%N ++ runes_of_ascii "` ,} MetaData
-    A {_x  string, zchar Header `a\`
-// @lengthOf(
+Eval vm_compute in ("<<<M2229>>>" ++ check (runes_of_ascii "options{
+leftPad
+    =65535
+;
+a1 = true ; packetx")).
+Eval vm_compute in ("<<<M2261>>>" ++ check (runes_of_ascii "options{
+leftPad
+    =65535
+;
+a1 = true ; packetx=  '\x00' ; packetx
+=  """ ++ [28040; 24687]%N ++ runes_of_ascii """MetaDataX= = // " ++ [27880; 37322]%N ++ runes_of_ascii "
+false }root // c
+packet // packet A { u8 x, }
+Pad { repeat
+u8 Header
 // packet A { u8 x, }
-, char[] MetaDataX
-,zchar[ 1 ]
-    matchKey
-    , char[] //
-u,	char[0123456789 ]
-    matchKey
-    `{ , }`, }
+//	t
+`{ , }`
+// a // b
+//x
+, }
 ")).
-Eval vm_compute in ("<<<M2229>>>" ++ check (runes_of_ascii "  packet
-asx
-{
-/// triple
-// @lengthOf(
-u32 stringy
-`" ++ [28040; 24687; 31867; 22411]%N ++ runes_of_ascii "` ,} MetaData
-    A {string  _x, zchar Header `a\`")).
-Eval vm_compute in ("<<<M2261>>>" ++ check (runes_of_ascii "  packet
-asx
-{
-/// triple
-// @lengthOf(
-u32 stringy
-`" ++ [28040; 24687; 31867; 22411]%N ++ runes_of_ascii "` ,} MetaData
-    A {string  _x, zchar Header `a\`
-// @lengthOf(
+Eval vm_compute in ("<<<M2293>>>" ++ check (runes_of_ascii "options{
+leftPad
+    =65535
+;
+a1 = true ; packetx=  '\x00' ; packetx
+=  """ ++ [28040; 24687]%N ++ runes_of_ascii """MetaDataX= // " ++ [27880; 37322]%N ++ runes_of_ascii "
+false }root // c
+packet // packet A { u8 x, }
+Pad : repeat
+u8 Header
 // packet A { u8 x, }
-, char[] MetaDataX
-,zchar[ 1 ]
-    matchKey matchKey
-    , char[] //
-u,	char[0123456789 ]
-    matchKey
-    `{ , }`, }
+//	t
+`{ , }`
+// a // b
+//x
+, }
 ")).
-Eval vm_compute in ("<<<M2293>>>" ++ check (runes_of_ascii "  packet
-asx
-{
-/// triple
-// @lengthOf(
-u32 stringy
-`" ++ [28040; 24687; 31867; 22411]%N ++ runes_of_ascii "` ,} MetaData
-    A {string  _x, zchar Header `a\`
-// @lengthOf(
-// packet A { u8 x, }
-, char[] MetaDataX
-,zchar[ 1 ]
-    matchKey
-    , char[] //
-u,	char[As ]
-    matchKey
-    `{ , }`, }
-")).
-Eval vm_compute in ("<<<M2325>>>" ++ check (runes_of_ascii "  packet
-asx
-{
-/// triple
-// @lengthOf(
-u32 stringy
-`" ++ [28040; 24687; 31867; 22411]%N ++ runes_of_ascii "` ,} MetaData
-    A {string  _x, zchar He\ader `a\`
-// @lengthOf(
-// packet A { u8 x, }
-, char[] MetaDataX
-,zchar[ 1 ]
-    matchKey
-    , char[] //
-u,	char[0123456789 ]
-    matchKey
-    `{ , }`, }
-")).
-Eval vm_compute in ("<<<M2357>>>" ++ check (runes_of_ascii "root
-    packet
-Packet
-{ { // trailing space 
-matchKey `tab	here` ,}")).
-Eval vm_compute in ("<<<M2389>>>" ++ check (runes_of_ascii "root
-    packet
-Packet
-{ // trailing space 
-matchKey `tab	here` ,'\x01' }")).
-Eval vm_compute in ("<<<M2421>>>" ++ check (runes_of_ascii "options{ falsey")).
-Eval vm_compute in ("<<<M2453>>>" ++ check (runes_of_ascii "options{ falsey // a // b
-=
-    '0' } options { repeatCount =
-true true ; string_// a // b
-=
-// c
-// " ++ [27880; 37322]%N ++ runes_of_ascii "
-int64
-// trailing space 
-/// triple
-; } // @lengthOf(")).
-Eval vm_compute in ("<<<M2485>>>" ++ check (runes_of_ascii "options{ falsey // a // b
-=
-    '0' } options { repeatCount =
-true ; string_// a // b
-=
-// c
-// " ++ [27880; 37322]%N ++ runes_of_ascii "
-int64
-// trailing space 
-/// triple
-;")).
-Eval vm_compute in ("<<<M2517>>>" ++ check (runes_of_ascii "options")).
-Eval vm_compute in ("<<<M2549>>>" ++ check (runes_of_ascii "options{}root packet
-metadata {
-@lengthOf(x x ) float32
-body ``, }
-    MetaData
-Z9_
-    {
-    string string_ , Logon x
-,
-uint32
-    // packet A { u8 x, }
-    Z9_,asx
-_x
-    `tab	here` , }
-")).
-Eval vm_compute in ("<<<M2581>>>" ++ check (runes_of_ascii "options{}root packet
-metadata {
-@lengthOf(x ) float32
-body ``, (
-    MetaData
-Z9_
-    {
-    string string_ , Logon x
-,
-uint32
-    // packet A { u8 x, }
-    Z9_,asx
-_x
-    `tab	here` , }
-")).
-Eval vm_compute in ("<<<M2613>>>" ++ check (runes_of_ascii "options{}root packet
-metadata {
-@lengthOf(x ) float32
-body ``, }
-    MetaData
-Z9_
-    {
-    string string_ ,  x
-,
-uint32
-    // packet A { u8 x, }
-    Z9_,asx
-_x
-    `tab	here` , }
-")).
-Eval vm_compute in ("<<<M2645>>>" ++ check (runes_of_ascii "options{}root packet
-metadata {
-@lengthOf(x ) float32
-body ``, }
-    MetaData
-Z9_
-    {
-    string string_ , Logon x
-,
-uint32
-    // packet A { u8 x, }
-    Z9_,_x
-asx
-    `tab	here` , }
-")).
-Eval vm_compute in ("<<<M2677>>>" ++ check (runes_of_ascii "options{}root packet
-metadata {
-@lengthOf(x ) float32
-body ``, }
-    MetaData
-Z9_
-    {
-    string stri%ng_ , Logon x
-,
-uint32
-    // packet A { u8 x, }
-    Z9_,asx
-_x
-    `tab	here` , }
-")).
-Eval vm_compute in ("<<<M2709>>>" ++ check (runes_of_ascii "options {
-    falsey=
- ; }")).
-Eval vm_compute in ("<<<M2741>>>" ++ check (runes_of_ascii "options {
-    fals\ey=
-""a\\"" ; }")).
-Eval vm_compute in ("<<<M2773>>>" ++ check (runes_of_ascii "MetaData f32a
-{
-    //	t
-    }root
-    i8 tag  {
+Eval vm_compute in ("<<<M2325>>>" ++ check (runes_of_ascii "options{
+leftPad
+    =65535
+;
+a1 = true ; packetx=  '\x00' ; packetx
+=  """ ++ [28040; 24687]%N ++ runes_of_ascii """MetaDataX= // " ++ [27880; 37322]%N ++ runes_of_ascii "
+false }root // c
+packet // packet A { u8 x, }
+Pad { repeat
+u8 H")).
+Eval vm_compute in ("<<<M2357>>>" ++ check (runes_of_ascii "
+packet float
+{ {	@calculatedFrom( """ ++ [233]%N ++ runes_of_ascii "t" ++ [233]%N ++ runes_of_ascii """ )
+@rightPad ( '\x00' )
+    @calculatedFrom( ""x y"" ) string chars  ,
+    // a // b
+    char[0 ]
+    u	@lengthOf( i8i8 ) `{ , }` ,repeat char[] o //x
+`// not a comment`, } // c")).
+Eval vm_compute in ("<<<M2389>>>" ++ check (runes_of_ascii "
+packet float
+{	@calculatedFrom( """ ++ [233]%N ++ runes_of_ascii "t" ++ [233]%N ++ runes_of_ascii """ )
+@rightPad ( i8 )
+    @calculatedFrom( ""x y"" ) string chars  ,
+    // a // b
+    char[0 ]
+    u	@lengthOf( i8i8 ) `{ , }` ,repeat char[] o //x
+`// not a comment`, } // c")).
+Eval vm_compute in ("<<<M2421>>>" ++ check (runes_of_ascii "
+packet float
+{	@calculatedFrom( """ ++ [233]%N ++ runes_of_ascii "t" ++ [233]%N ++ runes_of_ascii """ )
+@rightPad ( '\x00' )
+    @calculatedFrom( ""x y"" ) string chars  
+    // a // b
+    char[0 ]
+    u	@lengthOf( i8i8 ) `{ , }` ,repeat char[] o //x
+`// not a comment`, } // c")).
+Eval vm_compute in ("<<<M2453>>>" ++ check (runes_of_ascii "
+packet float
+{	@calculatedFrom( """ ++ [233]%N ++ runes_of_ascii "t" ++ [233]%N ++ runes_of_ascii """ )
+@rightPad ( '\x00' )
+    @calculatedFrom( ""x y"" ) string chars  ,
+    // a // b
+    char[0 ]
+    u	@lengthOf( ) i8i8 `{ , }` ,repeat char[] o //x
+`// not a comment`, } // c")).
+Eval vm_compute in ("<<<M2485>>>" ++ check (runes_of_ascii "
+packet float
+{	@calculatedFrom( """ ++ [233]%N ++ runes_of_ascii "t" ++ [233]%N ++ runes_of_ascii """ )
+@rightPad ( '\x00' )
+    @calculatedFrom( ""x y"" ) string chars  ,
+    // a // b
+    char[0 ]
+    u	@lengthOf( i8i8 ) `{ , }` ,repeat char[]")).
+Eval vm_compute in ("<<<M2517>>>" ++ check (runes_of_ascii "
+packet float
+{	@calculatedFrom( """ ++ [233]%N ++ runes_of_ascii "t" ++ [233]%N ++ runes_of_ascii """ )
+@rightPad ( ~ '\x00' )
+    @calculatedFrom( ""x y"" ) string chars  ,
+    // a // b
+    char[0 ]
+    u	@lengthOf( i8i8 ) `{ , }` ,repeat char[] o //x
+`// not a comment`, } // c")).
+Eval vm_compute in ("<<<M2549>>>" ++ check (runes_of_ascii "root packet u128{
+    repeat
+    65535 zchar[ ] u `" ++ [28040; 24687; 31867; 22411]%N ++ runes_of_ascii "` ,// `tick` ""quote"" 'q'
+} packet i64_ {repeatCount
+    `
+` ,	} // " ++ [128512]%N ++ runes_of_ascii " emoji")).
+Eval vm_compute in ("<<<M2581>>>" ++ check (runes_of_ascii "root packet u128{
+    repeat
+    zchar[ 65535 ] u `" ++ [28040; 24687; 31867; 22411]%N ++ runes_of_ascii "` ,")).
+Eval vm_compute in ("<<<M2613>>>" ++ check (runes_of_ascii "root packet u128{
+    repeat
+    zchar[ 65535 ] u `" ++ [28040; 24687; 31867; 22411]%N ++ runes_of_ascii "` ,// `tick` ""quote"" 'q'
+} packet i64_ {repeatCount
+    `
+` ,	} } // " ++ [128512]%N ++ runes_of_ascii " emoji")).
+Eval vm_compute in ("<<<M2645>>>" ++ check (runes_of_ascii "
+MetaData
+{ roots int8
+    BodyLength ,//	t
 }
 ")).
-Eval vm_compute in ("<<<M2805>>>" ++ check (runes_of_ascii "Me@lengthOftaData f32a
-{
-    //	t
-    }root
-    packet tag  {
+Eval vm_compute in ("<<<M2677>>>" ++ check (runes_of_ascii "
+MetaData
+roots { @lengthOfint8
+    BodyLength ,//	t
 }
 ")).
+Eval vm_compute in ("<<<M2709>>>" ++ check (runes_of_ascii "options {Packet  ""CRC32""i8i8 = false; leftPad =
+    '\x00'
+    // `tick` ""quote"" 'q'
+    ; o=255  ;
+    // packet A { u8 x, }
+    }")).
+Eval vm_compute in ("<<<M2741>>>" ++ check (runes_of_ascii "options {Packet = ""CRC32""i8i8 = false; = leftPad
+    '\x00'
+    // `tick` ""quote"" 'q'
+    ; o=255  ;
+    // packet A { u8 x, }
+    }")).
+Eval vm_compute in ("<<<M2773>>>" ++ check (runes_of_ascii "options {Packet = ""CRC32""i8i8 = false; leftPad =
+    '\x00'
+    // `tick` ""quote"" 'q'
+    ; o=")).
+Eval vm_compute in ("<<<M2805>>>" ++ check (runes_of_ascii "
+ metadata { @rightPad (
+    // packet A { u8 x, }
+    ' ' ) repeat u32	A
+,matchKey ,
+    @lengthOf( string_ ) @lengthOf( body )
+    // a // b
+    @lengthOf(float  )	repeat
+int32 u8x
+    // c
+    `tab	here`
+, } // a // b")).
 Eval vm_compute in ("<<<M2837>>>" ++ check (runes_of_ascii "
-options
-    {msg_type =
-    float32  } }root
-packet Z9_{ char /// triple
-crc @lengthOf(
-options1 ) //
-,} MetaData a1{}
-")).
+packet metadata { @rightPad (
+    // packet A { u8 x, }
+    ' ' repeat ) u32	A
+,matchKey ,
+    @lengthOf( string_ ) @lengthOf( body )
+    // a // b
+    @lengthOf(float  )	repeat
+int32 u8x
+    // c
+    `tab	here`
+, } // a // b")).
 Eval vm_compute in ("<<<M2869>>>" ++ check (runes_of_ascii "
-options
-    {msg_type =
-    float32  }root
-packet Z9_{ char /// triple
-MetaData @lengthOf(
-options1 ) //
-,} MetaData a1{}
-")).
+packet metadata { @rightPad (
+    // packet A { u8 x, }
+    ' ' ) repeat u32	A
+,matchKey")).
 Eval vm_compute in ("<<<M2901>>>" ++ check (runes_of_ascii "
-options
-    {msg_type =
-    float32  }root
-packet Z9_{ char /// triple
-crc @lengthOf(
-options1 ) //
-,} MetaData {}
-")).
+packet metadata { @rightPad (
+    // packet A { u8 x, }
+    ' ' ) repeat u32	A
+,matchKey ,
+    @lengthOf( string_ ) @lengthOf( body )
+    // a // b
+    @lengthOf( @lengthOf(float  )	repeat
+int32 u8x
+    // c
+    `tab	here`
+, } // a // b")).
 Eval vm_compute in ("<<<M2933>>>" ++ check (runes_of_ascii "
-options
-    {msg_type =
-    float32  }root
-packet Z9_{ char /// t" ++ [65279]%N ++ runes_of_ascii "riple
-crc @lengthOf(
-options1 ) //
-,} MetaData a1{}
+packet metadata { @rightPad (
+    // packet A { u8 x, }
+    ' ' ) repeat u32	A
+,matchKey ,
+    @lengthOf( string_ ) @lengthOf( body )
+    // a // b
+    @lengthOf(float  )	repeat
+int32 u8x
+    // c
+    @lengthOf(
+, } // a // b")).
+Eval vm_compute in ("<<<M2965>>>" ++ check (runes_of_ascii "
+packet metadata { @rightPad (
+    // packet A { u8 x, }
+    ' ' ) repeat u32	A
+,matchKey ,
+    @lengthOf( string_ ) @lengthOf( caf" ++ [233]%N ++ runes_of_ascii "_1 )
+    // a // b
+    @lengthOf(float  )	repeat
+int32 u8x
+    // c
+    `tab	here`
+, } // a // b")).
+Eval vm_compute in ("<<<M2997>>>" ++ check (runes_of_ascii "packet x{
+string
+zchar , //	t
+} }
 ")).
-Eval vm_compute in ("<<<M2965>>>" ++ check (runes_of_ascii "packet crc{ // " ++ [128512]%N ++ runes_of_ascii " emoji
-repeat string ""// no comment""
-`a\`, }
-")).
-Eval vm_compute in ("<<<M2997>>>" ++ check (runes_of_ascii "p@lengthOfacket crc{ // " ++ [128512]%N ++ runes_of_ascii " emoji
-repeat string i8i8
-`a\`, }
-")).
-Eval vm_compute in ("<<<M3029>>>" ++ check (runes_of_ascii "packet BodyLength {} MetaData zchar zchar{ zchar[// @lengthOf(
-42 ]
-    pack , string_
-A , char[]crc , _x trueish ,
-// " ++ [27880; 37322]%N ++ runes_of_ascii "
-// " ++ [128512]%N ++ runes_of_ascii " emoji
-zchar[
-    3 ]	T // trailing space 
-, } packet body
+Eval vm_compute in ("<<<M3029>>>" ++ check (runes_of_ascii "
+MetaData {
+Logon // c
+}root packet
+    Pad {
+    } options
 {
-    }
-")).
-Eval vm_compute in ("<<<M3061>>>" ++ check (runes_of_ascii "packet BodyLength {} MetaData zchar{ zchar[// @lengthOf(
-42 ]
-    pack @calculatedFrom( string_
-A , char[]crc , _x trueish ,
-// " ++ [27880; 37322]%N ++ runes_of_ascii "
-// " ++ [128512]%N ++ runes_of_ascii " emoji
-zchar[
-    3 ]	T // trailing space 
-, } packet body
+u
+    =
+    ""CRC32""
+    // " ++ [128512]%N ++ runes_of_ascii " emoji
+    i64_ = u16;
+T =65535 x = ' '
+    ; u128
+= true ; }")).
+Eval vm_compute in ("<<<M3061>>>" ++ check (runes_of_ascii "
+MetaData Logon
+{ // c
+}root packet
+    Pad")).
+Eval vm_compute in ("<<<M3093>>>" ++ check (runes_of_ascii "
+MetaData Logon
+{ // c
+}root packet
+    Pad {
+    } options
 {
-    }
-")).
-Eval vm_compute in ("<<<M3093>>>" ++ check (runes_of_ascii "packet BodyLength {} MetaData zchar{ zchar[// @lengthOf(
-42 ]
-    pack , string_
-A , char[]crc ,  trueish ,
-// " ++ [27880; 37322]%N ++ runes_of_ascii "
-// " ++ [128512]%N ++ runes_of_ascii " emoji
-zchar[
-    3 ]	T // trailing space 
-, } packet body
+u
+    =
+    ""CRC32""
+    // " ++ [128512]%N ++ runes_of_ascii " emoji
+    i64_ i64_ = u16;
+T =65535 x = ' '
+    ; u128
+= true ; }")).
+Eval vm_compute in ("<<<M3125>>>" ++ check (runes_of_ascii "
+MetaData Logon
+{ // c
+}root packet
+    Pad {
+    } options
 {
-    }
-")).
-Eval vm_compute in ("<<<M3125>>>" ++ check (runes_of_ascii "packet BodyLength {} MetaData zchar{ zchar[// @lengthOf(
-42 ]
-    pack , string_
-A , char[]crc , _x trueish ,
-// " ++ [27880; 37322]%N ++ runes_of_ascii "
-// " ++ [128512]%N ++ runes_of_ascii " emoji
-zchar[
-    3 ]	, // trailing space 
-T } packet body
+u
+    =
+    ""CRC32""
+    // " ++ [128512]%N ++ runes_of_ascii " emoji
+    i64_ = u16;
+T =root x = ' '
+    ; u128
+= true ; }")).
+Eval vm_compute in ("<<<M3157>>>" ++ check (runes_of_ascii "
+MetaData Logon
+{ // c
+}root packet
+    Pad {
+    } options
 {
-    }
+u
+    =
+    ""CRC32""
+    // " ++ [128512]%N ++ runes_of_ascii " emoji
+    i64_ = u16;
+T =65535 x = ' '
+    ; u128
+=  ; }")).
+Eval vm_compute in ("<<<M3189>>>" ++ check (runes_of_ascii "
+MetaData Logon
+{ // c
+}root packet
+    Pad {
+    } options
+{
+u
+    =
+    ""CRC32""
+    // " ++ [128512]%N ++ runes_of_ascii " emoji
+    i64_ = u16;
+T |=65535 x = ' '
+    ; u128
+= true ; }")).
+Eval vm_compute in ("<<<M3221>>>" ++ check (runes_of_ascii "MetaData body{}
+packet	char { x_y_z @calculatedFrom(  ""a\\"")// `tick` ""quote"" 'q'
+, }
 ")).
-Eval vm_compute in ("<<<M3157>>>" ++ check (runes_of_ascii "packet BodyLength {} MetaData zchar{ zchar[// @lengthOf(
-42 ]
-    pack , string_
-A , char[]crc , _x trueish ,
-// " ++ [27880; 37322]%N ++ runes_of_ascii "
-// " ++ [128512]%N ++ runes_of_ascii " emoji
-zchar[
-    3 ]	T ")).
-Eval vm_compute in ("<<<M3189>>>" ++ check (runes_of_ascii "packet
-string_ @lengthOf( int ) match packetx as f32a {
-    1 :	calculatedFrom , }  ,
-    } packet len
-    //	t
-    { @calculatedFrom( """ ++ [233]%N ++ runes_of_ascii "t" ++ [233]%N ++ runes_of_ascii """ ) body Header , char[] lengthOf  `two words` ,chars{repeat string_ matchKey ,
-    } ,
-    }
+Eval vm_compute in ("<<<M3253>>>" ++ check (runes_of_ascii "MetaData body{}
+packet	Packet { x_y_z @calculatedFrom(  ""a\\"")// `tick` ""quote"" 'q'
+, 
 ")).
-Eval vm_compute in ("<<<M3221>>>" ++ check (runes_of_ascii "packet
-string_ {@lengthOf( int ) match packetx f32a as {
-    1 :	calculatedFrom , }  ,
-    } packet len
-    //	t
-    { @calculatedFrom( """ ++ [233]%N ++ runes_of_ascii "t" ++ [233]%N ++ runes_of_ascii """ ) body Header , char[] lengthOf  `two words` ,chars{repeat string_ matchKey ,
-    } ,
-    }
+Eval vm_compute in ("<<<M3285>>>" ++ check (runes_of_ascii "packet f32a f32a {} root packet len {repeat u // " ++ [128512]%N ++ runes_of_ascii " emoji
+`{ , }` , }
 ")).
-Eval vm_compute in ("<<<M3253>>>" ++ check (runes_of_ascii "packet
-string_ {@lengthOf( int ) match packetx as f32a {
-    1 :	calculatedFrom")).
-Eval vm_compute in ("<<<M3285>>>" ++ check (runes_of_ascii "packet
-string_ {@lengthOf( int ) match packetx as f32a {
-    1 :	calculatedFrom , }  ,
-    } packet len
-    //	t
-    { @calculatedFrom( @calculatedFrom( """ ++ [233]%N ++ runes_of_ascii "t" ++ [233]%N ++ runes_of_ascii """ ) body Header , char[] lengthOf  `two words` ,chars{repeat string_ matchKey ,
-    } ,
-    }
+Eval vm_compute in ("<<<M3317>>>" ++ check (runes_of_ascii "packet f32a {} root packet len options repeat u // " ++ [128512]%N ++ runes_of_ascii " emoji
+`{ , }` , }
 ")).
-Eval vm_compute in ("<<<M3317>>>" ++ check (runes_of_ascii "packet
-string_ {@lengthOf( int ) match packetx as f32a {
-    1 :	calculatedFrom , }  ,
-    } packet len
-    //	t
-    { @calculatedFrom( """ ++ [233]%N ++ runes_of_ascii "t" ++ [233]%N ++ runes_of_ascii """ ) body Header , packet lengthOf  `two words` ,chars{repeat string_ matchKey ,
-    } ,
-    }
+Eval vm_compute in ("<<<M3349>>>" ++ check (runes_of_ascii "packet f32a {} root packet len |{repeat u // " ++ [128512]%N ++ runes_of_ascii " emoji
+`{ , }` , }
 ")).
-Eval vm_compute in ("<<<M3349>>>" ++ check (runes_of_ascii "packet
-string_ {@lengthOf( int ) match packetx as f32a {
-    1 :	calculatedFrom , }  ,
-    } packet len
-    //	t
-    { @calculatedFrom( """ ++ [233]%N ++ runes_of_ascii "t" ++ [233]%N ++ runes_of_ascii """ ) body Header , char[] lengthOf  `two words` ,chars{repeat  matchKey ,
-    } ,
-    }
-")).
-Eval vm_compute in ("<<<T3349>>>" ++ terms [mkTok 35 "packet" 1 0 false; mkTok 42 "string_" 2 0 false; mkTok 2 "{" 2 8 false; mkTok 7 "@lengthOf(" 2 9 false; mkTok 42 "int" 2 20 false; mkTok 6 ")" 2 24 false; mkTok 38 "match" 2 26 false; mkTok 42 "packetx" 2 32 false; mkTok 17 "as" 2 40 false; mkTok 42 "f32a" 2 43 false; mkTok 2 "{" 2 48 false; mkTok 30 "1" 3 4 false; mkTok 39 ":" 3 6 false; mkTok 42 "calculatedFrom" 3 8 false; mkTok 40 "," 3 23 false; mkTok 3 "}" 3 25 false; mkTok 40 "," 3 28 false; mkTok 3 "}" 4 4 false; mkTok 35 "packet" 4 6 false; mkTok 42 "len" 4 13 false; mkTok 44 (string_of_bytes [47; 47; 9; 116]%N) 5 4 true; mkTok 2 "{" 6 4 false; mkTok 5 "@calculatedFrom(" 6 6 false; mkTok 31 (string_of_bytes [34; 195; 169; 116; 195; 169; 34]%N) 6 23 false; mkTok 6 ")" 6 29 false; mkTok 42 "body" 6 31 false; mkTok 42 "Header" 6 36 false; mkTok 40 "," 6 43 false; mkTok 16 "char[]" 6 45 false; mkTok 42 "lengthOf" 6 52 false; mkTok 43 "`two words`" 6 62 false; mkTok 40 "," 6 74 false; mkTok 42 "chars" 6 75 false; mkTok 2 "{" 6 80 false; mkTok 36 "repeat" 6 81 false; mkTok 42 "matchKey" 6 89 false; mkTok 40 "," 6 98 false; mkTok 3 "}" 7 4 false; mkTok 40 "," 7 6 false; mkTok 3 "}" 8 4 false; mkTok 0 "<EOF>" 9 0 false] (mkPacket (mkPtok 35 "packet" 1 0 0) (Some (mkPtok 3 "}" 8 4 39)) [(DPacket (mkPacketDef (mkSpan (mkPtok 35 "packet" 1 0 0) (mkPtok 3 "}" 4 4 17)) None (mkPtok 35 "packet" 1 0 0) (mkPtok 42 "string_" 2 0 1) (mkPtok 2 "{" 2 8 2) [(mkFieldWithAttr (mkSpan (mkPtok 7 "@lengthOf(" 2 9 3) (mkPtok 40 "," 3 28 16)) [(FALengthOf (mkSpan (mkPtok 7 "@lengthOf(" 2 9 3) (mkPtok 6 ")" 2 24 5)) (mkLengthOf (mkSpan (mkPtok 7 "@lengthOf(" 2 9 3) (mkPtok 6 ")" 2 24 5)) (mkPtok 7 "@lengthOf(" 2 9 3) (mkPtok 42 "int" 2 20 4) (mkPtok 6 ")" 2 24 5)))] (MatchField (mkSpan (mkPtok 38 "match" 2 26 6) (mkPtok 40 "," 3 28 16)) (mkMatchFieldDecl (mkSpan (mkPtok 38 "match" 2 26 6) (mkPtok 3 "}" 3 25 15)) (mkPtok 38 "match" 2 26 6) (mkPtok 42 "packetx" 2 32 7) (mkPtok 17 "as" 2 40 8) (mkPtok 42 "f32a" 2 43 9) (mkPtok 2 "{" 2 48 10) [(mkMatchPair (mkSpan (mkPtok 30 "1" 3 4 11) (mkPtok 40 "," 3 23 14)) (MKDigits (mkPtok 30 "1" 3 4 11)) (mkPtok 39 ":" 3 6 12) (mkPtok 42 "calculatedFrom" 3 8 13) (Some (mkPtok 40 "," 3 23 14)))] (mkPtok 3 "}" 3 25 15)) (mkPtok 40 "," 3 28 16)))] (mkPtok 3 "}" 4 4 17))); (DPacket (mkPacketDef (mkSpan (mkPtok 35 "packet" 4 6 18) (mkPtok 3 "}" 8 4 39)) None (mkPtok 35 "packet" 4 6 18) (mkPtok 42 "len" 4 13 19) (mkPtok 2 "{" 6 4 21) [(mkFieldWithAttr (mkSpan (mkPtok 5 "@calculatedFrom(" 6 6 22) (mkPtok 40 "," 6 43 27)) [(FACalculatedFrom (mkSpan (mkPtok 5 "@calculatedFrom(" 6 6 22) (mkPtok 6 ")" 6 29 24)) (mkCalculatedFrom (mkSpan (mkPtok 5 "@calculatedFrom(" 6 6 22) (mkPtok 6 ")" 6 29 24)) (mkPtok 5 "@calculatedFrom(" 6 6 22) (mkPtok 31 (string_of_bytes [34; 195; 169; 116; 195; 169; 34]%N) 6 23 23) (mkPtok 6 ")" 6 29 24)))] (ObjectField (mkSpan (mkPtok 42 "body" 6 31 25) (mkPtok 40 "," 6 43 27)) None (mkPtok 42 "body" 6 31 25) (Some (mkPtok 42 "Header" 6 36 26)) None (mkPtok 40 "," 6 43 27))); (mkFieldWithAttr (mkSpan (mkPtok 16 "char[]" 6 45 28) (mkPtok 40 "," 6 74 31)) [] (MetaField (mkSpan (mkPtok 16 "char[]" 6 45 28) (mkPtok 40 "," 6 74 31)) None (mkMetaDecl (mkSpan (mkPtok 16 "char[]" 6 45 28) (mkPtok 40 "," 6 74 31)) (TyDynamic (mkSpan (mkPtok 16 "char[]" 6 45 28) (mkPtok 16 "char[]" 6 45 28)) (mkDynamicString (mkSpan (mkPtok 16 "char[]" 6 45 28) (mkPtok 16 "char[]" 6 45 28)) (mkPtok 16 "char[]" 6 45 28))) (mkPtok 42 "lengthOf" 6 52 29) (Some (mkPtok 43 "`two words`" 6 62 30)) (mkPtok 40 "," 6 74 31)))); (mkFieldWithAttr (mkSpan (mkPtok 42 "chars" 6 75 32) (mkPtok 40 "," 7 6 38)) [] (InerObjectField (mkSpan (mkPtok 42 "chars" 6 75 32) (mkPtok 40 "," 7 6 38)) None (InerObjectDecl (mkSpan (mkPtok 42 "chars" 6 75 32) (mkPtok 3 "}" 7 4 37)) (mkPtok 42 "chars" 6 75 32) (mkPtok 2 "{" 6 80 33) [(ObjectField (mkSpan (mkPtok 36 "repeat" 6 81 34) (mkPtok 40 "," 6 98 36)) (Some (mkPtok 36 "repeat" 6 81 34)) (mkPtok 42 "matchKey" 6 89 35) None None (mkPtok 40 "," 6 98 36))] (mkPtok 3 "}" 7 4 37)) (mkPtok 40 "," 7 6 38)))] (mkPtok 3 "}" 8 4 39)))])).
-Eval vm_compute in ("<<<M3381>>>" ++ check (runes_of_ascii "packet
-string_ {@lengthOf( int ) match packetx as f32a {
-    1 :	calculatedFrom , }  ,
-    } packet len
-    //	t
-    { @calculatedFrom( """ ++ [233]%N ++ runes_of_ascii "t" ++ [233]%N ++ runes_of_ascii """ ) bod")).
-Eval vm_compute in ("<<<M3413>>>" ++ check (runes_of_ascii "/// triple
-root
-packet // packet A { u8 x, }
-chars { @lengthOf(charz )
-stringy,  @tag(  ) 0 // a // b
-asx
-    As
-,
-// trailing space 
-// trailing space 
-x_y_z {
-repeat i16 charz , } ,	int16  crc ,}
-")).
-Eval vm_compute in ("<<<M3445>>>" ++ check (runes_of_ascii "/// triple
-root
-packet // packet A { u8 x, }
-chars ; @lengthOf(charz )
-stringy,  @tag(  0 ) // a // b
-asx
-    As
-,
-// trailing space 
-// trailing space 
-x_y_z {
-repeat i16 charz , } ,	int16  crc ,}
-")).
-Eval vm_compute in ("<<<M3477>>>" ++ check (runes_of_ascii "/// triple
-root
-packet // packet A { u8 x, }
-chars { @lengthOf(charz )
-stringy,  @tag(  0 ) // a // b
-asx
-    As
-,
-// trailing space 
-// trailing space 
-x_y_z {
-repeat repeat i16 charz , } ,	int16  crc ,}
-")).
+Eval vm_compute in ("<<<M3381>>>" ++ check (runes_of_ascii "options{ _x=""\" ++ [233]%N ++ runes_of_ascii """;")).
+Eval vm_compute in ("<<<M3413>>>" ++ check (runes_of_ascii "options{ _x=""\" ++ [233]%N ++ runes_of_ascii """;
+    Logon = = 10	; Foo= 7;
+i64_= char[]} options {
+matchKey = ""// no comment"" // a // b
+falsey = string
+; trueish =
+    4294967296
+options1=
+    ""it's"" string_	= true } options {
+    /// triple
+    }")).
+Eval vm_compute in ("<<<M3445>>>" ++ check (runes_of_ascii "options{ _x=""\" ++ [233]%N ++ runes_of_ascii """;
+    Logon = 10	; Foo= 7;
+i64_= char[]} options {
+matchKey = ""// no comment"" // a // b
+falsey = string
+; trueish =
+    4/294967296
+options1=
+    ""it's"" string_	= true } options {
+    /// triple
+    }")).
+Eval vm_compute in ("<<<M3477>>>" ++ check (runes_of_ascii "options{ _x=""\" ++ [233]%N ++ runes_of_ascii """;
+    Logon = 10	; Foo= 7;
+i64_= char[]} options {
+matchKey = ""// no comment"" // a // b
+caf" ++ [233]%N ++ runes_of_ascii "_1 = string
+; trueish =
+    4294967296
+options1=
+    ""it's"" string_	= true } options {
+    /// triple
+    }")).
 Eval vm_compute in ("<<<M3509>>>" ++ check (runes_of_ascii "f32 f64 float32 float64 float")).
 Eval vm_compute in ("<<<M3541>>>" ++ check (runes_of_ascii "'1'")).
 Eval vm_compute in ("<<<M3573>>>" ++ check (runes_of_ascii """""")).
@@ -1797,11 +1782,11 @@ Eval vm_compute in ("<<<M3637>>>" ++ check (runes_of_ascii "packet A { x, }")).
 Eval vm_compute in ("<<<M3669>>>" ++ check (runes_of_ascii "packet A { match k as n { }, }")).
 Eval vm_compute in ("<<<M3701>>>" ++ check (runes_of_ascii "packet A { } // c")).
 Eval vm_compute in ("<<<M3733>>>" ++ check (runes_of_ascii "options { a = char[x]; }")).
-Eval vm_compute in ("<<<M3765>>>" ++ check (runes_of_ascii "9!")).
-Eval vm_compute in ("<<<M3797>>>" ++ check (runes_of_ascii "sLBR'v3Tujo .}<s2*~%A#;~]`c5xemkd<Zut3")).
-Eval vm_compute in ("<<<M3829>>>" ++ check (runes_of_ascii "2.)9:+YZ=H`")).
-Eval vm_compute in ("<<<M3861>>>" ++ check (runes_of_ascii ":Xu8xF)6#")).
-Eval vm_compute in ("<<<M3893>>>" ++ check (runes_of_ascii "h=e3E!%XY")).
-Eval vm_compute in ("<<<M3925>>>" ++ check (runes_of_ascii "l%>9&")).
-Eval vm_compute in ("<<<M3957>>>" ++ check (runes_of_ascii ":b^voO[")).
-Eval vm_compute in ("<<<M3989>>>" ++ check (runes_of_ascii "$_T.~(Bx]s`tO3QDIF?J\p1AJYIk-/_ks;")).
+Eval vm_compute in ("<<<M3765>>>" ++ check (runes_of_ascii "Q0tg@C&")).
+Eval vm_compute in ("<<<M3797>>>" ++ check (runes_of_ascii "f'6*W(_4$|)xOGE;N60pK&jsdP+Cp_:8Jk9@99m")).
+Eval vm_compute in ("<<<M3829>>>" ++ check (runes_of_ascii "S6tO<"")S0tM>-?:$")).
+Eval vm_compute in ("<<<M3861>>>" ++ check (runes_of_ascii "X<9,xiDM:zDB=yFx")).
+Eval vm_compute in ("<<<M3893>>>" ++ check (runes_of_ascii "Y:I%{4""y^r$Tv0GA=%ex=")).
+Eval vm_compute in ("<<<M3925>>>" ++ check (runes_of_ascii "rs""kQ""\@3-lR^$Qj~]WZgKH ::z>j^qw'iS>Syo?")).
+Eval vm_compute in ("<<<M3957>>>" ++ check (runes_of_ascii "c7x""IU1\1:7;qP""QL""7EJSjtO>DCs4D")).
+Eval vm_compute in ("<<<M3989>>>" ++ check (runes_of_ascii "C2mXituz<a,I'IF6")).
